@@ -5,7 +5,7 @@ From Coq Require Import List Arith ZArith Lia Bool.
 Import ListNotations.
 From MS Require Import Base.Str Vm.Model Lang.Syntax Lang.Eval Compile.Compile Compile.ExprBase Compile.ExprSim.
 From MS Require Import Compile.StmtMach Compile.StmtRel Compile.StmtFrag Compile.StmtSim Compile.StmtFun.
-From MS Require Import Compile.ClosFrag Compile.ClosRel.
+From MS Require Import Compile.ClosFrag Compile.ClosRel Compile.ClosEval.
 From MS Require Vm.ClosureLemmas.
 Open Scope nat_scope.
 
@@ -80,11 +80,14 @@ Local Notation ClA := (Cl path prog cb CD base name SF).
 
 (* expression code leaves the user names and the registers below d alone *)
 Definition fkeep (d : nat) (g g' : gstate) : Prop :=
-  forall y, ~ own_reg d y -> find_in_function y (frames g') = find_in_function y (frames g).
+  forall y, ~ own_reg d y -> find_in_function y (frames g') = find_in_function y (frames g) /\
+                             assoc y (top_vars (frames g')) = assoc y (top_vars (frames g)).
 Lemma fkeep_refl : forall d g, fkeep d g g.
-Proof. intros d g y _. reflexivity. Qed.
+Proof. intros d g y _. split; reflexivity. Qed.
 Lemma fkeep_trans : forall d g1 g2 g3, fkeep d g1 g2 -> fkeep d g2 g3 -> fkeep d g1 g3.
-Proof. intros d g1 g2 g3 H1 H2 y Hy. now rewrite (H2 y Hy), (H1 y Hy). Qed.
+Proof. intros d g1 g2 g3 H1 H2 y Hy. destruct (H1 y Hy) as [A1 B1], (H2 y Hy) as [A2 B2]. split; congruence. Qed.
+Lemma fkeep_same : forall d g g', frames g' = frames g -> fkeep d g g'.
+Proof. intros d g g' E y _. now rewrite E. Qed.
 Lemma fkeep_mono : forall d d' g g', d <= d' -> fkeep d' g g' -> fkeep d g g'.
 Proof. intros d d' g g' Hle H y Hy. apply H. intros Ho. apply Hy. eapply own_reg_mono; eassumption. Qed.
 
@@ -144,7 +147,7 @@ Proof. intros b B env s g nm a i H. eapply Cl_same; [exact H|reflexivity|reflexi
 (* the captured DATA variables as a scope of the reference semantics: the environment a pure expression needs *)
 Definition capsc (env : fenv) : scope :=
   map (fun p => (fst p, match lookup_scopes (fst p) (captured env) with Some c => c | None => 0%N end)) CD.
-Definition envp (env : fenv) : fenv := {| locals := locals env; captured := [capsc env]; cur := cur env |}.
+Definition envp (env : fenv) : fenv := {| locals := map strip_sc (locals env); captured := [capsc env]; cur := cur env |}.
 
 Lemma assoc_capsc : forall env x, assoc x (capsc env) =
   match assoc x CD with Some _ => Some (match lookup_scopes x (captured env) with Some c => c | None => 0%N end) | None => None end.
@@ -156,35 +159,38 @@ Qed.
 (* where the reference semantics finds a variable of the expression; its value *)
 Lemma var_cell : forall b B env s g x k, ClA b B env s g -> bound2 B env -> kvar B CD x = Some k ->
   uname0 x /\ exists c c' v w, lookup_scopes x (locals env ++ captured env) = Some c /\
-     lookup_scopes x (locals env ++ [capsc env]) = Some c /\
+     lookup_scopes x (map strip_sc (locals env) ++ [capsc env]) = Some c /\
      (forall a, a_cb a = cb -> lookup_var a g x = Some c') /\ b c c' k /\ sget s c = Some v /\ cell_get g c' = Some w /\ vrel b k v w.
 Proof.
   intros b B env s g x k H Hb Hk. unfold kvar in Hk. destruct (assoc x B) as [k1|] eqn:EB.
   - inversion Hk; subst k1. destruct (cl_B _ _ _ _ _ _ _ _ _ _ _ _ H x k EB) as (Hx & c & c' & A1 & A2 & A3). split; [exact Hx|].
     destruct (proj1 (cl_heap _ _ _ _ _ _ _ _ _ _ _ _ H) _ _ _ A3) as (v & w & E1 & E2 & E3).
-    exists c, c', v, w. split; [now apply lookup_app_some|]. split; [now apply lookup_app_some|].
+    exists c, c', v, w. split; [now apply lookup_app_some|]. split; [apply lookup_app_some; rewrite (lookup_strip x _ (proj2 (proj2 Hx))); exact A1|].
     split; [intros a _; unfold lookup_var; now rewrite A2|]. auto.
   - destruct (cl_cap _ _ _ _ _ _ _ _ _ _ _ _ H x k Hk) as (Hx & c & c' & A1 & A2 & A3). split; [exact Hx|].
     destruct (proj1 (cl_heap _ _ _ _ _ _ _ _ _ _ _ _ H) _ _ _ A3) as (v & w & E1 & E2 & E3).
     assert (Hn : lookup_scopes x (locals env) = None).
     { destruct (lookup_scopes x (locals env)) eqn:E; [|reflexivity]. exfalso.
-      assert (Hin : In x (map fst B)) by (apply (proj1 Hb); congruence).
+      assert (Hin : In x (map fst B)) by (apply (bound2_in _ _ _ Hb (proj2 (proj2 Hx))); congruence).
       clear -EB Hin. induction B as [|[y ky] t IH]; [destruct Hin|]. cbn [assoc map fst In] in *.
       destruct (str_eqb y x) eqn:E; [discriminate|]. destruct Hin as [->|Hin]; [now rewrite str_eqb_refl in E|auto]. }
     assert (Hf : find_in_function x (frames g) = None).
     { pose proof (Rfr2_look _ _ _ (cl_fr _ _ _ _ _ _ _ _ _ _ _ _ H) x Hx) as Hl. rewrite Hn in Hl.
       destruct (find_in_function x (frames g)); [contradiction|reflexivity]. }
     exists c, c', v, w. split; [rewrite lookup_app_split, Hn; exact A1|]. split.
-    { rewrite lookup_app_split, Hn. cbn [lookup_scopes]. rewrite assoc_capsc, Hk, A1. reflexivity. }
+    { rewrite lookup_app_split, (lookup_strip x _ (proj2 (proj2 Hx))), Hn. cbn [lookup_scopes]. rewrite assoc_capsc, Hk, A1. reflexivity. }
     split; [intros a Ha; unfold lookup_var, load_cb; rewrite Hf, Ha; exact A2|]. auto.
 Qed.
 
 Lemma Cl_Renv : forall b B env s a g, ClA b B env s g -> bound2 B env -> a_cb a = cb -> Renv (envp env) s a g.
 Proof.
   intros b B env s a g H Hb Hacb x c v Hsx Hl Hg Hfo. cbn [envp locals captured] in Hl.
-  rewrite lookup_app_split in Hl. destruct (lookup_scopes x (locals env)) as [c1|] eqn:E1.
+  assert (Hxh : x <> hid).
+  { intros ->. rewrite lookup_app_split, lookup_strip_hid in Hl. cbn [lookup_scopes] in Hl. rewrite assoc_capsc in Hl.
+    destruct (assoc hid CD) as [k|] eqn:Ek; [|discriminate]. destruct (cl_cap _ _ _ _ _ _ _ _ _ _ _ _ H hid k Ek) as (Hx & _). exact (proj2 (proj2 Hx) eq_refl). }
+  rewrite lookup_app_split, (lookup_strip x _ Hxh) in Hl. destruct (lookup_scopes x (locals env)) as [c1|] eqn:E1.
   - inversion Hl; subst c1.
-    assert (Hx : uname0 x) by (apply (proj2 Hb); apply (proj1 Hb); congruence).
+    assert (Hx : uname0 x) by (apply (proj2 Hb); apply (bound2_in _ _ _ Hb Hxh); congruence).
     pose proof (Rfr2_look _ _ _ (cl_fr _ _ _ _ _ _ _ _ _ _ _ _ H) x Hx) as Hk. rewrite E1 in Hk.
     destruct (find_in_function x (frames g)) as [c'|] eqn:E2; [|contradiction]. destruct Hk as [k Hk].
     destruct (proj1 (cl_heap _ _ _ _ _ _ _ _ _ _ _ _ H) _ _ _ Hk) as (v0 & w & A1 & A2 & A3). rewrite Hg in A1. inversion A1; subst v0.
@@ -229,7 +235,7 @@ Proof.
   destruct (ok_dexpr_parts B e Hok) as (Hp & Hl & Hu).
   set (env0 := envp env).
   assert (Hvc : forall x, In x (used_e e) -> exists c v, lookup_scopes x (locals env ++ captured env) = Some c /\
-                  lookup_scopes x (locals env ++ [capsc env]) = Some c /\ sget s c = Some v /\ first_order v).
+                  lookup_scopes x (map strip_sc (locals env) ++ [capsc env]) = Some c /\ sget s c = Some v /\ first_order v).
   { intros x Hx. destruct (Hu x Hx) as [_ Hk]. destruct (var_cell b B env s g x KD HR Hb Hk) as (_ & c & c' & v & w & A1 & A2 & _ & _ & A3 & _ & A4).
     exists c, v. destruct A4 as [A4 _]. auto. }
   assert (Hv : forall x, In x (used_e e) -> var_ok env0 s x).
@@ -280,7 +286,7 @@ Lemma mid_same : forall b d s a g a' g', xrun prog name code a g a' g' -> frames
 Proof.
   unfold mid, rest. intros b d s a g a' g' R Hf Hc Ha Hs. split; [exact R|]. split; [apply bext_refl|].
   split; [now rewrite Hf|]. split; [exact Ha|]. split; [exact Hs|].
-  split; [apply (keep_cells_app _ _ _ []); now rewrite app_nil_r|]. split; [intros y _; now rewrite Hf|].
+  split; [apply (keep_cells_app _ _ _ []); now rewrite app_nil_r|]. split; [apply fkeep_same; exact Hf|].
   split; [lia|rewrite Hc; lia].
 Qed.
 Lemma mid_fail : forall b0 d s0 a0 g0 b s a g e g', mid b0 d s0 a0 g0 b s a g -> xfail prog name code a g e g' ->
@@ -312,7 +318,7 @@ Lemma rvk_keep : forall b0 d s0 a0 g0 b s a g r w, mid b0 d s0 a0 g0 b s a g -> 
   rvk b g r w.
 Proof.
   unfold mid, rest. intros b0 d s0 a0 g0 b s a g r w (_ & [_ He] & _ & _ & _ & K & F & _) (cj & F1 & F2 & F3) Hr Hs.
-  exists cj. split; [rewrite (F _ (not_own_reg_lt d r Hr Hs)); exact F1|]. split; [exact (K _ _ F2 F3)|].
+  exists cj. split; [rewrite (proj1 (F _ (not_own_reg_lt d r Hr Hs))); exact F1|]. split; [exact (K _ _ F2 F3)|].
   intros c k Hb. destruct (He _ _ _ Hb) as [Hb0|[_ Hlen]]; [exact (F3 c k Hb0)|].
   assert (N.to_nat cj < length (cells g0)) by (apply nth_error_Some; unfold cell_get in F2; congruence). lia.
 Qed.
@@ -336,7 +342,7 @@ Proof.
       split; [repeat split|]. split; [reflexivity|]. split; [apply (keep_cells_app _ _ _ [w]); reflexivity|].
       split; [|split; [lia|cbn [g2 cells trc add_trace]; rewrite app_length; lia]].
       intros y Hy. cbn [g2 frames]. change (frames g1) with (frames (trc name a1 g1 i1)). rewrite Ef.
-      cbn [find_in_function vars lab]. rewrite assoc_set_other; [reflexivity|].
+      cbn [find_in_function top_vars vars lab]. rewrite assoc_set_other; [split; reflexivity|].
       intros ->. apply Hy. exists d. split; [lia|]. split; [exact Hsd|reflexivity].
   - exists (N.of_nat (length (cells (trc name a1 g1 i1)))). split; [cbn [g2 frames find_in_function vars]; now rewrite assoc_set_same|].
     split; [unfold cell_get; cbn [g2 cells]; rewrite Nnat.Nat2N.id, nth_error_app2, Nat.sub_diag by lia; reflexivity|].
@@ -379,7 +385,7 @@ Proof.
       [|reflexivity|reflexivity|exact HC'|split; [exact Hfo|reflexivity]].
     split; [exact R|]. split; [apply bext_refl|]. split; [exact (ext_tail _ _ _ _ _ He)|]. split; [repeat split|]. split; [reflexivity|].
     destruct (ext_cells _ _ _ _ _ He) as [extra Ec].
-    split; [eapply keep_cells_app; exact Ec|]. split; [exact (ext_find _ _ _ _ _ He)|]. split; [lia|rewrite Ec, app_length; lia].
+    split; [eapply keep_cells_app; exact Ec|]. split; [intros y Hy; split; [exact (ext_find _ _ _ _ _ He y Hy)|exact (ext_top _ _ _ _ _ He y Hy)]|]. split; [lia|rewrite Ec, app_length; lia].
   - destruct H as (-> & e0 & g' & Hf & Hr & Ho). cbn [eres_ok]. apply fail_post_intro. exists e0, g'.
     split; [exact Hf|]. split; [now apply err_rel_s_of|exact Ho].
 Qed.
@@ -733,14 +739,14 @@ Proof.
     eapply mid_trans; [exact M05|]. unfold mid, rest.
     split; [eapply xr_call; [exact Hi4'|apply dec_call|exact Hx|exact Hrun|apply xr_refl]|].
     split; [exact He3|]. split; [now rewrite Hf6|]. split; [repeat split|]. split; [reflexivity|].
-    split; [exact Hk6|]. split; [intros y _; now rewrite Hf6|exact Hl6].
+    split; [exact Hk6|]. split; [apply fkeep_same; exact Hf6|exact Hl6].
   - destruct Hcal as (Hrn & fuel' & g6 & b3 & Hrun & He3 & Hh3 & Hf6 & Ho6 & Hk6 & Hl6).
     split; [exact Hrn|]. exists (next_act (set_ops a5 []) None), g6, b3.
     assert (M6 : mid b2 d s2 a5 g5 b3 s3 (next_act (set_ops a5 []) None) g6).
     { unfold mid, rest.
       split; [eapply xr_call; [exact Hi4'|apply dec_call|exact Hx|exact Hrun|apply xr_refl]|].
       split; [exact He3|]. split; [now rewrite Hf6|]. split; [repeat split|]. split; [reflexivity|].
-      split; [exact Hk6|]. split; [intros y _; now rewrite Hf6|exact Hl6]. }
+      split; [exact Hk6|]. split; [apply fkeep_same; exact Hf6|exact Hl6]. }
     pose proof (mid_trans _ _ _ _ _ _ _ _ _ _ _ _ _ M05 M6) as M. unfold mid in M. destruct M as (R & E & Hr).
     split; [exact R|]. split; [unfold next_act; cbn [set_ip a_ip set_ops]; exact Hfin|]. split; [reflexivity|].
     split; [exact E|]. split; [eapply Cl_after; [exact HC5t|exact (proj1 He3)|exact Hh3|exact Hf6|exact Ho6]|exact Hr].
@@ -772,7 +778,7 @@ Proof.
       split; [repeat split|]. split; [reflexivity|]. split; [apply (keep_cells_app _ _ _ [w]); reflexivity|].
       split; [|split; [lia|cbn [g2 cells trc add_trace]; rewrite app_length; lia]].
       intros y Hy. cbn [g2 frames]. change (frames g1) with (frames (trc name a1 g1 i1)). rewrite Ef.
-      cbn [find_in_function vars lab]. rewrite assoc_set_other; [reflexivity|].
+      cbn [find_in_function top_vars vars lab]. rewrite assoc_set_other; [split; reflexivity|].
       intros ->. apply Hy. exists d. split; [lia|]. split; [exact Hsd|reflexivity].
   - exists (N.of_nat (length (cells (trc name a1 g1 i1)))). split; [cbn [g2 frames find_in_function vars]; now rewrite assoc_set_same|].
     split; [unfold cell_get; cbn [g2 cells]; rewrite Nnat.Nat2N.id, nth_error_app2, Nat.sub_diag by lia; reflexivity|].
@@ -1085,14 +1091,14 @@ Proof.
     eapply mid_trans; [exact M04|]. unfold mid, rest.
     split; [eapply xr_call; [exact Hi4'|reflexivity|exact Hx|exact Hrun|apply xr_refl]|].
     split; [exact He3|]. split; [now rewrite Hf6|]. split; [repeat split|]. split; [reflexivity|].
-    split; [exact Hk6|]. split; [intros y _; now rewrite Hf6|exact Hl6].
+    split; [exact Hk6|]. split; [apply fkeep_same; exact Hf6|exact Hl6].
   - destruct Hcal as (Hrn & fuel' & g6 & b3 & Hrun & He3 & Hh3 & Hf6 & Ho6 & Hk6 & Hl6).
     split; [exact Hrn|]. exists (next_act (set_ops a4 []) None), g6, b3.
     assert (M6 : mid b2 d s2 a4 g4 b3 s3 (next_act (set_ops a4 []) None) g6).
     { unfold mid, rest.
       split; [eapply xr_call; [exact Hi4'|reflexivity|exact Hx|exact Hrun|apply xr_refl]|].
       split; [exact He3|]. split; [now rewrite Hf6|]. split; [repeat split|]. split; [reflexivity|].
-      split; [exact Hk6|]. split; [intros y _; now rewrite Hf6|exact Hl6]. }
+      split; [exact Hk6|]. split; [apply fkeep_same; exact Hf6|exact Hl6]. }
     pose proof (mid_trans _ _ _ _ _ _ _ _ _ _ _ _ _ M04 M6) as M. unfold mid in M. destruct M as (R & E & Hr).
     split; [exact R|]. split; [unfold next_act; cbn [set_ip a_ip set_ops]; exact Hfin|]. split; [reflexivity|].
     split; [exact E|]. split; [eapply Cl_after; [exact HC4t|exact (proj1 He3)|exact Hh3|exact Hf6|exact Ho6]|exact Hr].
@@ -1130,6 +1136,118 @@ Proof.
     exact (espec_fn ps body b B d lr k0 fuel kp a g env s kd Hk Hb Hinst Hc Hend Hip Hcb Hops HC).
   - exact espec_nilor.
   - intros ea sp IHa. exact (espec_get ea sp IHa).
+Qed.
+
+(* ---------------------------------------------------------------- a call-free expression over data variables (locals of B, captured
+   ones that no local shadows), evaluated by the
+   reference semantics in another environment that finds the same cells for them (the step of a from loop: the VM is
+   still inside the frame of the body, the reference semantics has left its scope) *)
+Definition lsc (env : fenv) (B : kctx) : scope :=
+  map (fun p => (fst p, match lookup_scopes (fst p) (locals env) with Some c => c | None => 0%N end)) B.
+Lemma assoc_lsc : forall env B x, assoc x (lsc env B) =
+  match assoc x B with Some _ => Some (match lookup_scopes x (locals env) with Some c => c | None => 0%N end) | None => None end.
+Proof.
+  intros env B x. unfold lsc. induction B as [|[y ky] t IH]; [reflexivity|]. cbn [map fst assoc].
+  destruct (str_eqb y x) eqn:E; [apply str_eqb_iff in E; subst y; reflexivity|exact IH].
+Qed.
+
+Lemma ok_dexpr_uname : forall B e x, ok_dexpr B CD e = true -> In x (used_e e) -> uname0 x.
+Proof.
+  intros B e x H Hx. unfold ok_dexpr in H. rewrite !andb_true_iff in H. destruct H as [_ Hu]. rewrite forallb_forall in Hu.
+  specialize (Hu x Hx). apply andb_true_iff in Hu as [Hs _]. exact (src_nameb_ok x Hs).
+Qed.
+Lemma step_free_ok : forall B body e x, step_free B body e = true -> In x (used_e e) -> assoc x B = None -> ~ In x (asgl body).
+Proof.
+  intros B body e x H Hx EB. unfold step_free in H. rewrite forallb_forall in H. specialize (H x Hx). apply orb_true_iff in H as [H|H].
+  - apply mem_str_In in H. exfalso. exact (In_keys_assoc _ B x H EB).
+  - intros Hi. apply In_mem_str in Hi. rewrite Hi in H. discriminate.
+Qed.
+(* the captured data variables no local of env shadows *)
+Definition cfree (env : fenv) : scope :=
+  filter (fun p => match lookup_scopes (fst p) (locals env) with None => true | Some _ => false end) (capsc env).
+Lemma assoc_filter_key : forall (f : str -> bool) (l : scope) x, assoc x (filter (fun p => f (fst p)) l) = if f x then assoc x l else None.
+Proof.
+  intros f l x. induction l as [|[y cy] t IH]; [now destruct (f x)|]. cbn [filter fst]. destruct (f y) eqn:Ey; cbn [assoc].
+  - destruct (str_eqb y x) eqn:E; [apply str_eqb_iff in E; subst y; now rewrite Ey|exact IH].
+  - rewrite IH. destruct (str_eqb y x) eqn:E; [apply str_eqb_iff in E; subst y; now rewrite Ey|reflexivity].
+Qed.
+Lemma assoc_cfree : forall env x, assoc x (cfree env) =
+  match lookup_scopes x (locals env) with None => assoc x (capsc env) | Some _ => None end.
+Proof.
+  intros env x. unfold cfree.
+  rewrite (assoc_filter_key (fun y => match lookup_scopes y (locals env) with None => true | Some _ => false end)).
+  now destruct (lookup_scopes x (locals env)).
+Qed.
+
+Lemma lexpr_run : forall b B e d fuel k a g env envE s,
+  ok_dexpr B CD e = true ->
+  (forall x c, assoc x B <> None -> lookup_scopes x (locals env) = Some c -> lookup_scopes x (locals envE ++ captured envE) = Some c) ->
+  (forall x, In x (used_e e) -> assoc x B = None -> lookup_scopes x (locals env) = None /\ lookup_scopes x (locals envE) = None) ->
+  captured envE = captured env ->
+  d <= c0 + length code + 2 ->
+  code_at code k (pcode d e) -> k + length (pcode d e) < length code ->
+  a_ip a = k -> a_ops a = [] -> a_cb a = cb -> ClA b B env s g ->
+  match eval fuel envE e s with
+  | EVal v s' => s' = s /\ first_order v /\
+                 exists g', xrun prog name code a g (upd a (k + length (pcode d e)) [inj v]) g' /\ ClA b B env s g' /\
+                            ExprSim.ext d k (k + length (pcode d e)) g g'
+  | EFail f s' => s' = s /\ exists e0 g', xfail prog name code a g e0 g' /\ err_rel f e0 /\ out g' = rout s
+  | EFuel => True
+  | ENoVal _ => False
+  end.
+Proof.
+  intros b B e d fuel k a g env envE s Hok HE HN Hcap Hd Hc Hend Hip Hops Hacb HR.
+  destruct (ok_dexpr_parts B e Hok) as (Hp & Hl & Hu).
+  set (env0 := {| locals := [lsc env B]; captured := [cfree env]; cur := cur env |}).
+  assert (Hvc : forall x, In x (used_e e) -> exists c v, lookup_scopes x (locals env0 ++ captured env0) = Some c /\ sget s c = Some v /\ first_order v /\
+                  lookup_scopes x (locals envE ++ captured envE) = Some c).
+  { intros x Hx. destruct (Hu x Hx) as [Hsx Hk]. unfold kvar in Hk. cbn [env0 locals captured app lookup_scopes]. rewrite assoc_lsc.
+    destruct (assoc x B) as [kx|] eqn:EB.
+    - inversion Hk; subst kx.
+      destruct (cl_B _ _ _ _ _ _ _ _ _ _ _ _ HR x KD EB) as (_ & c & c' & A1 & A2 & A3).
+      destruct (proj1 (cl_heap _ _ _ _ _ _ _ _ _ _ _ _ HR) _ _ _ A3) as (v & w & E1 & E2 & [Hfo ->]).
+      exists c, v. rewrite A1. split; [reflexivity|]. split; [exact E1|]. split; [exact Hfo|]. apply (HE x c); [congruence|exact A1].
+    - destruct (HN x Hx EB) as [N1 N2].
+      destruct (cl_cap _ _ _ _ _ _ _ _ _ _ _ _ HR x KD Hk) as (_ & c & c' & A1 & A2 & A3).
+      destruct (proj1 (cl_heap _ _ _ _ _ _ _ _ _ _ _ _ HR) _ _ _ A3) as (v & w & E1 & E2 & [Hfo ->]).
+      exists c, v. rewrite assoc_cfree, N1, assoc_capsc, Hk, A1. split; [reflexivity|]. split; [exact E1|]. split; [exact Hfo|].
+      rewrite lookup_app_split, N2, Hcap. exact A1. }
+  assert (Hv : forall x, In x (used_e e) -> var_ok env0 s x).
+  { intros x Hx. destruct (Hvc x Hx) as (c & v & E1 & E2 & Hfo & _). split; [exact (proj1 (Hu x Hx))|]. exists c, v. auto. }
+  assert (Hag : forall x, In x (used_e e) -> agree env0 s envE s x).
+  { intros x Hx. destruct (Hvc x Hx) as (c & v & E1 & E2 & _ & E4). exists c, c, v. auto. }
+  destruct (eval_pure_congr e Hp fuel env0 s envE s Hag) as [Hst0 Ecg]. rewrite Ecg.
+  assert (Hsm : small (d + length (pcode d e) + 3)) by (eapply small_le; [|exact Hsmall]; lia).
+  assert (Hfr : frames g <> []) by exact (proj2 (Rfr2_ne _ _ _ (cl_fr _ _ _ _ _ _ _ _ _ _ _ _ HR))).
+  assert (HRenv : Renv env0 s a g).
+  { intros x c v Hsx Hlk Hg Hfo. cbn [env0 locals captured app lookup_scopes] in Hlk. rewrite assoc_lsc in Hlk.
+    destruct (assoc x B) as [kx|] eqn:EB.
+    - destruct (cl_B _ _ _ _ _ _ _ _ _ _ _ _ HR x kx EB) as (_ & c1 & c' & A1 & A2 & A3). rewrite A1 in Hlk. inversion Hlk; subst c1.
+      destruct (proj1 (cl_heap _ _ _ _ _ _ _ _ _ _ _ _ HR) _ _ _ A3) as (v0 & w & E1 & E2 & E3). rewrite Hg in E1. inversion E1; subst v0.
+      exists c'. split; [unfold lookup_var; now rewrite A2|]. destruct kx as [|pk r|].
+      + destruct E3 as [_ ->]. exact E2.
+      + destruct E3 as (ps & body & cenv & loc & cb0 & -> & _). destruct Hfo.
+      + destruct E3 as [_ ->]. exact E2.
+    - rewrite assoc_cfree in Hlk. destruct (lookup_scopes x (locals env)) as [c1|] eqn:E1l; [discriminate|].
+      rewrite assoc_capsc in Hlk. destruct (assoc x CD) as [kx|] eqn:Ek; [|discriminate].
+      destruct (cl_cap _ _ _ _ _ _ _ _ _ _ _ _ HR x kx Ek) as (Hx & c2 & c' & A1 & A2 & A3). rewrite A1 in Hlk. inversion Hlk; subst c2.
+      pose proof (Rfr2_look _ _ _ (cl_fr _ _ _ _ _ _ _ _ _ _ _ _ HR) x Hx) as Hlk2. rewrite E1l in Hlk2.
+      destruct (find_in_function x (frames g)) as [cz|] eqn:E2; [contradiction|].
+      destruct (proj1 (cl_heap _ _ _ _ _ _ _ _ _ _ _ _ HR) _ _ _ A3) as (v0 & w & B1 & B2 & B3). rewrite Hg in B1. inversion B1; subst v0.
+      exists c'. split; [unfold lookup_var, load_cb; rewrite E2, Hacb; exact A2|]. destruct kx as [|pk r|].
+      + destruct B3 as [_ ->]. exact B2.
+      + destruct B3 as (ps & body & cenv & loc & cb0 & -> & _). destruct Hfo.
+      + destruct B3 as [_ ->]. exact B2. }
+  pose proof (sim_pure name code e Hp d fuel k a g env0 s Hl Hv Hsm Hc Hend Hip Hops Hfr HRenv) as H.
+  destruct (eval fuel env0 e s) as [v s1|s1|f s1|]; cbn [sim_post res_to] in H |- *; [|contradiction| |exact Logic.I].
+  - destruct H as (-> & Hfo & g' & R). split; [reflexivity|]. split; [exact Hfo|]. exists g'. split.
+    + eapply run_ok_xrun. exact R.
+    + split; [eapply Cl_ext; [exact HR|exact (proj2 R)|]|exact (proj2 R)].
+      eapply xreach_nd; [apply reaches_xreach_running; exact (proj1 R)|exact (cl_nd _ _ _ _ _ _ _ _ _ _ _ _ HR)].
+  - destruct H as (-> & e0 & g' & R & Hr & He). split; [reflexivity|]. exists e0, g'. split; [|split].
+    + now apply reaches_xfail.
+    + exact Hr.
+    + rewrite (ext_out _ _ _ _ _ He). exact (cl_out _ _ _ _ _ _ _ _ _ _ _ _ HR).
 Qed.
 
 (* ================================================================ statements *)
@@ -1202,20 +1320,26 @@ Proof.
     destruct (H2 m eq_refl) as (A1 & A2 & A3 & A4 & A5 & A6). cbn [push_scope locals length]. repeat split; lia.
 Qed.
 
-Definition spost (b : cinj) (B' : kctx) (rets : list kind) (sl : option nat) (bt ct fin : nat) (env : fenv) (s : rstate)
+(* the loop registers L#1 .. L#(lr + 2 * nesting) have names the decimal codec tells apart *)
+Definition lrok (lr kp : nat) : Prop := small (lr + 2 * (length code - kp) + 4).
+Lemma lrok_mono : forall lr kp lr' kp', lrok lr kp -> lr' + 2 * (length code - kp') <= lr + 2 * (length code - kp) -> lrok lr' kp'.
+Proof. unfold lrok. intros lr kp lr' kp' H Hle. eapply small_le; [|exact H]. lia. Qed.
+
+Definition spost (b : cinj) (B' : kctx) (rets : list kind) (lr : nat) (sl : option nat) (bt ct fin : nat) (env : fenv) (s : rstate)
            (a : act) (g : gstate) (r : sres_) : Prop :=
   match r with
   | SOk sig env' s' =>
     same_tl env env' /\
     match sig with
     | SigNormal => bound2 B' env' /\
-        exists a' g' b', smid b s a g b' s' a' g' /\ a_ip a' = fin /\ a_ops a' = [] /\ ClA b' B' env' s' g'
+        exists a' g' b', smid b s a g b' s' a' g' /\ a_ip a' = fin /\ a_ops a' = [] /\ ClA b' B' env' s' g' /\
+          lkeep lr (frames g) (frames g')
     | SigBreak => exists m a' g' b', sl = Some m /\ 1 <= m /\
         jmid b s a g b' s' a' g' /\ a_ip a' = bt /\ a_ops a' = [] /\ ClA b' [] (popn m env') s' g' /\
         frames g' = skipn m (frames g)
     | SigContinue => exists m a' g' b', sl = Some m /\ 1 <= m /\
         jmid b s a g b' s' a' g' /\ a_ip a' = ct /\ a_ops a' = [] /\ ClA b' [] (popn (m - 1) env') s' g' /\
-        tl (frames g') = skipn m (frames g)
+        tl (frames g') = skipn m (frames g) /\ lkeep lr (skipn (m - 1) (frames g)) (frames g')
     | SigReturn (Some v) => exists a' g' b' w k,
         xrun prog name code a g a' g' /\ nth_error code (a_ip a') = Some (mkI OP_RET []) /\ a_ops a' = [w] /\
         bext b b' s g /\ heap_ok b' s' g' /\ vrel b' k v w /\ In k rets /\ out g' = rout s' /\
@@ -1233,39 +1357,53 @@ Definition sspec (st : stmt) : Prop :=
   forall b B lr il sl bt ct k0 fuel kp a g env s B' rets,
     fuel <= FU -> kstmt SF il B CD st = Some (B', rets) -> bound2 B env -> installed (snd (sc path c0 lr sl k0 st)) ->
     items_at code bt ct kp (fst (sc path c0 lr sl k0 st)) -> endok code (kp + length (fst (sc path c0 lr sl k0 st))) (isret st) ->
-    lcok il sl bt ct env (kp + length (fst (sc path c0 lr sl k0 st))) ->
+    lcok il sl bt ct env (kp + length (fst (sc path c0 lr sl k0 st))) -> lrok lr kp ->
     a_ip a = kp -> a_cb a = cb -> a_ops a = [] -> length (locals env) <= S (a_ss a) -> ClA b B env s g ->
-    spost b B' rets sl bt ct (kp + length (fst (sc path c0 lr sl k0 st))) env s a g (Eval.exec fuel env st s).
+    spost b B' rets lr sl bt ct (kp + length (fst (sc path c0 lr sl k0 st))) env s a g (Eval.exec fuel env st s).
 Definition bspec (l : list stmt) : Prop :=
   forall b B lr il sl bt ct k0 fuel kp a g env s B' rets,
     fuel <= FU -> kblock SF il B CD l = Some (B', rets) -> bound2 B env -> installed (snd (bc path c0 lr sl k0 l)) ->
     items_at code bt ct kp (fst (bc path c0 lr sl k0 l)) -> endok code (kp + length (fst (bc path c0 lr sl k0 l))) (endsret l) ->
-    lcok il sl bt ct env (kp + length (fst (bc path c0 lr sl k0 l))) ->
+    lcok il sl bt ct env (kp + length (fst (bc path c0 lr sl k0 l))) -> lrok lr kp ->
     a_ip a = kp -> a_cb a = cb -> a_ops a = [] -> length (locals env) <= S (a_ss a) -> ClA b B env s g ->
-    spost b B' rets sl bt ct (kp + length (fst (bc path c0 lr sl k0 l))) env s a g (exec_block fuel env l s).
+    spost b B' rets lr sl bt ct (kp + length (fst (bc path c0 lr sl k0 l))) env s a g (exec_block fuel env l s).
 
-Lemma spost_fail_e : forall b B' rets sl bt ct fin env s a g f s' e0 g',
-  xfail prog name code a g e0 g' -> err_rel_s f e0 -> out g' = rout s' -> spost b B' rets sl bt ct fin env s a g (SFailed f s').
+(* the loop registers: expression code and the binding of a user name leave them alone *)
+Lemma lk_mid : forall lr b d s a g b1 s1 a1 g1, mid b d s a g b1 s1 a1 g1 -> lkeep lr (frames g) (frames g1).
+Proof.
+  unfold mid, rest. intros lr b d s a g b1 s1 a1 g1 (_ & _ & _ & _ & _ & _ & F & _) j _. refine (proj1 (F _ _)).
+  intros (k & _ & _ & E). exact (lregn_not_reg _ _ E).
+Qed.
+Lemma lk_bind : forall lr f fs x c, (forall j, x <> lregn j) -> lkeep lr (f :: fs) ({| lab := lab f; vars := assoc_set x c (vars f) |} :: fs).
+Proof. intros lr f fs x c Hx j _. cbn [find_in_function vars lab]. rewrite assoc_set_other; [reflexivity|]. intros E. exact (Hx j (eq_sym E)). Qed.
+Lemma uname0_not_lregn : forall x j, uname0 x -> x <> lregn j.
+Proof. intros x j Hx ->. exact (lregn_not_uname0 j Hx). Qed.
+Lemma lkeep_skipn : forall lr m l l', tl l' = tl l -> lkeep lr l l' -> lkeep lr (skipn m l) (skipn m l').
+Proof. intros lr [|m] l l' Ht Hk; [exact Hk|]. apply lkeep_eq. now rewrite !skipn_tl, Ht. Qed.
+
+Lemma spost_fail_e : forall b B' rets lr sl bt ct fin env s a g f s' e0 g',
+  xfail prog name code a g e0 g' -> err_rel_s f e0 -> out g' = rout s' -> spost b B' rets lr sl bt ct fin env s a g (SFailed f s').
 Proof. intros. cbn [spost]. apply fail_post_intro. eauto. Qed.
 
 (* the statement starts after the machine has made some progress *)
-Lemma spost_seq : forall b B' rets sl bt ct fin env s a g b1 env1 s1 a1 g1 r,
-  smid b s a g b1 s1 a1 g1 -> same_tl env env1 -> spost b1 B' rets sl bt ct fin env1 s1 a1 g1 r -> spost b B' rets sl bt ct fin env s a g r.
+Lemma spost_seq : forall b B' rets lr sl bt ct fin env s a g b1 env1 s1 a1 g1 r,
+  smid b s a g b1 s1 a1 g1 -> lkeep lr (frames g) (frames g1) -> same_tl env env1 ->
+  spost b1 B' rets lr sl bt ct fin env1 s1 a1 g1 r -> spost b B' rets lr sl bt ct fin env s a g r.
 Proof.
-  intros b B' rets sl bt ct fin env s a g b1 env1 s1 a1 g1 r M Hd H.
+  intros b B' rets lr sl bt ct fin env s a g b1 env1 s1 a1 g1 r M LK Hd H.
+  assert (HT : tl (frames g1) = tl (frames g)) by (unfold smid in M; exact (proj1 (proj2 (proj2 M)))).
   destruct r as [sig env' s'|f s'|]; cbn [spost] in *; [| |exact Logic.I].
   - destruct H as [Hd' H]. split; [eapply same_tl_trans; eassumption|].
     destruct sig as [| | |[v|]].
-    + destruct H as (HB & a' & g' & b' & M' & Hip & Hops & HC). split; [exact HB|]. exists a', g', b'.
-      split; [eapply smid_trans; eassumption|]. auto.
+    + destruct H as (HB & a' & g' & b' & M' & Hip & Hops & HC & LK'). split; [exact HB|]. exists a', g', b'.
+      split; [eapply smid_trans; eassumption|]. split; [exact Hip|]. split; [exact Hops|]. split; [exact HC|eapply lkeep_trans; eassumption].
     + destruct H as (m & a' & g' & b' & Hsl & Hm & J & Hip & Hops & HC & Hf). exists m, a', g', b'.
       split; [exact Hsl|]. split; [exact Hm|]. split; [eapply jmid_trans; [apply jmid_of_smid; exact M|exact J]|].
-      split; [exact Hip|]. split; [exact Hops|]. split; [exact HC|]. rewrite Hf. apply skipn_tl_eq; [exact Hm|].
-      unfold smid in M. exact (proj1 (proj2 (proj2 M))).
-    + destruct H as (m & a' & g' & b' & Hsl & Hm & J & Hip & Hops & HC & Hf). exists m, a', g', b'.
+      split; [exact Hip|]. split; [exact Hops|]. split; [exact HC|]. rewrite Hf. apply skipn_tl_eq; [exact Hm|exact HT].
+    + destruct H as (m & a' & g' & b' & Hsl & Hm & J & Hip & Hops & HC & Hf & LK'). exists m, a', g', b'.
       split; [exact Hsl|]. split; [exact Hm|]. split; [eapply jmid_trans; [apply jmid_of_smid; exact M|exact J]|].
-      split; [exact Hip|]. split; [exact Hops|]. split; [exact HC|]. rewrite Hf. apply skipn_tl_eq; [exact Hm|].
-      unfold smid in M. exact (proj1 (proj2 (proj2 M))).
+      split; [exact Hip|]. split; [exact Hops|]. split; [exact HC|]. split; [rewrite Hf; apply skipn_tl_eq; [exact Hm|exact HT]|].
+      eapply lkeep_trans; [apply lkeep_skipn; [exact HT|exact LK]|exact LK'].
     + destruct H as (a' & g' & b' & w & k & R & Hi & Hops & E & Hh & Hv & Hk & Ho & Hdr & K & L).
       unfold smid in M. destruct M as (R1 & E1 & T1 & A1 & S1 & K1 & L1).
       exists a', g', b', w, k. split; [eapply xrun_trans; eassumption|]. split; [exact Hi|]. split; [exact Hops|].
@@ -1280,11 +1418,11 @@ Proof.
 Qed.
 
 (* a result that is not a normal completion does not depend on the context afterwards / on the end of the code *)
-Lemma spost_rets : forall b B' rets rets' sl bt ct fin env s a g r, (forall k, In k rets -> In k rets') ->
-  (forall env' s', r <> SOk SigNormal env' s') -> spost b B' rets sl bt ct fin env s a g r ->
-  forall B'' fin', spost b B'' rets' sl bt ct fin' env s a g r.
+Lemma spost_rets : forall b B' rets rets' lr sl bt ct fin env s a g r, (forall k, In k rets -> In k rets') ->
+  (forall env' s', r <> SOk SigNormal env' s') -> spost b B' rets lr sl bt ct fin env s a g r ->
+  forall B'' fin', spost b B'' rets' lr sl bt ct fin' env s a g r.
 Proof.
-  intros b B' rets rets' sl bt ct fin env s a g r Hin Hn H B'' fin'. destruct r as [sig env' s'|f s'|]; cbn [spost] in *; [|exact H|exact Logic.I].
+  intros b B' rets rets' lr sl bt ct fin env s a g r Hin Hn H B'' fin'. destruct r as [sig env' s'|f s'|]; cbn [spost] in *; [|exact H|exact Logic.I].
   destruct H as [Hd H]. split; [exact Hd|]. destruct sig as [| | |[v|]].
   - exfalso. exact (Hn env' s' eq_refl).
   - exact H.
@@ -1296,7 +1434,7 @@ Qed.
 (* ---------------------------------------------------------------- x = e *)
 Lemma assign_sim : forall x e, sspec (SAssign x e).
 Proof.
-  intros x e b B lr il sl bt ct k0 fuel kp a g env s B' rets Hfu Hk Hb Hinst Hc Hend Hlc Hip Hcb Hops Hss HC.
+  intros x e b B lr il sl bt ct k0 fuel kp a g env s B' rets Hfu Hk Hb Hinst Hc Hend Hlc Hlrk Hip Hcb Hops Hss HC.
   destruct Hend as [Hend|[Hend _]]; [|discriminate Hend].
   cbn [kstmt] in Hk. destruct (src_nameb x) eqn:Hsx; [|discriminate].
   destruct (kexpr SF B CD e) as [k|] eqn:Ee; [|discriminate].
@@ -1324,7 +1462,7 @@ Proof.
     unfold assign. rewrite A1.
     assert (Hst : store_var g1t x w = Some (cell_set g1t c' w)) by (unfold store_var; now rewrite A2).
     split; [apply same_tl_refl; exact (Cl_ne _ _ _ _ _ _ _ _ _ _ _ _ HC)|]. split; [exact Hb|].
-    exists a2, (cell_set g1t c' w), b1. split; [|split; [cbn [a2 set_ip a_ip]; lia|split; [reflexivity|]]].
+    exists a2, (cell_set g1t c' w), b1. split; [|split; [cbn [a2 set_ip a_ip]; lia|split; [reflexivity|split; [|exact (lk_mid lr _ _ _ _ _ _ _ _ _ M1)]]]].
     + eapply smid_trans; [exact SM1|]. unfold smid. split; [exact (Hstep _ Hst)|]. split; [apply bext_refl|].
       split; [reflexivity|]. split; [repeat split|]. split; [reflexivity|].
       split; [change (keep b1 g1t (cell_set g1t c' w)); eapply keep_cell_set; exact A3|].
@@ -1334,7 +1472,7 @@ Proof.
     inversion Hk; subst B' rets.
     assert (Hn : lookup_scopes x (locals env) = None).
     { destruct (lookup_scopes x (locals env)) eqn:E; [|reflexivity]. exfalso.
-      assert (Hin : In x (map fst B)) by (apply (proj1 Hb); congruence).
+      assert (Hin : In x (map fst B)) by (apply (bound2_in _ _ _ Hb (proj2 (proj2 Hx))); congruence).
       clear -EB Hin. induction B as [|[y ky] t IH]; [destruct Hin|]. cbn [assoc map fst In] in *.
       destruct (str_eqb y x) eqn:E; [discriminate|]. destruct Hin as [->|Hin]; [now rewrite str_eqb_refl in E|auto]. }
     assert (Hf : find_in_function x (frames g1t) = None).
@@ -1351,14 +1489,11 @@ Proof.
     assert (Hst : store_var g1t x w = Some g2).
     { unfold store_var. rewrite Ef, Hf. unfold bind_local. rewrite Ef. reflexivity. }
     split; [split; [cbn [env' locals tl]; rewrite El; reflexivity|cbn [env' locals]; discriminate]|]. split.
-    { split.
-      - intros y. cbn [env' locals lookup_scopes map fst In]. destruct (list_eq_dec N.eq_dec y x) as [->|Hne].
-        + rewrite assoc_set_same. split; [intros _; now left|discriminate].
-        + rewrite assoc_set_other by exact Hne. pose proof (proj1 Hb y) as Hy. rewrite El in Hy. cbn [lookup_scopes] in Hy. rewrite Hy.
-          split; [intros H; now right|intros [H|H]; [congruence|exact H]].
-      - intros y [<-|Hy]; [exact Hx|exact (proj2 Hb y Hy)]. }
+    { eapply (bound2_declare B env x k _ sc l env' Hb El); [reflexivity|exact Hx]. }
     exists a2, g2, (add_pair b1 (N.of_nat (length (store s1))) (N.of_nat (length (cells g1t))) k).
-    split; [|split; [cbn [a2 set_ip a_ip]; lia|split; [reflexivity|exact HC2]]].
+    split; [|split; [cbn [a2 set_ip a_ip]; lia|split; [reflexivity|split; [exact HC2|]]]].
+    2:{ eapply lkeep_trans; [exact (lk_mid lr _ _ _ _ _ _ _ _ _ M1)|]. change (frames g1) with (frames g1t). rewrite Ef. cbn [g2 frames].
+        apply lk_bind. intros j. apply uname0_not_lregn. exact Hx. }
     eapply smid_trans; [exact SM1|]. unfold smid. split; [exact (Hstep _ Hst)|]. split; [exact He2|].
     split; [cbn [g2 frames tl]; change (frames g1) with (frames g1t); now rewrite Ef|]. split; [repeat split|]. split; [reflexivity|].
     split; [apply (keep_cells_app _ _ _ [w]); reflexivity|].
@@ -1377,7 +1512,7 @@ Proof. reflexivity. Qed.
 
 Lemma modify_sim : forall x e, sspec (SModify x e).
 Proof.
-  intros x e b B lr il sl bt ct k0 fuel kp a g env s B' rets Hfu Hk Hb Hinst Hc Hend Hlc Hip Hcb Hops Hss HC.
+  intros x e b B lr il sl bt ct k0 fuel kp a g env s B' rets Hfu Hk Hb Hinst Hc Hend Hlc Hlrk Hip Hcb Hops Hss HC.
   destruct Hend as [Hend|[Hend _]]; [|discriminate Hend].
   cbn [kstmt] in Hk. destruct (assoc x CD) as [k'|] eqn:EC; [|discriminate].
   destruct (kexpr SF B CD e) as [k|] eqn:Ee; [|discriminate].
@@ -1400,7 +1535,7 @@ Proof.
   assert (Hcb1 : a_cb a1 = cb).
   { unfold smid in SM1. destruct SM1 as (_ & _ & _ & (_ & _ & A) & _). congruence. }
   split; [apply same_tl_refl; exact (Cl_ne _ _ _ _ _ _ _ _ _ _ _ _ HC)|]. split; [exact Hb|].
-  exists a2, (cell_set g1t c' w), b1. split; [|split; [cbn [a2 set_ip a_ip]; lia|split; [reflexivity|eapply Cl_update; eassumption]]].
+  exists a2, (cell_set g1t c' w), b1. split; [|split; [cbn [a2 set_ip a_ip]; lia|split; [reflexivity|split; [eapply Cl_update; eassumption|exact (lk_mid lr _ _ _ _ _ _ _ _ _ M1)]]]].
   eapply smid_trans; [exact SM1|]. unfold smid. split.
   - eapply (xstep_next prog name code a1 g1 i1 _ (a_ip a1) (set_ops a1 [])); [reflexivity|rewrite Hip1; exact Hi|apply dec_store_object|].
     unfold exec_d. rewrite Hops1. unfold load_cb. rewrite Hcb1. unfold cbget in A2. rewrite A2. reflexivity.
@@ -1412,7 +1547,7 @@ Qed.
 (* ---------------------------------------------------------------- print e *)
 Lemma print_sim : forall e, sspec (SPrint e).
 Proof.
-  intros e b B lr il sl bt ct k0 fuel kp a g env s B' rets Hfu Hk Hb Hinst Hc Hend Hlc Hip Hcb Hops Hss HC.
+  intros e b B lr il sl bt ct k0 fuel kp a g env s B' rets Hfu Hk Hb Hinst Hc Hend Hlc Hlrk Hip Hcb Hops Hss HC.
   destruct Hend as [Hend|[Hend _]]; [|discriminate Hend].
   cbn [kstmt] in Hk. destruct (kexpr SF B CD e) as [[|? ?|]|] eqn:Ee; try discriminate. cbn [is_KD] in Hk. inversion Hk; subst B' rets.
   destruct fuel as [|fuel]; [exact Logic.I|]. rewrite exec_SPrint.
@@ -1429,7 +1564,7 @@ Proof.
   set (a2 := set_ip a1 (S (a_ip a1))).
   cbn [spost]. split; [apply same_tl_refl; exact (Cl_ne _ _ _ _ _ _ _ _ _ _ _ _ HC)|]. split; [exact Hb|].
   exists (set_ip (set_ops a2 []) (S (a_ip a2))), (trc name a2 g2 (mkI OP_VOID [])), b1.
-  split; [|split; [cbn [set_ip a_ip a2]; lia|split; [reflexivity|apply Cl_trc; apply Cl_print; apply Cl_trc; exact HC1]]].
+  split; [|split; [cbn [set_ip a_ip a2]; lia|split; [reflexivity|split; [apply Cl_trc; apply Cl_print; apply Cl_trc; exact HC1|exact (lk_mid lr _ _ _ _ _ _ _ _ _ M1)]]]].
   eapply smid_trans; [exact SM1|]. unfold smid. split.
   - eapply xrun_trans.
     + eapply (xstep_next prog name code a1 g1 _ _ (a_ip a1) a1); [reflexivity|rewrite Hip1; exact Hi1|apply dec_printn|].
@@ -1443,7 +1578,7 @@ Qed.
 (* ---------------------------------------------------------------- an expression statement *)
 Lemma expr_sim : forall e, sspec (SExpr e).
 Proof.
-  intros e b B lr il sl bt ct k0 fuel kp a g env s B' rets Hfu Hk Hb Hinst Hc Hend Hlc Hip Hcb Hops Hss HC.
+  intros e b B lr il sl bt ct k0 fuel kp a g env s B' rets Hfu Hk Hb Hinst Hc Hend Hlc Hlrk Hip Hcb Hops Hss HC.
   destruct Hend as [Hend|[Hend _]]; [|discriminate Hend].
   cbn [kstmt] in Hk. destruct (kexpr SF B CD e) as [k|] eqn:Ee; [|discriminate]. inversion Hk; subst B' rets.
   destruct fuel as [|fuel]; [exact Logic.I|]. rewrite exec_SExpr.
@@ -1452,25 +1587,26 @@ Proof.
   apply items_at_app in Hc as [Hce Hi]. apply items_at_CI in Hce. rewrite map_length in Hi. apply items_at_cons in Hi as [Hi1 _]. cbn [item_instr I] in Hi1.
   pose proof (espec_all e b B c0 lr k0 fuel kp a g env s k ltac:(lia) Ee Hb) as He. rewrite Eec in He. cbn [fst snd] in He.
   specialize (He Hinst ltac:(lia) Hce ltac:(lia) Hip Hcb Hops HC).
-  assert (Hdone : forall s1 a1 g1 b1, smid b s a g b1 s1 a1 g1 -> a_ip a1 = kp + length ce -> ClA b1 B env s1 g1 ->
-            spost b B [] sl bt ct (kp + (length ce + 1)) env s a g (SOk SigNormal env s1)).
-  { intros s1 a1 g1 b1 SM1 Hip1 HC1.
+  assert (Hdone : forall s1 a1 g1 b1, smid b s a g b1 s1 a1 g1 -> lkeep lr (frames g) (frames g1) -> a_ip a1 = kp + length ce -> ClA b1 B env s1 g1 ->
+            spost b B [] lr sl bt ct (kp + (length ce + 1)) env s a g (SOk SigNormal env s1)).
+  { intros s1 a1 g1 b1 SM1 LK1 Hip1 HC1.
     cbn [spost]. split; [apply same_tl_refl; exact (Cl_ne _ _ _ _ _ _ _ _ _ _ _ _ HC)|]. split; [exact Hb|].
     exists (set_ip (set_ops a1 []) (S (a_ip a1))), (trc name a1 g1 (mkI OP_VOID [])), b1.
-    split; [|split; [cbn [set_ip a_ip]; lia|split; [reflexivity|apply Cl_trc; exact HC1]]].
+    split; [|split; [cbn [set_ip a_ip]; lia|split; [reflexivity|split; [apply Cl_trc; exact HC1|exact LK1]]]].
     eapply smid_trans; [exact SM1|]. apply smid_same; try reflexivity; [|repeat split].
     eapply (xstep_next prog name code a1 g1 _ _ (a_ip a1) (set_ops a1 [])); [reflexivity|rewrite Hip1; exact Hi1|apply dec_void|apply exec_void]. }
   destruct (eval fuel env e s) as [v s1|s1|f s1|]; cbn [eres_ok] in He; [| |exact He|exact Logic.I].
   - apply eres_val_inv in He. destruct He as (a1 & g1 & b1 & w & M1 & Hip1 & Hops1 & HC1 & Hv1).
-    exact (Hdone s1 a1 g1 b1 (smid_of_mid _ _ _ _ _ _ _ _ _ M1) Hip1 HC1).
+    exact (Hdone s1 a1 g1 b1 (smid_of_mid _ _ _ _ _ _ _ _ _ M1) (lk_mid lr _ _ _ _ _ _ _ _ _ M1) Hip1 HC1).
   - destruct He as (_ & a1 & g1 & b1 & R & Hip1 & Hops1 & E & HC1 & Hr).
-    apply (Hdone s1 a1 g1 b1); [|exact Hip1|exact HC1]. apply (smid_of_mid b c0). unfold mid. auto.
+    assert (M1 : mid b c0 s a g b1 s1 a1 g1) by (unfold mid; auto).
+    exact (Hdone s1 a1 g1 b1 (smid_of_mid _ _ _ _ _ _ _ _ _ M1) (lk_mid lr _ _ _ _ _ _ _ _ _ M1) Hip1 HC1).
 Qed.
 
 (* ---------------------------------------------------------------- return e *)
 Lemma return_sim : forall e, sspec (SReturn (Some e)).
 Proof.
-  intros e b B lr il sl bt ct k0 fuel kp a g env s B' rets Hfu Hk Hb Hinst Hc Hend Hlc Hip Hcb Hops Hss HC.
+  intros e b B lr il sl bt ct k0 fuel kp a g env s B' rets Hfu Hk Hb Hinst Hc Hend Hlc Hlrk Hip Hcb Hops Hss HC.
   cbn [kstmt] in Hk. destruct (kexpr SF B CD e) as [k|] eqn:Ee; [|discriminate]. inversion Hk; subst B' rets.
   destruct fuel as [|fuel]; [exact Logic.I|]. rewrite exec_SReturn.
   rewrite sc_Return in *. destruct (ec path c0 lr k0 e) as [ce fe] eqn:Eec. cbn [fst snd] in *.
@@ -1493,7 +1629,7 @@ Qed.
 (* ---------------------------------------------------------------- assert e *)
 Lemma assert_sim : forall e sp, sspec (SAssert e sp).
 Proof.
-  intros e sp b B lr il sl bt ct k0 fuel kp a g env s B' rets Hfu Hk Hb Hinst Hc Hend Hlc Hip Hcb Hops Hss HC.
+  intros e sp b B lr il sl bt ct k0 fuel kp a g env s B' rets Hfu Hk Hb Hinst Hc Hend Hlc Hlrk Hip Hcb Hops Hss HC.
   destruct Hend as [Hend|[Hend _]]; [|discriminate Hend].
   cbn [kstmt] in Hk. destruct (kexpr SF B CD e) as [[|? ?|]|] eqn:Ee; try discriminate. cbn [is_KD] in Hk. inversion Hk; subst B' rets.
   destruct fuel as [|fuel]; [exact Logic.I|]. rewrite exec_SAssert.
@@ -1508,14 +1644,14 @@ Proof.
   set (i1 := mkI OP_ASSERT [sp]) in *.
   pose proof (exec_assert sp a1 (trc name a1 g1 i1) (inj v) Hops1) as Hx.
   assert (Hfail : forall f e0, exec_d (DAssert (Some sp)) a1 (trc name a1 g1 i1) = SFail e0 -> err_rel_s f e0 ->
-            spost b B [] sl bt ct (kp + (length ce + 1)) env s a g (SFailed f s1)).
-  { intros f e0 Hex Hrel. apply (spost_fail_e b B [] sl bt ct _ env s a g f s1 e0 (trc name a1 g1 i1)); [|exact Hrel|exact (cl_out _ _ _ _ _ _ _ _ _ _ _ _ HC1)].
+            spost b B [] lr sl bt ct (kp + (length ce + 1)) env s a g (SFailed f s1)).
+  { intros f e0 Hex Hrel. apply (spost_fail_e b B [] lr sl bt ct _ env s a g f s1 e0 (trc name a1 g1 i1)); [|exact Hrel|exact (cl_out _ _ _ _ _ _ _ _ _ _ _ _ HC1)].
     eapply smid_fail; [exact SM1|]. eapply xstep_fail; [exact Hip1|exact Hi1|apply dec_assert|exact Hex]. }
   destruct v as [z|[|]|t| |p bd ev]; cbn [inj val_equals] in Hx; try contradiction.
   - eapply Hfail; [exact Hx|]. cbn. auto.
   - cbn [spost]. split; [apply same_tl_refl; exact (Cl_ne _ _ _ _ _ _ _ _ _ _ _ _ HC)|]. split; [exact Hb|].
     exists (set_ip (set_ops a1 []) (S (a_ip a1))), (trc name a1 g1 i1), b1.
-    split; [|split; [cbn [set_ip a_ip]; lia|split; [reflexivity|apply Cl_trc; exact HC1]]].
+    split; [|split; [cbn [set_ip a_ip]; lia|split; [reflexivity|split; [apply Cl_trc; exact HC1|exact (lk_mid lr _ _ _ _ _ _ _ _ _ M1)]]]].
     eapply smid_trans; [exact SM1|]. apply smid_same; try reflexivity; [|repeat split].
     eapply (xstep_next prog name code a1 g1 i1 _ (a_ip a1) (set_ops a1 [])); [reflexivity|rewrite Hip1; exact Hi1|apply dec_assert|exact Hx].
   - eapply Hfail; [exact Hx|]. reflexivity.
@@ -1526,7 +1662,7 @@ Qed.
 (* ---------------------------------------------------------------- x op= e : a local or a captured variable (through its cell) *)
 Lemma opassign_sim : forall x o e, sspec (SOpAssign x o e).
 Proof.
-  intros x o e b B lr il sl bt ct k0 fuel kp a g env s B' rets Hfu Hk Hb Hinst Hc Hend Hlc Hip Hcb Hops Hss HC.
+  intros x o e b B lr il sl bt ct k0 fuel kp a g env s B' rets Hfu Hk Hb Hinst Hc Hend Hlc Hlrk Hip Hcb Hops Hss HC.
   destruct Hend as [Hend|[Hend _]]; [|discriminate Hend].
   cbn [kstmt] in Hk.
   destruct (arith5 o && src_nameb x && is_KD (kvar B CD x) && is_KD (kexpr SF B CD e)) eqn:Hcnd; [|discriminate].
@@ -1561,7 +1697,7 @@ Proof.
     set (a2 := set_ip (set_ops a1 [inj r]) (S (a_ip a1))).
     cbn [spost]. split; [apply same_tl_refl; exact (Cl_ne _ _ _ _ _ _ _ _ _ _ _ _ HC)|]. split; [exact Hb|].
     exists (set_ip (set_ops a2 []) (S (a_ip a2))), (trc name a2 g2 (mkI OP_VOID [])), b1.
-    split; [|split; [cbn [a2 set_ip a_ip]; lia|split; [reflexivity|]]].
+    split; [|split; [cbn [a2 set_ip a_ip]; lia|split; [reflexivity|split; [|exact (lk_mid lr _ _ _ _ _ _ _ _ _ M1)]]]].
     + eapply smid_trans; [exact SM1|]. unfold smid. split.
       * eapply xrun_trans.
         -- eapply (xstep_next prog name code a1 g1 i1 _ (a_ip a1) (set_ops a1 [inj r])); [reflexivity|rewrite Hip1; exact Hi1|apply dec_bin_op_assign|exact Hx2].
@@ -1572,14 +1708,14 @@ Proof.
         split; [cbn [sset store]; rewrite set_nth_length; lia|cbn [g2 cell_set cells g1t trc add_trace]; rewrite set_nth_length; lia].
     + apply Cl_trc. apply (Cl_update path prog cb CD base name SF b1 B env s1 g1t c c' KD r (inj r) HC1t Hbc). split; [exact Hfr|reflexivity].
   - destruct Hag as (-> & e0 & Hbo & Hrel). rewrite Hbo in Hx1.
-    apply (spost_fail_e b B [] sl bt ct _ env s a g f s1 e0 g1t); [|now apply err_rel_s_of|exact (cl_out _ _ _ _ _ _ _ _ _ _ _ _ HC1)].
+    apply (spost_fail_e b B [] lr sl bt ct _ env s a g f s1 e0 g1t); [|now apply err_rel_s_of|exact (cl_out _ _ _ _ _ _ _ _ _ _ _ _ HC1)].
     eapply smid_fail; [exact SM1|]. eapply xstep_fail; [exact Hip1|exact Hi1|apply dec_bin_op_assign|exact Hx1].
 Qed.
 
 (* ---------------------------------------------------------------- break / continue (resolved placeholders) *)
 Lemma break_sim : sspec SBreak.
 Proof.
-  intros b B lr il sl bt ct k0 fuel kp a g env s B' rets Hfu Hk Hb Hinst Hc Hend Hlc Hip Hcb Hops Hss HC.
+  intros b B lr il sl bt ct k0 fuel kp a g env s B' rets Hfu Hk Hb Hinst Hc Hend Hlc Hlrk Hip Hcb Hops Hss HC.
   destruct Hend as [Hend|[Hend _]]; [|discriminate Hend].
   cbn [kstmt] in Hk. destruct il; [|discriminate]. inversion Hk; subst B' rets.
   destruct Hlc as [Hsl Hlc]. specialize (Hsl eq_refl). destruct sl as [m|]; [|congruence].
@@ -1602,7 +1738,7 @@ Qed.
 
 Lemma continue_sim : sspec SContinue.
 Proof.
-  intros b B lr il sl bt ct k0 fuel kp a g env s B' rets Hfu Hk Hb Hinst Hc Hend Hlc Hip Hcb Hops Hss HC.
+  intros b B lr il sl bt ct k0 fuel kp a g env s B' rets Hfu Hk Hb Hinst Hc Hend Hlc Hlrk Hip Hcb Hops Hss HC.
   destruct Hend as [Hend|[Hend _]]; [|discriminate Hend].
   cbn [kstmt] in Hk. destruct il; [|discriminate]. inversion Hk; subst B' rets.
   destruct Hlc as [Hsl Hlc]. specialize (Hsl eq_refl). destruct sl as [m|]; [|congruence].
@@ -1621,13 +1757,14 @@ Proof.
       * rewrite Hip. rewrite goto_fwd by lia. f_equal. lia.
     + split; [apply bext_refl|]. split; [repeat split|]. split; [cbn [set_ip a_ss]; lia|].
       split; [apply (keep_cells_app _ _ _ []); rewrite app_nil_r; exact Hc2|]. split; [lia|rewrite Hc2; cbn; lia].
-  - rewrite Hfr2. cbn [trc add_trace frames]. rewrite tl_skipn. f_equal. lia.
+  - split; [rewrite Hfr2; cbn [trc add_trace frames]; rewrite tl_skipn; f_equal; lia|].
+    apply lkeep_eq. rewrite Hfr2. reflexivity.
 Qed.
 
 (* ---------------------------------------------------------------- return (no value) *)
 Lemma return_none_sim : sspec (SReturn None).
 Proof.
-  intros b B lr il sl bt ct k0 fuel kp a g env s B' rets Hfu Hk Hb Hinst Hc Hend Hlc Hip Hcb Hops Hss HC.
+  intros b B lr il sl bt ct k0 fuel kp a g env s B' rets Hfu Hk Hb Hinst Hc Hend Hlc Hlrk Hip Hcb Hops Hss HC.
   cbn [kstmt] in Hk. inversion Hk; subst B' rets.
   destruct fuel as [|fuel]; [exact Logic.I|].
   cbn [sc fst snd length] in *. apply items_at_cons in Hc as [Hi _]. cbn [item_instr I] in Hi.
@@ -1655,8 +1792,9 @@ Proof.
   - rewrite sc_SIfElif. destruct (ec path c0 lr k0 c). destruct (bc path c0 lr (option_map S sl) (k0 + length f) body).
     destruct (sc path c0 lr (option_map S sl) (k0 + length f + length f0) st). cbn [fst]. rewrite !app_length. cbn. lia.
   - rewrite sc_SWhile. destruct (ec path c0 lr k0 c). destruct (bc path c0 lr (Some 1) (k0 + length f) body). cbn [fst]. rewrite !app_length. cbn. lia.
-  - destruct step; [discriminate|]. destruct name0 as [x|]; [|discriminate]. destruct collide; [discriminate|].
-    rewrite sc_SFrom. destruct (bc path c0 (S lr) (Some 1) k0 body). cbn [fst]. rewrite !app_length. cbn. lia.
+  - rewrite sc_SFrom. cbv zeta. destruct (ec path c0 (from_lr1 lr name0) k0 a). destruct (ec path c0 (from_lr1 lr name0) (k0 + length f) b).
+    destruct (bc path c0 (S (from_lr1 lr name0)) (Some 1) (k0 + length f + length f0) body).
+    destruct (stepc path c0 (S (from_lr1 lr name0)) (k0 + length f + length f0 + length f1) step). cbn [fst]. rewrite !app_length. cbn. lia.
   - cbn. lia.
   - cbn. lia.
   - destruct e as [e|]; [|cbn; lia]. rewrite sc_Return. destruct (ec path c0 lr k0 e). cbn [fst]. rewrite app_length. cbn. lia.
@@ -1668,10 +1806,10 @@ Proof. reflexivity. Qed.
 
 Lemma bspec_of : forall l, Forall sspec l -> bspec l.
 Proof.
-  induction l as [|st l IH]; intros HF b B lr il sl bt ct k0 fuel kp a g env s B' rets Hfu Hk Hb Hinst Hc Hend Hlc Hip Hcb Hops Hss HC.
+  induction l as [|st l IH]; intros HF b B lr il sl bt ct k0 fuel kp a g env s B' rets Hfu Hk Hb Hinst Hc Hend Hlc Hlrk Hip Hcb Hops Hss HC.
   - destruct fuel as [|fuel]; [exact Logic.I|]. rewrite exec_block_nil. cbn [kblock] in Hk. inversion Hk; subst B' rets.
     cbn [bc fst length spost]. split; [apply same_tl_refl; exact (Cl_ne _ _ _ _ _ _ _ _ _ _ _ _ HC)|]. split; [exact Hb|].
-    exists a, g, b. split; [apply smid_refl|]. split; [lia|]. split; [exact Hops|exact HC].
+    exists a, g, b. split; [apply smid_refl|]. split; [lia|]. split; [exact Hops|]. split; [exact HC|apply lkeep_refl].
   - pose proof (Forall_inv HF) as Hst. pose proof (Forall_inv_tail HF) as Hl. specialize (IH Hl).
     destruct fuel as [|fuel]; [exact Logic.I|]. rewrite exec_block_cons.
     cbn [kblock] in Hk. destruct (kstmt SF il B CD st) as [[B1 r1]|] eqn:Es; [|discriminate].
@@ -1693,20 +1831,20 @@ Proof.
         destruct (Nat.eq_dec (kp + length cs + 0) (length code)); [right; auto|left; lia].
       - rewrite Nat.add_assoc in Hend. exact Hend. }
     pose proof (Hst b B lr il sl bt ct k0 fuel kp a g env s B1 r1 ltac:(lia) Es Hb) as H1. rewrite Esc in H1. cbn [fst snd] in H1.
-    specialize (H1 Hin1 Hc1 Hend1 ltac:(eapply lcok_mono; [exact Hlc|lia|reflexivity]) Hip Hcb Hops Hss HC).
+    specialize (H1 Hin1 Hc1 Hend1 ltac:(eapply lcok_mono; [exact Hlc|lia|reflexivity]) Hlrk Hip Hcb Hops Hss HC).
     destruct (Eval.exec fuel env st s) as [sig env1 s1|f s1|]; [|exact H1|exact Logic.I].
     destruct sig as [| | |rv];
       try (eapply (spost_rets b B1 r1 (r1 ++ r2)); [intros k Hk0; apply in_or_app; now left|intros; discriminate|exact H1]).
-    cbn [spost] in H1. destruct H1 as (Hd & HB1 & a1 & g1 & b1 & SM1 & Hip1 & Hops1 & HC1).
+    cbn [spost] in H1. destruct H1 as (Hd & HB1 & a1 & g1 & b1 & SM1 & Hip1 & Hops1 & HC1 & LK1).
     assert (Hcb1 : a_cb a1 = cb) by (unfold smid in SM1; destruct SM1 as (_ & _ & _ & (_ & _ & A) & _); congruence).
     pose proof (same_tl_length _ _ (Cl_ne _ _ _ _ _ _ _ _ _ _ _ _ HC) Hd) as Hlen1.
     assert (Hss1 : length (locals env1) <= S (a_ss a1)).
     { unfold smid in SM1. destruct SM1 as (_ & _ & _ & _ & S1 & _). rewrite Hlen1. lia. }
     pose proof (IH b1 B1 lr il sl bt ct (k0 + length fs) fuel (kp + length cs) a1 g1 env1 s1 B3 r2 ltac:(lia) El HB1) as H2.
     rewrite Ebc in H2. cbn [fst snd] in H2.
-    specialize (H2 Hin2 Hc2 Hend2 ltac:(eapply lcok_mono; [exact Hlc|lia|exact Hlen1]) Hip1 Hcb1 Hops1 Hss1 HC1).
+    specialize (H2 Hin2 Hc2 Hend2 ltac:(eapply lcok_mono; [exact Hlc|lia|exact Hlen1]) ltac:(eapply lrok_mono; [exact Hlrk|lia]) Hip1 Hcb1 Hops1 Hss1 HC1).
     rewrite Nat.add_assoc.
-    eapply spost_seq; [exact SM1|exact Hd|].
+    eapply spost_seq; [exact SM1|exact LK1|exact Hd|].
     destruct (exec_block fuel env1 l s1) as [sig2 env2 s2|f2 s2|]; [|exact H2|exact Logic.I].
     destruct sig2 as [| | |rv2]; [exact H2| | |];
       (eapply (spost_rets b1 B3 r2 (r1 ++ r2)); [intros k Hk0; apply in_or_app; now right|intros; discriminate|exact H2]).
@@ -1733,9 +1871,9 @@ Proof.
   - rewrite kstmt_SIfElif in H. destruct (is_KD (kexpr SF B CD c)); [|discriminate]. destruct (kblock SF il B CD body) as [[? ?]|]; [|discriminate].
     destruct (kstmt SF il B CD st) as [[? ?]|]; inversion H; subst; exact Hx.
   - rewrite kstmt_SWhile in H. destruct (is_KD (kexpr SF B CD c)); [|discriminate]. destruct (kblock SF true B CD body) as [[? ?]|]; inversion H; subst; exact Hx.
-  - destruct step; [discriminate|]. destruct name0 as [y|]; [|discriminate]. destruct collide; [discriminate|].
-    rewrite kstmt_SFrom in H. destruct (ok_dexpr B CD a && ok_dexpr B CD b && src_nameb y && negb (mem_str y (map fst B)) && negb (mem_str y (used_e b))); [|discriminate].
-    destruct (kblock SF true ((y, KD) :: B) CD body) as [[? ?]|]; inversion H; subst; exact Hx.
+  - rewrite kstmt_SFrom in H. destruct name0 as [y|]; destruct collide; try discriminate;
+      match type of H with (if ?c then _ else _) = _ => destruct c; [|discriminate] end;
+      match type of H with match ?k with _ => _ end = _ => destruct k as [[? ?]|]; inversion H; subst; exact Hx end.
   - cbn [kstmt] in H. destruct il; inversion H; subst; exact Hx.
   - cbn [kstmt] in H. destruct il; inversion H; subst; exact Hx.
   - destruct e as [e|]; cbn [kstmt] in H; [destruct (kexpr SF B CD e)|]; inversion H; subst; exact Hx.
@@ -1778,7 +1916,7 @@ Proof.
 Qed.
 
 (* the result of a block that runs in its own frame (if / else bodies), relative to the state after the push *)
-Definition bpost (b : cinj) (B : kctx) (rets : list kind) (sl : option nat) (bt ct fin : nat) (env : fenv) (s : rstate) (g0 : gstate)
+Definition bpost (b : cinj) (B : kctx) (rets : list kind) (lr : nat) (sl : option nat) (bt ct fin : nat) (env : fenv) (s : rstate) (g0 : gstate)
            (ap : act) (gp : gstate) (r : sres_) : Prop :=
   match r with
   | SOk sig env' s' =>
@@ -1792,7 +1930,8 @@ Definition bpost (b : cinj) (B : kctx) (rets : list kind) (sl : option nat) (bt 
         a_ip a' = bt /\ a_ops a' = [] /\ ClA b' [] (popn m env') s' g' /\ frames g' = skipn m (frames g0)
     | SigContinue => exists m a' g' b', sl = Some m /\ 1 <= m /\
         xrun prog name code ap gp a' g' /\ bext b b' s gp /\ act_same ap a' /\ a_ss ap <= S (a_ss a') /\ keep b gp g' /\ lens s s' gp g' /\
-        a_ip a' = ct /\ a_ops a' = [] /\ ClA b' [] (popn (m - 1) env') s' g' /\ tl (frames g') = skipn m (frames g0)
+        a_ip a' = ct /\ a_ops a' = [] /\ ClA b' [] (popn (m - 1) env') s' g' /\ tl (frames g') = skipn m (frames g0) /\
+        lkeep lr (skipn (m - 1) (frames g0)) (frames g')
     | SigReturn (Some v) => exists a' g' b' w k,
         xrun prog name code ap gp a' g' /\ nth_error code (a_ip a') = Some (mkI OP_RET []) /\ a_ops a' = [w] /\
         bext b b' s gp /\ heap_ok b' s' g' /\ vrel b' k v w /\ In k rets /\ out g' = rout s' /\
@@ -1813,19 +1952,19 @@ Lemma in_block_sim : forall body, bspec body -> forall b B lr il sl bt ct k0 fue
   fuel <= FU -> kblock SF il B CD body = Some (B', rets) -> bound2 B env -> installed (snd (bc path c0 lr (option_map S sl) k0 body)) ->
   items_at code bt ct kb (fst (bc path c0 lr (option_map S sl) k0 body) ++ [I OP_DONE []]) ->
   kb + length (fst (bc path c0 lr (option_map S sl) k0 body)) + 1 < length code ->
-  lcok il sl bt ct env (kb + length (fst (bc path c0 lr (option_map S sl) k0 body)) + 1) ->
+  lcok il sl bt ct env (kb + length (fst (bc path c0 lr (option_map S sl) k0 body)) + 1) -> lrok lr kb ->
   a_ip a = kb -> a_cb a = cb -> a_ops a = [] -> length (locals env) <= S (a_ss a) -> ClA b B env s g -> special lb = true ->
-  bpost b B rets sl bt ct (kb + length (fst (bc path c0 lr (option_map S sl) k0 body)) + 1) env s g (set_ss a (S (a_ss a))) (push_frame g lb)
+  bpost b B rets lr sl bt ct (kb + length (fst (bc path c0 lr (option_map S sl) k0 body)) + 1) env s g (set_ss a (S (a_ss a))) (push_frame g lb)
         (in_block_ fuel body env s).
 Proof.
-  intros body Hbody b B lr il sl bt ct k0 fuel kb a g env s lb B' rets Hfu Hk Hb Hinst Hc Hend Hlc Hip Hcb Hops Hss HC Hlb.
+  intros body Hbody b B lr il sl bt ct k0 fuel kb a g env s lb B' rets Hfu Hk Hb Hinst Hc Hend Hlc Hlrk Hip Hcb Hops Hss HC Hlb.
   set (len := length (fst (bc path c0 lr (option_map S sl) k0 body))) in *.
   apply items_at_app in Hc as [Hcb0 Hid]. apply items_at_cons in Hid as [Hid _]. cbn [item_instr I] in Hid. fold len in Hid.
   set (ap := set_ss a (S (a_ss a))). set (gp := push_frame g lb).
   assert (HC0 : ClA b B (push_scope env) s gp) by (apply Cl_push; assumption).
-  assert (Hb0 : bound2 B (push_scope env)) by (destruct Hb as [X1 X2]; split; [intros x; cbn [push_scope locals lookup_scopes assoc]; apply X1|exact X2]).
+  assert (Hb0 : bound2 B (push_scope env)) by (apply bound2_push; exact Hb).
   pose proof (Hbody b B lr il (option_map S sl) bt ct k0 fuel kb ap gp (push_scope env) s B' rets Hfu Hk Hb0 Hinst Hcb0 ltac:(left; fold len; lia)
-                ltac:(eapply lcok_block; [exact Hlc|fold len; lia])
+                ltac:(eapply lcok_block; [exact Hlc|fold len; lia]) Hlrk
                 Hip Hcb Hops ltac:(cbn [push_scope locals length ap set_ss a_ss]; lia) HC0) as H.
   fold len in H. unfold in_block_.
   destruct (exec_block fuel (push_scope env) body s) as [sig env2 s2|f s2|]; [|exact H|exact Logic.I].
@@ -1835,7 +1974,7 @@ Proof.
   { split; cbn [pop_scope locals]; rewrite Htl; [reflexivity|exact (Cl_ne _ _ _ _ _ _ _ _ _ _ _ _ HC)]. }
   split; [exact Hd'|].
   destruct sig as [| | |[v|]]; [| | |exact H|exact H].
-  - destruct H as (HB2 & a2 & g2 & b2 & SM2 & Hip2 & Hops2 & HC2).
+  - destruct H as (HB2 & a2 & g2 & b2 & SM2 & Hip2 & Hops2 & HC2 & _).
     unfold smid in SM2. destruct SM2 as (R2 & E2 & T2 & A2 & S2 & K2 & L2).
     set (i1 := mkI OP_DONE []) in *.
     set (g2t := trc name a2 g2 i1).
@@ -1847,7 +1986,7 @@ Proof.
     subst fs2.
     assert (HC3 : ClA b2 B (pop_scope env2) s2 (with_frames g2t (frames g))).
     { apply (Cl_pop path prog cb CD base name SF b2 B' B env2 s2 g2t sc2 (locals env) f2 (frames g) HC2t El2 (Cl_ne _ _ _ _ _ _ _ _ _ _ _ _ HC) Ef2).
-      intros x k Hx. split; [eapply kblock_ext; eassumption|]. apply (proj1 Hb). eapply assoc_in_keys; exact Hx. }
+      intros x k Hx. split; [eapply kblock_ext; eassumption|]. apply (bound2_look _ _ _ Hb). eapply assoc_in_keys; exact Hx. }
     split; [eapply bound2_eq; [exact Hb|cbn [pop_scope locals]; rewrite El2; reflexivity]|].
     cbn [ap set_ss a_ss] in S2. destruct (a_ss a2) as [|ss2] eqn:Ess2; [lia|].
     exists (set_ip (set_ss a2 ss2) (S (a_ip a2))), (with_frames g2t (frames g)), b2.
@@ -1865,27 +2004,27 @@ Proof.
     split; [lia|]. split; [exact K2|]. split; [exact L2|]. split; [exact Hip2|]. split; [exact Hops2|].
     split; [rewrite <- popn_S; exact HC2|]. rewrite Hf2. reflexivity.
   - (* continue *)
-    destruct H as (m' & a2 & g2 & b2 & Hsl & Hm' & J & Hip2 & Hops2 & HC2 & Hf2).
+    destruct H as (m' & a2 & g2 & b2 & Hsl & Hm' & J & Hip2 & Hops2 & HC2 & Hf2 & LK2).
     destruct sl as [m|]; [|discriminate]. cbn [option_map] in Hsl. inversion Hsl; subst m'.
     destruct Hlc as [_ Hlc]. destruct (Hlc m eq_refl) as (Hm1 & _).
     unfold jmid in J. destruct J as (R2 & E2 & A2 & S2 & K2 & L2).
     exists m, a2, g2, b2. split; [reflexivity|]. split; [exact Hm1|]. split; [exact R2|]. split; [exact E2|]. split; [exact A2|].
     split; [lia|]. split; [exact K2|]. split; [exact L2|]. split; [exact Hip2|]. split; [exact Hops2|].
-    split; [|rewrite Hf2; reflexivity].
-    replace (S m - 1) with m in HC2 by lia. destruct m as [|m0]; [lia|]. replace (S m0 - 1) with m0 by lia. rewrite <- popn_S. exact HC2.
+    replace (S m - 1) with m in HC2, LK2 by lia. destruct m as [|m0]; [lia|]. replace (S m0 - 1) with m0 by lia.
+    split; [rewrite <- popn_S; exact HC2|]. split; [rewrite Hf2; reflexivity|exact LK2].
 Qed.
 
 (* from the block (in its frame) back to the statement; after a normal completion at ffin the machine runs on to fin
    (the `jmp` over an else branch) *)
-Lemma spost_of_bpost : forall b B rr rets sl bt ct ffin fin env s a g b1 s1 a1 g1 g0 ap gp r,
+Lemma spost_of_bpost : forall b B rr rets lr sl bt ct ffin fin env s a g b1 s1 a1 g1 g0 ap gp r,
   (forall k, In k rr -> In k rets) ->
-  smid b s a g b1 s1 a1 g1 -> xrun prog name code a1 g1 ap gp -> frames g0 = frames g1 ->
+  smid b s a g b1 s1 a1 g1 -> lkeep lr (frames g) (frames g1) -> xrun prog name code a1 g1 ap gp -> frames g0 = frames g1 ->
   a_ss ap = S (a_ss a1) -> act_same a1 ap -> cells gp = cells g1 ->
   (forall a2 g2, a_ip a2 = ffin -> a_ops a2 = [] -> exists a3 g3, xrun prog name code a2 g2 a3 g3 /\ a_ip a3 = fin /\ a_ops a3 = [] /\
        frames g3 = frames g2 /\ cells g3 = cells g2 /\ out g3 = out g2 /\ act_same a2 a3 /\ a_ss a3 = a_ss a2) ->
-  bpost b1 B rr sl bt ct ffin env s1 g0 ap gp r -> spost b B rets sl bt ct fin env s a g r.
+  bpost b1 B rr lr sl bt ct ffin env s1 g0 ap gp r -> spost b B rets lr sl bt ct fin env s a g r.
 Proof.
-  intros b B rr rets sl bt ct ffin fin env s a g b1 s1 a1 g1 g0 ap gp r Hrr SM1 Rp Ef0 Hssp Hap Ecp Htail Hblk.
+  intros b B rr rets lr sl bt ct ffin fin env s a g b1 s1 a1 g1 g0 ap gp r Hrr SM1 LK1 Rp Ef0 Hssp Hap Ecp Htail Hblk.
   assert (Hbx : forall b2, bext b1 b2 s1 gp -> bext b1 b2 s1 g1) by (intros b2 E; unfold bext in *; rewrite <- Ecp; exact E).
   assert (Hkx : forall g2, keep b1 gp g2 -> keep b1 g1 g2) by (intros g2 K c' w0 Hc'; apply K; unfold cell_get in *; rewrite Ecp; exact Hc').
   assert (Hlx : forall s2 g2, lens s1 s2 gp g2 -> lens s1 s2 g1 g2) by (intros s2 g2 L; unfold lens in *; rewrite <- Ecp; exact L).
@@ -1899,7 +2038,7 @@ Proof.
   - destruct Hblk as [Hd H]. split; [exact Hd|]. destruct sig as [| | |[v|]].
     + destruct H as (HB2 & a2 & g2 & b2 & R2 & E2 & F2 & A2 & S2 & K2 & L2 & Hip2 & Hops2 & HC2). split; [exact HB2|].
       destruct (Htail a2 g2 Hip2 Hops2) as (a3 & g3 & R3 & Hip3 & Hops3 & F3 & C3 & O3 & A3 & S3).
-      exists a3, g3, b2. split; [|split; [exact Hip3|split; [exact Hops3|eapply Cl_same; [exact HC2|exact C3|exact F3|exact O3]]]].
+      exists a3, g3, b2. split; [|split; [exact Hip3|split; [exact Hops3|split; [eapply Cl_same; [exact HC2|exact C3|exact F3|exact O3]|rewrite F3, F2, Ef0; exact LK1]]]].
       eapply smid_trans; [exact SM1|]. unfold smid.
       split; [eapply xrun_trans; [exact Rp|]; eapply xrun_trans; [exact R2|exact R3]|]. split; [exact (Hbx _ E2)|].
       split; [rewrite F3, F2, Ef0; reflexivity|].
@@ -1910,9 +2049,10 @@ Proof.
     + destruct H as (m & a2 & g2 & b2 & Hsl & Hm & R2 & E2 & A2 & S2 & K2 & L2 & Hip2 & Hops2 & HC2 & Hf2).
       exists m, a2, g2, b2. split; [exact Hsl|]. split; [exact Hm|]. split; [exact (Hjm _ _ _ _ R2 E2 A2 S2 K2 L2)|].
       split; [exact Hip2|]. split; [exact Hops2|]. split; [exact HC2|]. rewrite Hf2, Ef0. apply skipn_tl_eq; [exact Hm|exact HT1].
-    + destruct H as (m & a2 & g2 & b2 & Hsl & Hm & R2 & E2 & A2 & S2 & K2 & L2 & Hip2 & Hops2 & HC2 & Hf2).
+    + destruct H as (m & a2 & g2 & b2 & Hsl & Hm & R2 & E2 & A2 & S2 & K2 & L2 & Hip2 & Hops2 & HC2 & Hf2 & LK2).
       exists m, a2, g2, b2. split; [exact Hsl|]. split; [exact Hm|]. split; [exact (Hjm _ _ _ _ R2 E2 A2 S2 K2 L2)|].
-      split; [exact Hip2|]. split; [exact Hops2|]. split; [exact HC2|]. rewrite Hf2, Ef0. apply skipn_tl_eq; [exact Hm|exact HT1].
+      split; [exact Hip2|]. split; [exact Hops2|]. split; [exact HC2|]. split; [rewrite Hf2, Ef0; apply skipn_tl_eq; [exact Hm|exact HT1]|].
+      rewrite Ef0 in LK2. eapply lkeep_trans; [apply lkeep_skipn; [exact HT1|exact LK1]|exact LK2].
     + destruct H as (a2 & g2 & b2 & w & k & R2 & Hi2' & Hops2 & E2 & Hh2 & Hv2 & Hk2 & Ho2 & Hdr2 & K2 & L2).
       unfold smid in SM1. destruct SM1 as (R1 & E1 & T1 & A1 & S1 & K1 & L1).
       exists a2, g2, b2, w, k. split; [eapply xrun_trans; [exact R1|]; eapply xrun_trans; [exact Rp|exact R2]|].
@@ -1938,7 +2078,7 @@ Ltac atpi H := first [exact H | match type of H with
 (* ---------------------------------------------------------------- if *)
 Lemma if_sim : forall cnd body, bspec body -> sspec (SIf cnd body).
 Proof.
-  intros cnd body Hbody b B lr il sl bt ct k0 fuel kp a g env s B' rets Hfu Hk Hb Hinst Hc Hend Hlc Hip Hcb Hops Hss HC.
+  intros cnd body Hbody b B lr il sl bt ct k0 fuel kp a g env s B' rets Hfu Hk Hb Hinst Hc Hend Hlc Hlrk Hip Hcb Hops Hss HC.
   destruct Hend as [Hend|[Hend _]]; [|discriminate Hend].
   rewrite kstmt_SIf in Hk. destruct (kexpr SF B CD cnd) as [[|? ?|]|] eqn:Ec; try discriminate. cbn [is_KD] in Hk.
   destruct (kblock SF il B CD body) as [[B1 rb]|] eqn:Eb; [|discriminate]. inversion Hk; subst B' rets.
@@ -1962,8 +2102,8 @@ Proof.
   pose proof (Cl_trc b1 B env s1 g1 name a1 i1 HC1) as HC1t. fold g1t in HC1t.
   assert (Hcb1 : a_cb a1 = cb) by (unfold smid in SM1; destruct SM1 as (_ & _ & _ & (_ & _ & A) & _); congruence).
   assert (Hss1 : a_ss a1 = a_ss a) by (unfold mid, rest in M1; destruct M1 as (_ & _ & _ & _ & S1 & _); exact S1).
-  assert (Hnb : (forall b0, v <> RBool b0) -> spost b B rb sl bt ct (kp + (length cc + (1 + (length cb0 + 1)))) env s a g (SFailed (FType 12) s1)).
-  { intros Hv. apply (spost_fail_e b B rb sl bt ct _ env s a g (FType 12) s1 E_not_bool g1t); [|cbn; auto|exact (cl_out _ _ _ _ _ _ _ _ _ _ _ _ HC1)].
+  assert (Hnb : (forall b0, v <> RBool b0) -> spost b B rb lr sl bt ct (kp + (length cc + (1 + (length cb0 + 1)))) env s a g (SFailed (FType 12) s1)).
+  { intros Hv. apply (spost_fail_e b B rb lr sl bt ct _ env s a g (FType 12) s1 E_not_bool g1t); [|cbn; auto|exact (cl_out _ _ _ _ _ _ _ _ _ _ _ _ HC1)].
     eapply smid_fail; [exact SM1|]. eapply xstep_fail; [exact Hip1|exact Hi1|exact Hdec|].
     apply (exec_if_nb _ a1 g1t (inj v)); [exact Hops1|now apply not_bool_inj]. }
   destruct v as [z|bv|t| |p bd ev]; try (apply Hnb; intros b0; discriminate).
@@ -1976,15 +2116,15 @@ Proof.
     pose proof (in_block_sim body Hbody b1 B lr il sl bt ct (k0 + length fc) fuel (S k1) a1' g1t env s1 LIf B1 rb ltac:(lia) Eb Hb) as Hblk.
     rewrite Ebc in Hblk. cbn [fst snd] in Hblk.
     specialize (Hblk Hin2 ltac:(atpi Hib) ltac:(unfold k1; lia) ltac:(eapply lcok_mono; [exact Hlc|unfold k1; lia|reflexivity])
-                     ltac:(cbn [a1' set_ip a_ip]; lia) Hcb1 eq_refl
+                     ltac:(eapply lrok_mono; [exact Hlrk|unfold k1; lia]) ltac:(cbn [a1' set_ip a_ip]; lia) Hcb1 eq_refl
                      ltac:(cbn [a1' set_ip set_ops a_ss]; rewrite Hss1; exact Hss) HC1t eq_refl).
     assert (Efin : S k1 + length cb0 + 1 = kp + (length cc + (1 + (length cb0 + 1)))) by (unfold k1; lia).
     rewrite Efin in Hblk.
-    exact (spost_of_bpost b B rb rb sl bt ct _ _ env s a g b1 s1 a1 g1 g1t _ _ _ (fun k H => H) SM1 Rp eq_refl eq_refl ltac:(repeat split) eq_refl (no_tail _) Hblk).
+    exact (spost_of_bpost b B rb rb lr sl bt ct _ _ env s a g b1 s1 a1 g1 g1t _ _ _ (fun k H => H) SM1 (lk_mid lr _ _ _ _ _ _ _ _ _ M1) Rp eq_refl eq_refl ltac:(repeat split) eq_refl (no_tail _) Hblk).
   - (* false: jump over the body *)
     split; [apply same_tl_refl; exact (Cl_ne _ _ _ _ _ _ _ _ _ _ _ _ HC)|]. split; [exact Hb|].
     exists (set_ip (set_ops a1 []) (a_ip (set_ops a1 []) + off)), g1t, b1.
-    split; [|split; [cbn [set_ip set_ops a_ip]; rewrite Hip1; unfold k1, off; lia|split; [reflexivity|exact HC1t]]].
+    split; [|split; [cbn [set_ip set_ops a_ip]; rewrite Hip1; unfold k1, off; lia|split; [reflexivity|split; [exact HC1t|exact (lk_mid lr _ _ _ _ _ _ _ _ _ M1)]]]].
     eapply smid_trans; [exact SM1|]. apply smid_same; try reflexivity; [|repeat split].
     eapply (xstep_goto prog name code a1 g1 i1 _ k1 _ (set_ops a1 [])); [exact Hip1|exact Hi1|exact Hdec|exact Hx|].
     apply goto_fwd. cbn [set_ops a_ip]. rewrite Hip1. unfold off, k1. lia.
@@ -1993,7 +2133,7 @@ Qed.
 (* ---------------------------------------------------------------- if / else *)
 Lemma ifelse_sim : forall cnd body els, bspec body -> bspec els -> sspec (SIfElse cnd body els).
 Proof.
-  intros cnd body els Hbody Hels b B lr il sl bt ct k0 fuel kp a g env s B' rets Hfu Hk Hb Hinst Hc Hend Hlc Hip Hcb Hops Hss HC.
+  intros cnd body els Hbody Hels b B lr il sl bt ct k0 fuel kp a g env s B' rets Hfu Hk Hb Hinst Hc Hend Hlc Hlrk Hip Hcb Hops Hss HC.
   destruct Hend as [Hend|[Hend _]]; [|discriminate Hend].
   rewrite kstmt_SIfElse in Hk. destruct (kexpr SF B CD cnd) as [[|? ?|]|] eqn:Ec; try discriminate. cbn [is_KD] in Hk.
   destruct (kblock SF il B CD body) as [[B1 rb]|] eqn:Eb; [|discriminate].
@@ -2026,8 +2166,8 @@ Proof.
   pose proof (Cl_trc b1 B env s1 g1 name a1 i1 HC1) as HC1t. fold g1t in HC1t.
   assert (Hcb1 : a_cb a1 = cb) by (unfold smid in SM1; destruct SM1 as (_ & _ & _ & (_ & _ & A) & _); congruence).
   assert (Hss1 : a_ss a1 = a_ss a) by (unfold mid, rest in M1; destruct M1 as (_ & _ & _ & _ & S1 & _); exact S1).
-  assert (Hnb : (forall b0, v <> RBool b0) -> spost b B (rb ++ re) sl bt ct fin env s a g (SFailed (FType 12) s1)).
-  { intros Hv. apply (spost_fail_e b B (rb ++ re) sl bt ct _ env s a g (FType 12) s1 E_not_bool g1t); [|cbn; auto|exact (cl_out _ _ _ _ _ _ _ _ _ _ _ _ HC1)].
+  assert (Hnb : (forall b0, v <> RBool b0) -> spost b B (rb ++ re) lr sl bt ct fin env s a g (SFailed (FType 12) s1)).
+  { intros Hv. apply (spost_fail_e b B (rb ++ re) lr sl bt ct _ env s a g (FType 12) s1 E_not_bool g1t); [|cbn; auto|exact (cl_out _ _ _ _ _ _ _ _ _ _ _ _ HC1)].
     eapply smid_fail; [exact SM1|]. eapply xstep_fail; [exact Hip1|exact Hi1|exact Hdec|].
     apply (exec_if_nb _ a1 g1t (inj v)); [exact Hops1|now apply not_bool_inj]. }
   destruct v as [z|bv|t| |p bd ev]; try (apply Hnb; intros b0; discriminate).
@@ -2040,10 +2180,10 @@ Proof.
     pose proof (in_block_sim body Hbody b1 B lr il sl bt ct (k0 + length fc) fuel (S k1) a1' g1t env s1 LIf B1 rb ltac:(lia) Eb Hb) as Hblk.
     rewrite Ebc in Hblk. cbn [fst snd] in Hblk.
     specialize (Hblk Hin2 ltac:(atpi Hib) ltac:(unfold fin, k1 in *; lia) ltac:(eapply lcok_mono; [exact Hlc|unfold fin, k1; lia|reflexivity])
-                     ltac:(cbn [a1' set_ip a_ip]; lia) Hcb1 eq_refl
+                     ltac:(eapply lrok_mono; [exact Hlrk|unfold k1; lia]) ltac:(cbn [a1' set_ip a_ip]; lia) Hcb1 eq_refl
                      ltac:(cbn [a1' set_ip set_ops a_ss]; rewrite Hss1; exact Hss) HC1t eq_refl).
-    apply (spost_of_bpost b B rb (rb ++ re) sl bt ct (S k1 + length cb0 + 1) fin env s a g b1 s1 a1 g1 g1t _ _ _
-             ltac:(intros k Hk0; apply in_or_app; now left) SM1 Rp eq_refl eq_refl ltac:(repeat split) eq_refl); [|exact Hblk].
+    apply (spost_of_bpost b B rb (rb ++ re) lr sl bt ct (S k1 + length cb0 + 1) fin env s a g b1 s1 a1 g1 g1t _ _ _
+             ltac:(intros k Hk0; apply in_or_app; now left) SM1 (lk_mid lr _ _ _ _ _ _ _ _ _ M1) Rp eq_refl eq_refl ltac:(repeat split) eq_refl); [|exact Hblk].
     intros a2 g2 Hip2 Hops2.
     set (ij := mkI OP_JMP [sN offj]) in *.
     exists (set_ip a2 (kj + offj)), (trc name a2 g2 ij).
@@ -2065,11 +2205,11 @@ Proof.
     pose proof (in_block_sim els Hels b1 B lr il sl bt ct (k0 + length fc + length fb) fuel (S ke) a2' g2t env s1 LElse B2 re ltac:(lia) Ee Hb) as Hblk.
     rewrite Ebe in Hblk. cbn [fst snd] in Hblk.
     specialize (Hblk Hin3 ltac:(atpi Hie) ltac:(unfold fin, ke, kj, k1 in *; lia) ltac:(eapply lcok_mono; [exact Hlc|unfold fin, ke, kj, k1; lia|reflexivity])
-                     eq_refl Hcb1 eq_refl
+                     ltac:(eapply lrok_mono; [exact Hlrk|unfold ke, kj, k1; lia]) eq_refl Hcb1 eq_refl
                      ltac:(cbn [a2' a2 set_ip set_ops a_ss]; rewrite Hss1; exact Hss) ltac:(apply Cl_trc; exact HC1t) eq_refl).
     rewrite <- Hfin in Hblk.
-    exact (spost_of_bpost b B re (rb ++ re) sl bt ct _ _ env s a g b1 s1 a1 g1 g2t _ _ _
-             ltac:(intros k Hk0; apply in_or_app; now right) SM1 Rp eq_refl eq_refl ltac:(repeat split) eq_refl (no_tail _) Hblk).
+    exact (spost_of_bpost b B re (rb ++ re) lr sl bt ct _ _ env s a g b1 s1 a1 g1 g2t _ _ _
+             ltac:(intros k Hk0; apply in_or_app; now right) SM1 (lk_mid lr _ _ _ _ _ _ _ _ _ M1) Rp eq_refl eq_refl ltac:(repeat split) eq_refl (no_tail _) Hblk).
 Qed.
 
 (* ---------------------------------------------------------------- else if = else { the next statement } *)
@@ -2085,7 +2225,7 @@ Proof.
   intros cnd body nxt Hbody Hn.
   assert (Hels : bspec [nxt]) by (apply bspec_of; constructor; [exact Hn|constructor]).
   pose proof (ifelse_sim cnd body [nxt] Hbody Hels) as H.
-  intros b B lr il sl bt ct k0 fuel kp a g env s B' rets Hfu Hk Hb Hinst Hc Hend Hlc Hip Hcb Hops Hss HC.
+  intros b B lr il sl bt ct k0 fuel kp a g env s B' rets Hfu Hk Hb Hinst Hc Hend Hlc Hlrk Hip Hcb Hops Hss HC.
   assert (Ee : Eval.exec fuel env (SIfElif cnd body nxt) s = Eval.exec fuel env (SIfElse cnd body [nxt]) s).
   { destruct fuel; [reflexivity|]. rewrite exec_SIfElif, exec_SIfElse. reflexivity. }
   rewrite Ee. rewrite sc_elif_else in *. apply (H b B lr il sl bt ct k0 fuel kp a g env s B' rets Hfu); try assumption.
@@ -2122,13 +2262,13 @@ Proof.
   destruct (locals env2) as [|sc2 l2] eqn:El2; [congruence|]. cbn [tl] in Htl. subst l2.
   destruct (frames g2) as [|f2 fs2] eqn:Ef2; [exact (False_ind _ (proj2 (Rfr2_ne _ _ _ (cl_fr _ _ _ _ _ _ _ _ _ _ _ _ HC2)) Ef2))|].
   cbn [tl]. apply (Cl_pop path prog cb CD base name SF b2 B B env2 s2 g2 sc2 (locals env) f2 fs2 HCB El2 Hne Ef2).
-  intros x k Hx. split; [exact Hx|]. apply (proj1 Hb). eapply assoc_in_keys; exact Hx.
+  intros x k Hx. split; [exact Hx|]. apply (bound2_look _ _ _ Hb). eapply assoc_in_keys; exact Hx.
 Qed.
 
 (* ---------------------------------------------------------------- while *)
 Lemma while_sim : forall cnd body, bspec body -> sspec (SWhile cnd body).
 Proof.
-  intros cnd body Hbody b B lr il sl bt ct k0 fuel kp a g env s B' rets Hfu Hk Hb Hinst Hc Hend Hlc Hip Hcb Hops Hss HC.
+  intros cnd body Hbody b B lr il sl bt ct k0 fuel kp a g env s B' rets Hfu Hk Hb Hinst Hc Hend Hlc Hlrk Hip Hcb Hops Hss HC.
   destruct Hend as [Hend|[Hend _]]; [|discriminate Hend].
   rewrite kstmt_SWhile in Hk. destruct (kexpr SF B CD cnd) as [[|? ?|]|] eqn:Ec; try discriminate. cbn [is_KD] in Hk.
   destruct (kblock SF true B CD body) as [[B1 rb]|] eqn:Eb; [|discriminate]. inversion Hk; subst B' rets.
@@ -2160,8 +2300,8 @@ Proof.
   pose proof (Cl_trc b1 B env s1 g1 name a1 i1 HC1) as HC1t. fold g1t in HC1t.
   assert (Hcb1 : a_cb a1 = cb) by (unfold smid in SM1; destruct SM1 as (_ & _ & _ & (_ & _ & A) & _); congruence).
   assert (Hss1 : a_ss a1 = a_ss a) by (unfold mid, rest in M1; destruct M1 as (_ & _ & _ & _ & S1 & _); exact S1).
-  assert (Hnb : (forall b0, v <> RBool b0) -> spost b B rb sl bt ct fin env s a g (SFailed (FType 12) s1)).
-  { intros Hv. apply (spost_fail_e b B rb sl bt ct _ env s a g (FType 12) s1 E_not_bool g1t); [|cbn; auto|exact (cl_out _ _ _ _ _ _ _ _ _ _ _ _ HC1)].
+  assert (Hnb : (forall b0, v <> RBool b0) -> spost b B rb lr sl bt ct fin env s a g (SFailed (FType 12) s1)).
+  { intros Hv. apply (spost_fail_e b B rb lr sl bt ct _ env s a g (FType 12) s1 E_not_bool g1t); [|cbn; auto|exact (cl_out _ _ _ _ _ _ _ _ _ _ _ _ HC1)].
     eapply smid_fail; [exact SM1|]. eapply xstep_fail; [exact Hip1|exact Hi1|exact Hdec|].
     apply (exec_while_nb _ a1 g1t (inj v)); [exact Hops1|now apply not_bool_inj]. }
   destruct v as [z|bv|t| |p bd ev]; try (apply Hnb; intros b0; discriminate).
@@ -2170,7 +2310,7 @@ Proof.
   2:{ (* false: leave *)
     split; [apply same_tl_refl; exact (Cl_ne _ _ _ _ _ _ _ _ _ _ _ _ HC)|]. split; [exact Hb|].
     exists (set_ip (set_ops a1 []) (a_ip (set_ops a1 []) + off)), g1t, b1.
-    split; [|split; [cbn [set_ip set_ops a_ip]; rewrite Hip1; unfold fin, kj, kb, off; lia|split; [reflexivity|exact HC1t]]].
+    split; [|split; [cbn [set_ip set_ops a_ip]; rewrite Hip1; unfold fin, kj, kb, off; lia|split; [reflexivity|split; [exact HC1t|exact (lk_mid lr _ _ _ _ _ _ _ _ _ M1)]]]].
     eapply smid_trans; [exact SM1|]. apply smid_same; try reflexivity; [|repeat split].
     eapply (xstep_goto prog name code a1 g1 i1 _ kw _ (set_ops a1 [])); [exact Hip1|exact Hi1|exact Hdec|exact Hx|].
     apply goto_fwd. cbn [set_ops a_ip]. rewrite Hip1. unfold off, fin, kj, kb in *. lia. }
@@ -2182,12 +2322,12 @@ Proof.
   pose proof (Cl_ne _ _ _ _ _ _ _ _ _ _ _ _ HC) as Hne.
   assert (Hl1 : 1 <= length (locals env)) by (destruct (locals env); [congruence|cbn [length]; lia]).
   assert (HC0 : ClA b1 B (push_scope env) s1 gp) by (apply Cl_push; [exact HC1t|reflexivity]).
-  assert (Hb0 : bound2 B (push_scope env)) by (destruct Hb as [X1 X2]; split; [intros x; cbn [push_scope locals lookup_scopes assoc]; apply X1|exact X2]).
+  assert (Hb0 : bound2 B (push_scope env)) by (apply bound2_push; exact Hb).
   pose proof (Hbody b1 B lr true (Some 1) fin kj (k0 + length fc) n kb ap gp (push_scope env) s1 B1 rb ltac:(lia) Eb Hb0) as Hbd.
   rewrite Ebc in Hbd. cbn [fst snd] in Hbd.
   specialize (Hbd Hin2 Hib ltac:(left; unfold fin, kj in *; lia)
                   ltac:(split; [discriminate|intros m Hm; inversion Hm; subst m; cbn [push_scope locals length]; unfold fin, kj in *; repeat split; lia])
-                  ltac:(cbn [ap a1' set_ss set_ip a_ip]; unfold kb; lia) Hcb1 eq_refl
+                  ltac:(eapply lrok_mono; [exact Hlrk|unfold kb, kw; lia]) ltac:(cbn [ap a1' set_ss set_ip a_ip]; unfold kb; lia) Hcb1 eq_refl
                   ltac:(cbn [push_scope locals length ap a1' set_ss set_ip set_ops a_ss]; rewrite Hss1; lia) HC0).
   fold kj in Hbd. unfold in_block_.
   assert (Hnames : forall b2, cinj_le b1 b2 -> forall x k, assoc x B = Some k -> uname0 x /\ exists c c', lookup_scopes x (locals env) = Some c /\ b2 c c' k)
@@ -2202,7 +2342,7 @@ Proof.
   (* the end of the body: the back edge, the next iteration *)
   assert (Hnext : forall b2 s2 a2 g2 env2, jmid b1 s1 ap gp b2 s2 a2 g2 -> a_ip a2 = kj -> a_ops a2 = [] -> ClA b2 [] env2 s2 g2 ->
             tl (frames g2) = frames g1t -> tl (locals env2) = locals env -> locals env2 <> [] ->
-            spost b B rb sl bt ct fin env s a g (Eval.exec n (pop_scope env2) (SWhile cnd body) s2)).
+            spost b B rb lr sl bt ct fin env s a g (Eval.exec n (pop_scope env2) (SWhile cnd body) s2)).
   { intros b2 s2 a2 g2 env2 J Hip2 Hops2 HC2 T2 Htl2 Hne2.
     destruct (Hjm _ _ _ _ J) as (J3 & Hcb2 & Hss2 & Hle2).
     set (ij := mkI OP_JMP_POP [neg_off (1 + length cb0 + length cc)]) in *.
@@ -2219,7 +2359,8 @@ Proof.
       split; [destruct A0 as (X1 & X2 & X3); repeat split; assumption|]. split; [cbn [set_ip a_ss]; exact S0|]. split; [exact K0|exact L0]. }
     assert (Hd2 : same_tl env (pop_scope env2)) by (split; cbn [pop_scope locals]; rewrite Htl2; [reflexivity|exact Hne]).
     assert (Hb3 : bound2 B (pop_scope env2)) by (eapply bound2_eq; [exact Hb|cbn [pop_scope locals]; exact Htl2]).
-    eapply spost_seq; [exact SM3|exact Hd2|].
+    eapply spost_seq; [exact SM3| |exact Hd2|].
+    { cbn [g3 with_frames frames]. rewrite T2. exact (lk_mid lr _ _ _ _ _ _ _ _ _ M1). }
     apply IH; [lia|exact Hb3| |reflexivity|exact Hcb2|exact Hops2| |exact HC3].
     - eapply lcok_mono; [exact Hlc|lia|cbn [pop_scope locals]; now rewrite Htl2].
     - cbn [set_ip a_ss pop_scope locals]. rewrite Htl2. lia. }
@@ -2230,7 +2371,7 @@ Proof.
   assert (Hd2 : same_tl env (pop_scope env2)) by (split; cbn [pop_scope locals]; rewrite Htl2; [reflexivity|exact Hne]).
   destruct sig as [| | |[v|]].
   - (* the body ends normally *)
-    destruct H as (_ & a2 & g2 & b2 & SM2 & Hip2 & Hops2 & HC2).
+    destruct H as (_ & a2 & g2 & b2 & SM2 & Hip2 & Hops2 & HC2 & _).
     apply (Hnext b2 s2 a2 g2 env2 (jmid_of_smid _ _ _ _ _ _ _ _ SM2) Hip2 Hops2 (Cl_weaken _ _ _ _ _ _ _ _ _ _ _ _ HC2)); [|exact Htl2|exact Hne2].
     unfold smid in SM2. exact (proj1 (proj2 (proj2 SM2))).
   - (* break: the loop is left *)
@@ -2238,14 +2379,14 @@ Proof.
     destruct (Hjm _ _ _ _ J) as (J3 & Hcb2 & Hss2 & Hle2).
     rewrite popn_1 in HC2. cbn [gp push_frame with_frames frames skipn] in Hf2.
     split; [exact Hd2|]. split; [eapply bound2_eq; [exact Hb|cbn [pop_scope locals]; exact Htl2]|].
-    exists a2, g2, b2. split; [|split; [exact Hip2|split; [exact Hops2|]]].
+    exists a2, g2, b2. split; [|split; [exact Hip2|split; [exact Hops2|split; [|rewrite Hf2; exact (lk_mid lr _ _ _ _ _ _ _ _ _ M1)]]]].
     + unfold jmid in J3. destruct J3 as (R0 & E0 & A0 & S0 & K0 & L0). unfold smid.
       split; [exact R0|]. split; [exact E0|]. split; [rewrite Hf2; unfold smid in SM1; exact (proj1 (proj2 (proj2 SM1)))|]. auto.
     + apply (Cl_B_of path prog cb CD base name SF b2 B (pop_scope env2) s2 g2 HC2). intros x k E.
       destruct (Hnames b2 Hle2 x k E) as (Hux & c & c' & A1 & A2). split; [exact Hux|]. exists c, c'. split; [|exact A2].
       cbn [pop_scope locals]. rewrite Htl2. exact A1.
   - (* continue *)
-    destruct H as (m & a2 & g2 & b2 & Hsl & _ & J & Hip2 & Hops2 & HC2 & Hf2). inversion Hsl; subst m.
+    destruct H as (m & a2 & g2 & b2 & Hsl & _ & J & Hip2 & Hops2 & HC2 & Hf2 & _). inversion Hsl; subst m.
     cbn [Nat.sub] in HC2. rewrite popn_0 in HC2. cbn [gp push_frame with_frames frames skipn] in Hf2.
     exact (Hnext b2 s2 a2 g2 env2 J Hip2 Hops2 HC2 Hf2 Htl2 Hne2).
   - (* return v *)
@@ -2266,6 +2407,7 @@ Proof.
     split; [exact Hk2|]. split; [exact Ho2|]. split; [exact Hdr2|]. split; [eapply keep_trans; [exact K1|exact E1|exact K2]|eapply lens_trans; [exact L1|exact L2]].
 Qed.
 
+(* ================================================================ from loops *)
 Lemma kvar_cons_other : forall B x y, y <> x -> kvar ((x, KD) :: B) CD y = kvar B CD y.
 Proof. intros B x y Hne. unfold kvar. cbn [assoc]. rewrite str_eqb_neq by congruence. reflexivity. Qed.
 Lemma ok_dexpr_weaken : forall B x e, ok_dexpr B CD e = true -> ~ In x (used_e e) -> ok_dexpr ((x, KD) :: B) CD e = true.
@@ -2305,28 +2447,370 @@ Proof.
     rewrite cmp_sem. reflexivity.
 Qed.
 
-Lemma from_sim : forall a0 b0 incl x body, bspec body -> sspec (SFrom a0 b0 incl None (Some x) false body).
+Section Loop.
+Variable body : list stmt.
+Hypothesis Hbody : bspec body.
+Variables (incl : bool) (step : option expr) (cname idn endr : str) (collide : bool).
+Variables (lr lr1 : nat) (il : bool) (sl : option nat) (bt ct : nat).
+Variables (B BL B1 : kctx) (rb : list kind).
+Variables (kc lbd ls k0b fin : nat) (cbody : list citem) (fbd : fbl) (cs : list instr).
+Variable fuel : nat.
+Hypothesis Hfu : fuel <= FU.
+Variables (hi : Z) (cx c'x ce : N) (F2 : frame) (R : list frame) (lL lE : list scope).
+Variable uenv : fenv -> fenv.
+Hypothesis Eb : kblock SF true BL CD body = Some (B1, rb).
+Hypothesis Est : match step with Some e => ok_dexpr BL CD e = true /\ step_free BL body e = true /\ cs = pcode c0 e | None => cs = [mkI OP_MAKE_INT [s_one]] end.
+Hypothesis Ebc : bc path c0 (S lr1) (Some 1) k0b body = (cbody, fbd).
+Hypothesis Hinb : installed fbd.
+Hypothesis Hlr : lr <= lr1.
+Hypothesis Hlbd : length cbody = lbd.
+Hypothesis Hls : length cs = ls.
+Let kw := S (S (S kc)).
+Let kb := S kw.
+Let ks := kb + lbd.
+Let kst := ks + ls.
+Let kj := S kst.
+Let kd := S kj.
+Hypothesis Hc1 : nth_error code kc = Some (mkI OP_LOAD_FAST [idn]).
+Hypothesis Hc2 : nth_error code (S kc) = Some (mkI OP_LOAD_FAST [endr]).
+Hypothesis Hc3 : nth_error code (S (S kc)) = Some (mkI OP_BIN_OP [if incl then op_le else op_lt]).
+Hypothesis Hw : nth_error code kw = Some (mkI OP_WHILE_LOOP [sN (lbd + ls + 3)]).
+Hypothesis Hib : items_at code kd ks kb cbody.
+Hypothesis Hcs : code_at code ks cs.
+Hypothesis Hst : nth_error code kst = Some (mkI OP_BIN_OP_ASSIGN [[43%N; 61%N]; idn]).
+Hypothesis Hj : nth_error code kj = Some (mkI OP_JMP_POP [neg_off (lbd + ls + 5)]).
+Hypothesis Hlrk1 : lrok (S lr1) kb.
+Hypothesis Hkd : kd <= fin.
+Hypothesis Hfin : fin < length code.
+Hypothesis Hlook : lookup_scopes cname lL = Some cx.
+Hypothesis HfxF2 : find_in_function idn (F2 :: R) = Some c'x.
+Hypothesis HaeF2 : assoc endr (vars F2) = Some ce.
+Hypothesis HlL : lL <> [].
+Hypothesis HlE : lE <> [] /\ tl lE = tl lL.
+Hypothesis HbLL : forall envX, locals envX = lL -> bound2 BL envX.
+Hypothesis HbE : forall envX, locals envX = lE -> bound2 B envX.
+Hypothesis Hidn : forall bB env2 s2 g2', ClA bB BL env2 s2 g2' -> tl (locals env2) = lL -> locals env2 <> [] -> tl (frames g2') = F2 :: R ->
+  lkeep (S lr1) ({| lab := LWhile; vars := [] |} :: F2 :: R) (frames g2') -> bB cx c'x KD -> find_in_function idn (frames g2') = Some c'x.
+Hypothesis Huenv : forall e, (if collide then e else undeclare e cname) = uenv e.
+Hypothesis Hue : forall envX, locals envX = lL -> locals (uenv envX) = lE.
+Hypothesis Hidn_nr : forall k, idn <> reg k.
+Hypothesis Hexit : forall a5 g5 env5 s5 b5, locals env5 = lL -> ClA b5 BL env5 s5 g5 -> frames g5 = F2 :: R -> a_ip a5 = kd -> a_ops a5 = [] ->
+  exists a6 g6, xrun prog name code a5 g5 a6 g6 /\ a_ip a6 = fin /\ a_ops a6 = [] /\ act_same a5 a6 /\ a_ss a6 = a_ss a5 /\ cells g6 = cells g5 /\
+    tl (frames g6) = R /\ lkeep lr (F2 :: R) (frames g6) /\ ClA b5 B (uenv env5) s5 g6 /\ locals (uenv env5) = lE.
+
+Lemma from_loop : forall n aL gL envL sL bL, locals envL = lL -> ClA bL BL envL sL gL -> frames gL = F2 :: R ->
+  a_ip aL = kc -> a_cb aL = cb -> length lL <= S (a_ss aL) -> bL cx c'x KD ->
+  cell_get gL ce = Some (VInt hi) -> (forall c k, ~ bL c ce k) ->
+  spost bL B rb lr sl bt ct fin envL sL aL gL (from_iter fuel incl hi step cname collide body n envL sL).
 Proof.
-  intros ea eb incl x body Hbody b B lr il sl bt ct k0 fuel kp a g env s B' rets Hfu Hk Hb Hinst Hc Hend Hlc Hip Hcb Hops Hss HC.
+  assert (Hsame : forall envL envX, locals envL = lL -> locals envX = lE -> same_tl envL envX).
+  { intros envL envX EL EX. destruct HlE as [H1 H2]. split; [rewrite EX, EL; exact H2|rewrite EX; exact H1]. }
+  assert (Hdecw : decode (mkI OP_WHILE_LOOP [sN (lbd + ls + 3)]) = DOk (DWhile (Z.of_nat (lbd + ls + 3)))).
+  { apply dec_while. eapply small_le; [|exact Hsmall]. unfold kd, kj, kst, ks, kb, kw in *. lia. }
+  induction n as [|n IH]; intros aL gL envL sL bL ElL HCL EfL HipL HcbL HssL HbxL HceL HcnL; [exact Logic.I|].
+  rewrite from_iter_S. rewrite ElL, Hlook.
+  destruct (proj1 (cl_heap _ _ _ _ _ _ _ _ _ _ _ _ HCL) _ _ _ HbxL) as (vx & wx & Esx & Ecx & [Hfox ->]). rewrite Esx.
+  destruct vx as [i|?|?| |? ? ?]; try exact Logic.I. cbn [inj] in Ecx.
+  assert (FxL : find_in_function idn (frames gL) = Some c'x) by (rewrite EfL; exact HfxF2).
+  assert (FeL : find_in_function endr (frames gL) = Some ce) by (rewrite EfL; cbn [find_in_function]; now rewrite HaeF2).
+  destruct (cond_run2 kc idn endr incl aL gL c'x ce i hi Hc1 Hc2 Hc3 HipL FxL Ecx FeL HceL) as (gc & Rc & Efc & Ecc & Eoc).
+  set (bb := if incl then (i <=? hi)%Z else (i <? hi)%Z) in *.
+  set (ac := upd aL kw [VBool bb]) in *.
+  set (i_w := mkI OP_WHILE_LOOP [sN (lbd + ls + 3)]) in *.
+  set (gct := trc name ac gc i_w).
+  assert (HCct : ClA bL BL envL sL gct) by (apply Cl_trc; eapply Cl_same; [exact HCL|exact Ecc|exact Efc|exact Eoc]).
+  pose proof (exec_while_gen (Z.of_nat (lbd + ls + 3)) ac gct [] bb eq_refl) as Hxw.
+  assert (SMc : smid bL sL aL gL bL sL ac gc) by (apply smid_same; [exact Rc|exact Efc|exact Ecc|repeat split|reflexivity]).
+  assert (Efct : frames gct = F2 :: R) by (change (frames gct) with (frames gc); now rewrite Efc, EfL).
+  (* ---- leaving the loop at kd *)
+  assert (Hleave : forall bK sK aK gK envK, jmid bL sL ac gc bK sK aK gK -> a_ip aK = kd -> a_ops aK = [] -> ClA bK BL envK sK gK ->
+            locals envK = lL -> frames gK = F2 :: R ->
+            spost bL B rb lr sl bt ct fin envL sL aL gL (SOk SigNormal (uenv envK) sK)).
+  { intros bK sK aK gK envK J HipK HopsK HCK ElK EfK.
+    destruct (Hexit aK gK envK sK bK ElK HCK EfK HipK HopsK) as (a6 & g6 & R6 & Hip6 & Hops6 & A6 & S6 & Ec6 & T6 & LK6 & HC6 & El6).
+    cbn [spost]. split; [exact (Hsame _ _ ElL El6)|]. split; [exact (HbE _ El6)|].
+    exists a6, g6, bK. split; [|split; [exact Hip6|split; [exact Hops6|split; [exact HC6|rewrite EfL; exact LK6]]]].
+    eapply smid_trans; [exact SMc|]. unfold jmid in J. destruct J as (RB & EB & AB & SB & KB & LB). unfold smid.
+    split; [eapply xrun_trans; [exact RB|exact R6]|]. split; [exact EB|]. split; [rewrite T6, Efc, EfL; reflexivity|].
+    split; [eapply act_same_trans; [exact AB|exact A6]|]. split; [rewrite S6; exact SB|].
+    split; [intros c' w0 Hc' Hn0; unfold cell_get; rewrite Ec6; exact (KB c' w0 Hc' Hn0)|].
+    destruct LB as [L1 L2]. split; [exact L1|rewrite Ec6; exact L2]. }
+  destruct bb.
+  2:{ (* the counter has passed the end: leave *)
+    set (a5 := set_ip (set_ops ac []) (kw + (lbd + ls + 3))).
+    assert (R5 : xrun prog name code ac gc a5 gct).
+    { eapply (xstep_goto prog name code ac gc i_w _ kw _ (set_ops ac [])); [reflexivity|exact Hw|exact Hdecw|exact Hxw|].
+      apply goto_fwd. cbn [set_ops a_ip ac upd set_ip]. unfold kd, kj, kst, ks, kb in *. lia. }
+    rewrite Huenv. apply (Hleave bL sL a5 gct envL); [|cbn [a5 set_ip a_ip]; unfold kd, kj, kst, ks, kb; lia|reflexivity|exact HCct|exact ElL|exact Efct].
+    unfold jmid. split; [exact R5|]. split; [apply bext_refl|]. split; [repeat split|]. split; [cbn [a5 ac upd set_ip set_ops a_ss]; lia|].
+    split; [apply (keep_cells_app _ _ _ []); now rewrite app_nil_r|]. split; [lia|cbn; lia]. }
+  (* one more iteration: push <while>, run the body *)
+  set (a0' := set_ip (set_ops ac []) (S (a_ip ac))).
+  set (ap := set_ss a0' (S (a_ss a0'))). set (gp := push_frame gct LWhile).
+  assert (Rp : xrun prog name code ac gc ap gp).
+  { eapply (xstep_push prog name code ac gc i_w _ kw LWhile (set_ops ac [])); [reflexivity|exact Hw|exact Hdecw|exact Hxw]. }
+  pose proof (HbLL envL ElL) as HbL.
+  assert (HneL : locals envL <> []) by (rewrite ElL; exact HlL).
+  assert (Hl1 : 1 <= length lL) by (destruct lL; [congruence|cbn [length]; lia]).
+  assert (HC0 : ClA bL BL (push_scope envL) sL gp) by (apply Cl_push; [exact HCct|reflexivity]).
+  pose proof (Hbody bL BL (S lr1) true (Some 1) kd ks k0b fuel kb ap gp (push_scope envL) sL B1 rb Hfu Eb (bound2_push _ _ HbL)) as Hbd.
+  rewrite Ebc in Hbd. cbn [fst snd] in Hbd. rewrite Hlbd in Hbd.
+  specialize (Hbd Hinb Hib ltac:(left; unfold kd, kj, kst, ks in *; lia)
+                  ltac:(split; [discriminate|intros m Hm; inversion Hm; subst m; cbn [push_scope locals length]; rewrite ElL;
+                                unfold kd, kj, kst, ks in *; repeat split; lia])
+                  Hlrk1 eq_refl ltac:(cbn [ap a0' ac set_ss upd set_ip set_ops a_cb]; exact HcbL) eq_refl
+                  ltac:(cbn [push_scope locals length ap a0' ac set_ss upd set_ip set_ops a_ss]; rewrite ElL; apply le_n_S; exact HssL) HC0).
+  fold ks in Hbd. unfold in_block_.
+  assert (Ecp : cells gp = cells gL) by (cbn [gp push_frame with_frames cells gct trc add_trace]; exact Ecc).
+  assert (Efp : frames gp = {| lab := LWhile; vars := [] |} :: F2 :: R) by (cbn [gp push_frame with_frames frames]; now rewrite Efct).
+  assert (Hnames2 : forall bB, cinj_le bL bB -> forall y k, assoc y BL = Some k -> uname0 y /\ exists c c', lookup_scopes y (locals envL) = Some c /\ bB c c' k)
+    by (intros bB Hle; exact (Cl_names bL bB BL envL sL gct HCct Hle)).
+  assert (J0 : jmid bL sL ac gc bL sL ap gp).
+  { unfold jmid. split; [exact Rp|]. split; [apply bext_refl|]. split; [repeat split|]. split; [cbn [ap a0' ac set_ss upd set_ip set_ops a_ss]; lia|].
+    split; [apply (keep_cells_app _ _ _ []); now rewrite app_nil_r|]. split; [lia|cbn; lia]. }
+  assert (HlLn : forall x, uname0 x -> assoc x BL = None -> lookup_scopes x lL = None).
+  { intros x Hux EB0. destruct (lookup_scopes x lL) as [cz|] eqn:Ez; [|reflexivity]. exfalso.
+    apply (In_keys_assoc _ BL x); [|exact EB0]. apply (bound2_in BL envL x HbL (proj2 (proj2 Hux))). rewrite ElL, Ez. discriminate. }
+  assert (Hkeep : forall sig env2 s2, exec_block fuel (push_scope envL) body sL = SOk sig env2 s2 ->
+            forall x, In x (match step with Some se => used_e se | None => [] end) -> assoc x BL = None -> lookup_scopes x (locals env2) = None).
+  { intros sig env2 s2 Eex x Hx EB0. destruct step as [se|]; [|destruct Hx]. destruct Est as (Hose & Hfree & _).
+    pose proof (ok_dexpr_uname _ _ _ Hose Hx) as Hux.
+    rewrite (keeps_look x _ _ (proj2 (exec_keeps fuel) _ _ _ _ _ _ Eex x (step_free_ok _ _ _ _ Hfree Hx EB0) (proj2 (proj2 Hux)))).
+    cbn [push_scope locals lookup_scopes assoc]. rewrite ElL. exact (HlLn x Hux EB0). }
+  (* ---- the end of the body (normal, or `continue`): the step, the back edge, the next iteration *)
+  assert (Hstep : forall bB s2 a2' g2' env2, jmid bL sL ap gp bB s2 a2' g2' -> a_ip a2' = ks -> a_ops a2' = [] -> ClA bB [] env2 s2 g2' ->
+            tl (frames g2') = frames gct -> lkeep (S lr1) (frames gp) (frames g2') -> tl (locals env2) = lL -> locals env2 <> [] ->
+            (forall x, In x (match step with Some se => used_e se | None => [] end) -> assoc x BL = None -> lookup_scopes x (locals env2) = None) ->
+            spost bL B rb lr sl bt ct fin envL sL aL gL
+              (let bump := fun (sv : rvalue) (s : rstate) =>
+                 match sget s cx, sv with
+                 | Some (RInt i'), RInt d => if i32_ok (i' + d)%Z then from_iter fuel incl hi step cname collide body n (pop_scope env2) (sset s cx (RInt (i' + d)%Z))
+                                             else SFailed FOverflow s
+                 | _, _ => SFailed (FType 13) s end in
+               match step with
+               | None => bump (RInt 1) s2
+               | Some se => match eval fuel (pop_scope env2) se s2 with
+                            | EVal sv s => bump sv s | ENoVal s => SFailed (FType 3) s
+                            | EFail f s => SFailed f s | EFuel => SFuel end
+               end)).
+  { intros bB s2 a2' g2' env2 J HipB HopsB HC2w TB LKB Htl2 Hne2 Hfr2.
+    pose proof (jmid_trans _ _ _ _ _ _ _ _ _ _ _ _ (jmid_of_smid _ _ _ _ _ _ _ _ SMc) (jmid_trans _ _ _ _ _ _ _ _ _ _ _ _ J0 J)) as J1.
+    unfold jmid in J1. destruct J1 as (RB & EB & AB & SB & KB & LB).
+    assert (Epop : locals (pop_scope env2) = lL) by exact Htl2.
+    assert (HleB : cinj_le bL bB) by exact (proj1 EB).
+    destruct (Cl_body_end bB BL envL env2 s2 g2' HC2w ltac:(rewrite ElL; exact Htl2) HneL Hne2 HbL (Hnames2 bB HleB)) as [HCB _].
+    assert (HbxB : bB cx c'x KD) by (exact (HleB _ _ _ HbxL)).
+    assert (Fx2 : find_in_function idn (frames g2') = Some c'x).
+    { apply (Hidn bB env2 s2 g2' HCB Htl2 Hne2); [rewrite TB; exact Efct|rewrite <- Efp; exact LKB|exact HbxB]. }
+    assert (HcbB : a_cb a2' = cb) by (destruct AB as (_ & _ & X3); congruence).
+    (* ---- after the step value d is on the stack: += , the back edge, the next iteration *)
+    assert (Hbump : forall d aM gM, xrun prog name code a2' g2' aM gM -> a_ip aM = kst -> a_ops aM = [VInt d] -> ClA bB BL env2 s2 gM ->
+              tl (frames gM) = tl (frames g2') -> find_in_function idn (frames gM) = Some c'x -> (exists extra, cells gM = cells g2' ++ extra) ->
+              act_same a2' aM -> a_ss aM = a_ss a2' ->
+              spost bL B rb lr sl bt ct fin envL sL aL gL
+                (match sget s2 cx with
+                 | Some (RInt i') => if i32_ok (i' + d)%Z then from_iter fuel incl hi step cname collide body n (pop_scope env2) (sset s2 cx (RInt (i' + d)%Z))
+                                     else SFailed FOverflow s2
+                 | _ => SFailed (FType 13) s2 end)).
+    { intros d aM gM RM HipM HopsM HCM TM FxM [extra EcM] AM SM.
+      destruct (proj1 (cl_heap _ _ _ _ _ _ _ _ _ _ _ _ HCM) _ _ _ HbxB) as (vx2 & wx2 & Esx2 & Ecx2 & [Hfox2 ->]). rewrite Esx2.
+      destruct vx2 as [i'|?|?| |? ? ?]; try exact Logic.I. cbn [inj] in Ecx2.
+      set (i_a := mkI OP_BIN_OP_ASSIGN [[43%N; 61%N]; idn]) in *.
+      set (gMt := trc name aM gM i_a).
+      assert (HcbM : a_cb aM = cb) by (destruct AM as (_ & _ & X3); congruence).
+      assert (Hlv : lookup_var aM gMt idn = Some c'x) by (unfold lookup_var; change (frames gMt) with (frames gM); now rewrite FxM).
+      pose proof (exec_bin_op_assign [43%N; 61%N] idn aM gMt c'x (VInt d) (VInt i') Hlv HopsM Ecx2) as Hxa.
+      change (op_base [43%N; 61%N]) with op_plus in Hxa.
+      change (bin_op_sem op_plus (VInt i') (VInt d)) with (arith OP_BIN_OP (i' + d)%Z) in Hxa. unfold arith in Hxa.
+      assert (R0M : xrun prog name code aL gL aM gM) by (eapply xrun_trans; [exact RB|exact RM]).
+      destruct (i32_ok (i' + d)%Z).
+      2:{ cbn [spost fail_post]. exists (E_overflow OP_BIN_OP), gMt.
+          split; [|split; [left; reflexivity|exact (cl_out _ _ _ _ _ _ _ _ _ _ _ _ HCM)]].
+          eapply xrun_fail; [exact R0M|]. eapply xstep_fail; [exact HipM|exact Hst|apply dec_bin_op_assign|exact Hxa]. }
+      set (sS := sset s2 cx (RInt (i' + d)%Z)).
+      set (aS := set_ip (set_ops aM [VInt (i' + d)%Z]) (S (a_ip aM))).
+      assert (HipS : a_ip aS = kj) by (cbn [aS set_ip a_ip]; now rewrite HipM).
+      set (gS := cell_set gMt c'x (VInt (i' + d)%Z)).
+      assert (RS : xrun prog name code aM gM aS gS).
+      { eapply (xstep_next prog name code aM gM i_a _ (a_ip aM) (set_ops aM [VInt (i' + d)%Z])); [reflexivity|rewrite HipM; exact Hst|apply dec_bin_op_assign|exact Hxa]. }
+      assert (HCS : ClA bB BL env2 sS gS).
+      { apply (Cl_update path prog cb CD base name SF bB BL env2 s2 gMt cx c'x KD (RInt (i' + d)%Z) (VInt (i' + d)%Z)); [apply Cl_trc; exact HCM|exact HbxB|].
+        split; [exact Logic.I|reflexivity]. }
+      set (ij := mkI OP_JMP_POP [neg_off (lbd + ls + 5)]) in *.
+      set (gN := with_frames (trc name aS gS ij) (tl (frames gS))).
+      assert (RN : xrun prog name code aS gS (set_ip aS kc) gN).
+      { apply (back_edge2 kj (lbd + ls + 5) kc aS gS Hj); [unfold kd, kj, kst, ks, kb, kw in *; lia|unfold kd in *; lia|
+          unfold kj, kst, ks, kb, kw; lia|exact HipS|exact (proj2 (Rfr2_ne _ _ _ (cl_fr _ _ _ _ _ _ _ _ _ _ _ _ HCS)))]. }
+      assert (HCN : ClA bB BL (pop_scope env2) sS gN).
+      { destruct (Cl_body_end bB BL envL env2 sS (trc name aS gS ij) (Cl_weaken _ _ _ _ _ _ _ _ _ _ _ _ (Cl_trc _ _ _ _ _ _ _ _ HCS))
+                    ltac:(rewrite ElL; exact Htl2) HneL Hne2 HbL (Hnames2 bB HleB)) as [_ H0]. exact H0. }
+      assert (EfN : frames gN = F2 :: R).
+      { cbn [gN with_frames frames]. change (frames gS) with (frames gM). rewrite TM, TB. exact Efct. }
+      assert (Hcne : ce <> c'x) by (intros E; apply (HcnL cx KD); rewrite E; exact HbxL).
+      assert (EcS : cells gN = set_nth (N.to_nat c'x) (VInt (i' + d)%Z) (cells g2' ++ extra)).
+      { cbn [gN with_frames cells trc add_trace gS cell_set gMt]. now rewrite EcM. }
+      assert (SMN : smid bL sL aL gL bB sS (set_ip aS kc) gN).
+      { unfold smid. split; [eapply xrun_trans; [exact R0M|]; eapply xrun_trans; [exact RS|exact RN]|].
+        split; [exact EB|]. split; [rewrite EfN, EfL; reflexivity|].
+        split; [eapply act_same_trans; [exact AB|]; destruct AM as (X1 & X2 & X3); repeat split; assumption|].
+        split; [cbn [set_ip aS set_ops a_ss]; rewrite SM; exact SB|].
+        split.
+        - intros c' w0 Hc' Hn0. pose proof (KB c' w0 Hc' Hn0) as H2. unfold cell_get in *. rewrite EcS.
+          rewrite nth_error_set_nth_other; [rewrite nth_error_app1; [exact H2|apply nth_error_Some; congruence]|].
+          intros E. apply N2Nat.inj in E. subst c'. exact (Hn0 cx KD HbxL).
+        - destruct LB as [L1 L2]. split; [cbn [sS sset store]; rewrite set_nth_length; exact L1|].
+          rewrite EcS, set_nth_length, app_length. lia. }
+      assert (HceN : cell_get gN ce = Some (VInt hi)).
+      { pose proof (KB ce _ HceL HcnL) as H2. unfold cell_get in *. rewrite EcS.
+        rewrite nth_error_set_nth_other; [rewrite nth_error_app1; [exact H2|apply nth_error_Some; congruence]|].
+        intros E. apply N2Nat.inj in E. exact (Hcne (eq_sym E)). }
+      assert (HcnN : forall c k, ~ bB c ce k).
+      { intros c k Hbc. destruct (proj2 EB c ce k Hbc) as [H0|[_ H2]]; [exact (HcnL c k H0)|].
+        assert (N.to_nat ce < length (cells gL)) by (apply nth_error_Some; unfold cell_get in HceL; congruence). lia. }
+      eapply spost_seq; [exact SMN|rewrite EfN, EfL; apply lkeep_refl|split; [rewrite Epop, ElL; reflexivity|rewrite Epop; exact HlL]|].
+      apply IH; [exact Epop|exact HCN|exact EfN|reflexivity|cbn [set_ip aS set_ops a_cb]; exact HcbM| |exact HbxB|exact HceN|exact HcnN].
+      cbn [set_ip aS set_ops a_ss]. rewrite SM. lia. }
+    cbv zeta. destruct step as [se|].
+    - (* a step expression: call-free, over locals of the loop's context; the reference semantics is outside the body's scope *)
+      destruct Est as (Hose & Hfree & Ecs). subst cs.
+      assert (HE : forall x c, assoc x BL <> None -> lookup_scopes x (locals env2) = Some c ->
+                lookup_scopes x (locals (pop_scope env2) ++ captured (pop_scope env2)) = Some c).
+      { intros x c HxB Hlk. apply lookup_app_some. cbn [pop_scope locals]. rewrite Htl2.
+        destruct (assoc x BL) as [kx|] eqn:EB0; [|congruence].
+        destruct (Hnames2 bB HleB x kx EB0) as (Hux & c1 & c1' & A1 & _). rewrite ElL in A1.
+        destruct (locals env2) as [|sc2 l2] eqn:E2l; [congruence|]. cbn [tl] in Htl2. subst l2.
+        pose proof (NS_lookup_tl sc2 lL x c1 ltac:(rewrite <- E2l; exact (cl_ns _ _ _ _ _ _ _ _ _ _ _ _ HCB)) (proj2 (proj2 Hux)) A1) as H2.
+        rewrite H2 in Hlk. inversion Hlk; subst c. exact A1. }
+      assert (HN : forall x, In x (used_e se) -> assoc x BL = None ->
+                lookup_scopes x (locals env2) = None /\ lookup_scopes x (locals (pop_scope env2)) = None).
+      { intros x Hx EB0. split; [exact (Hfr2 x Hx EB0)|]. rewrite Epop. exact (HlLn x (ok_dexpr_uname _ _ _ Hose Hx) EB0). }
+      pose proof (lexpr_run bB BL se c0 fuel ks a2' g2' env2 (pop_scope env2) s2 Hose HE HN eq_refl ltac:(lia) Hcs
+                    ltac:(rewrite Hls; unfold kd, kj, kst in *; lia) HipB HopsB HcbB HCB) as Hse.
+      rewrite Hls in Hse. fold kst in Hse.
+      destruct (eval fuel (pop_scope env2) se s2) as [sv s3|s3|f s3|]; [|contradiction| |exact Logic.I].
+      + destruct Hse as (-> & Hfos & gM & RM & HCM & HeM).
+        destruct sv as [d|?|?| |? ? ?]; try (destruct (sget s2 cx) as [[?|?|?| |? ? ?]|]; exact Logic.I).
+        apply (Hbump d (upd a2' kst [inj (RInt d)]) gM RM eq_refl eq_refl HCM (ext_tail _ _ _ _ _ HeM)); [|exact (ext_cells _ _ _ _ _ HeM)|repeat split|reflexivity].
+        rewrite (ext_find _ _ _ _ _ HeM); [exact Fx2|]. intros (k & _ & _ & E). exact (Hidn_nr k E).
+      + destruct Hse as (-> & e0 & g' & Hf & Hr & Ho). cbn [spost]. apply fail_post_intro. exists e0, g'.
+        split; [eapply xrun_fail; [exact RB|exact Hf]|]. split; [now apply err_rel_s_of|exact Ho].
+    - (* step 1 *)
+      subst cs. cbn [length] in Hls. subst ls.
+      set (i_m := mkI OP_MAKE_INT [s_one]) in *.
+      set (aM := set_ip (set_ops a2' [VInt 1]) (S (a_ip a2'))). set (gM := trc name a2' g2' i_m).
+      assert (RM : xrun prog name code a2' g2' aM gM).
+      { eapply (xstep_next prog name code a2' g2' i_m _ (a_ip a2') (set_ops a2' [VInt 1])); [reflexivity| |exact (dec_make_int 1 eq_refl)|].
+        - rewrite HipB. specialize (Hcs 0 i_m eq_refl). now rewrite Nat.add_0_r in Hcs.
+        - rewrite exec_make_int, HopsB. reflexivity. }
+      apply (Hbump 1%Z aM gM RM ltac:(cbn [aM set_ip a_ip]; rewrite HipB; unfold kst; lia) eq_refl (Cl_trc _ _ _ _ _ _ _ _ HCB) eq_refl Fx2
+               ltac:(exists []; now rewrite app_nil_r) ltac:(repeat split) eq_refl). }
+  destruct (exec_block fuel (push_scope envL) body sL) as [sig env2 s2|f s2|] eqn:Eex; cbn [spost] in Hbd |- *; [| |exact Logic.I].
+  first [pose proof (Hkeep _ _ _ Eex) as Hfr2|pose proof (Hkeep _ _ _ eq_refl) as Hfr2]. clear Hkeep.
+  2:{ eapply fail_post_map; [|exact Hbd]. intros (e0 & g' & Hf & Hr). exists e0, g'.
+      split; [eapply smid_fail; [exact SMc|]; eapply xrun_fail; [exact Rp|exact Hf]|exact Hr]. }
+  destruct Hbd as ([Htl2 Hne2] & H). cbn [push_scope locals tl] in Htl2. rewrite ElL in Htl2.
+  assert (Epop : locals (pop_scope env2) = lL) by exact Htl2.
+  assert (Hbxt : forall bB, bext bL bB sL gp -> bext bL bB sL gL).
+  { intros bB [E1 E2]. split; [exact E1|]. intros c c' k1' Hbc. destruct (E2 c c' k1' Hbc) as [H0|[H1 H2]]; [now left|right; rewrite <- Ecp; auto]. }
+  destruct sig as [| | |[v|]].
+  - (* the body ends normally *)
+    destruct H as (_ & a2' & g2' & bB & SMB & HipB & HopsB & HCB0 & LKB).
+    apply (Hstep bB s2 a2' g2' env2 (jmid_of_smid _ _ _ _ _ _ _ _ SMB) HipB HopsB (Cl_weaken _ _ _ _ _ _ _ _ _ _ _ _ HCB0)); [|exact LKB|exact Htl2|exact Hne2|exact Hfr2].
+    unfold smid in SMB. exact (proj1 (proj2 (proj2 SMB))).
+  - (* break: leave the loop *)
+    destruct H as (m & aK & gK & bK & HslK & _ & J & HipK & HopsK & HCK & HfK). inversion HslK; subst m.
+    rewrite popn_1 in HCK. cbn [gp push_frame with_frames frames skipn] in HfK.
+    assert (HCKB : ClA bK BL (pop_scope env2) s2 gK).
+    { apply (Cl_B_of path prog cb CD base name SF bK BL (pop_scope env2) s2 gK HCK). intros y k E.
+      destruct (Hnames2 bK (proj1 (proj1 (proj2 J))) y k E) as (Hy & c & c' & A1 & A2). split; [exact Hy|]. exists c, c'. split; [|exact A2].
+      rewrite Epop, <- ElL. exact A1. }
+    rewrite Huenv. apply (Hleave bK s2 aK gK (pop_scope env2) (jmid_trans _ _ _ _ _ _ _ _ _ _ _ _ J0 J) HipK HopsK HCKB Epop). rewrite HfK. exact Efct.
+  - (* continue: on to the step *)
+    destruct H as (m & aK & gK & bK & HslK & _ & J & HipK & HopsK & HCK & HfK & LKK). inversion HslK; subst m.
+    cbn [Nat.sub] in HCK, LKK. rewrite popn_0 in HCK. cbn [gp push_frame with_frames frames skipn] in HfK. cbn [skipn] in LKK.
+    exact (Hstep bK s2 aK gK env2 J HipK HopsK HCK HfK LKK Htl2 Hne2 Hfr2).
+  - (* return from inside the loop *)
+    destruct H as (a' & g' & b' & w & k & RB & HiB & HopsB & EB & HhB & HvB & HkB & HoB & HdrB & KB & LB).
+    rewrite Huenv. split; [exact (Hsame _ _ ElL (Hue _ Epop))|].
+    exists a', g', b', w, k. split; [eapply xrun_trans; [exact Rc|]; eapply xrun_trans; [exact Rp|exact RB]|].
+    split; [exact HiB|]. split; [exact HopsB|]. split; [exact (Hbxt _ EB)|].
+    split; [exact HhB|]. split; [exact HvB|]. split; [exact HkB|]. split; [exact HoB|]. split; [exact HdrB|]. split.
+    + intros c' w0 Hc' Hn0. apply KB; [unfold cell_get in *; rewrite Ecp; exact Hc'|exact Hn0].
+    + destruct LB as [L1 L2]. split; [exact L1|rewrite <- Ecp; exact L2].
+  - destruct H as (a' & g' & b' & RB & HiB & HopsB & EB & HhB & HkB & HoB & HdrB & KB & LB).
+    rewrite Huenv. split; [exact (Hsame _ _ ElL (Hue _ Epop))|].
+    exists a', g', b'. split; [eapply xrun_trans; [exact Rc|]; eapply xrun_trans; [exact Rp|exact RB]|].
+    split; [exact HiB|]. split; [exact HopsB|]. split; [exact (Hbxt _ EB)|].
+    split; [exact HhB|]. split; [exact HkB|]. split; [exact HoB|]. split; [exact HdrB|]. split.
+    + intros c' w0 Hc' Hn0. apply KB; [unfold cell_get in *; rewrite Ecp; exact Hc'|exact Hn0].
+    + destruct LB as [L1 L2]. split; [exact L1|rewrite <- Ecp; exact L2].
+Qed.
+End Loop.
+(* store_fast y for a name that is not a user name (a loop register): a cell of the VM's own *)
+Lemma store_fast_reg : forall b B env s a1 g1 k1 y w, nth_error code k1 = Some (mkI OP_STORE_FAST [y]) ->
+  a_ip a1 = k1 -> a_ops a1 = [w] -> ClA b B env s g1 -> ~ uname0 y ->
+  exists f fs g2, frames g1 = f :: fs /\
+    xrun prog name code a1 g1 (upd a1 (S k1) []) g2 /\ ClA b B env s g2 /\
+    frames g2 = {| lab := lab f; vars := assoc_set y (N.of_nat (length (cells g1))) (vars f) |} :: fs /\
+    cells g2 = cells g1 ++ [w] /\ out g2 = out g1 /\ (forall c k, ~ b c (N.of_nat (length (cells g1))) k).
+Proof.
+  intros b B env s a1 g1 k1 y w Hi Hip Hops HC Hy. subst k1.
+  set (i1 := mkI OP_STORE_FAST [y]) in *.
+  destruct (Cl_bind_reg path prog cb CD base name SF b B env s (trc name a1 g1 i1) y w (Cl_trc _ _ _ _ _ _ _ _ HC) Hy)
+    as (f & fs & Ef & Hb). cbv zeta in Hb. destruct Hb as [Hb HC2].
+  match type of HC2 with Cl _ _ _ _ _ _ _ _ _ _ _ ?G => set (g2 := G) in * end.
+  exists f, fs, g2. split; [exact Ef|]. split; [|split; [exact HC2|split; [reflexivity|split; [reflexivity|split; [reflexivity|]]]]].
+  - eapply (xstep_next prog name code a1 g1 i1 _ (a_ip a1) (set_ops a1 [])); [reflexivity|exact Hi|apply dec_store_fast|].
+    apply (exec_store_fast y a1 _ w g2); [exact Hops|exact Hb].
+  - intros c k Hb0. destruct (heap_valid path prog _ _ _ _ _ _ (cl_heap _ _ _ _ _ _ _ _ _ _ _ _ HC) Hb0) as [_ Hc'].
+    rewrite Nnat.Nat2N.id in Hc'. lia.
+Qed.
+
+Lemma bound2_same : forall B env env', bound2 B env -> (forall x, x <> hid -> lookup_scopes x (locals env') = lookup_scopes x (locals env)) -> bound2 B env'.
+Proof. intros B env env' [H1 H2] E. split; [intros x Hx; rewrite (E x Hx); exact (H1 x Hx)|exact H2]. Qed.
+
+Lemma items_at_eq : forall bt ct k bt' ct' k' its, items_at code bt ct k its -> bt = bt' -> ct = ct' -> k = k' -> items_at code bt' ct' k' its.
+Proof. intros bt ct k bt' ct' k' its H -> -> ->. exact H. Qed.
+
+Lemma lk_bind2 : forall lr f fs x c, (forall j, j <= lr -> x <> lregn j) -> lkeep lr (f :: fs) ({| lab := lab f; vars := assoc_set x c (vars f) |} :: fs).
+Proof. intros lr f fs x c Hx j Hj. cbn [find_in_function vars lab]. rewrite assoc_set_other; [reflexivity|]. intros E. exact (Hx j Hj (eq_sym E)). Qed.
+(* a machine step that binds a name of the VM's own in the top frame *)
+Lemma smid_bind : forall b s a1 g1 a2 g2 f fs y c w, xrun prog name code a1 g1 a2 g2 -> frames g1 = f :: fs ->
+  frames g2 = {| lab := lab f; vars := assoc_set y c (vars f) |} :: fs -> cells g2 = cells g1 ++ [w] ->
+  act_same a1 a2 -> a_ss a2 = a_ss a1 -> smid b s a1 g1 b s a2 g2.
+Proof.
+  intros b s a1 g1 a2 g2 f fs y c w R E1 E2 Ec A S. unfold smid. split; [exact R|]. split; [apply bext_refl|].
+  split; [now rewrite E1, E2|]. split; [exact A|]. split; [lia|]. split; [apply (keep_cells_app _ _ _ [w]); exact Ec|].
+  split; [lia|rewrite Ec, app_length; lia].
+Qed.
+Lemma stepc_inv : forall lr k step cs fs B body, stepc path c0 lr k step = (cs, fs) -> kstep SF B CD body step = true ->
+  fs = [] /\ match step with Some e => ok_dexpr B CD e = true /\ step_free B body e = true /\ cs = pcode c0 e | None => cs = [mkI OP_MAKE_INT [s_one]] end.
+Proof.
+  intros lr k [e|] cs fs B body H Hk; cbn [stepc kstep] in *.
+  - apply andb_true_iff in Hk as [Hk Hf]. rewrite (ec_pure path e (ok_dexpr_pure _ _ _ Hk)) in H. inversion H; subst. auto.
+  - inversion H; subst. auto.
+Qed.
+
+Lemma from_sim : forall ea eb incl step nm collide body, bspec body -> sspec (SFrom ea eb incl step nm collide body).
+Proof.
+  intros ea eb incl step nm collide body Hbody b B lr il sl bt ct k0 fuel kp a g env s B' rets Hfu Hk Hb Hinst Hc Hend Hlc Hlrk Hip Hcb Hops Hss HC.
   destruct Hend as [Hend|[Hend _]]; [|discriminate Hend].
-  rewrite kstmt_SFrom in Hk.
-  destruct (ok_dexpr B CD ea && ok_dexpr B CD eb && src_nameb x && negb (mem_str x (map fst B)) && negb (mem_str x (used_e eb))) eqn:Hcnd;
-    [|discriminate].
-  rewrite !andb_true_iff in Hcnd. destruct Hcnd as [[[[Hoa Hob] Hsx] HxB] HxU].
-  apply negb_true_iff in HxB. apply negb_true_iff in HxU.
-  destruct (kblock SF true ((x, KD) :: B) CD body) as [[B1 rb]|] eqn:Eb; [|discriminate]. inversion Hk; subst B' rets.
-  pose proof (src_nameb_ok x Hsx) as Hx.
-  assert (HxnB : ~ In x (map fst B)) by (intros Hin; apply In_mem_str in Hin; congruence).
-  assert (HxnU : ~ In x (used_e eb)) by (intros Hin; apply In_mem_str in Hin; congruence).
-  assert (HxBn : assoc x B = None).
-  { destruct (assoc x B) as [k|] eqn:E; [|reflexivity]. exfalso. apply HxnB. eapply assoc_in_keys; exact E. }
+  destruct (kstmt_SFrom_parts SF il B CD ea eb incl step nm collide body _ Hk) as (Ea & Ebk & _).
   destruct fuel as [|fuel]; [exact Logic.I|]. rewrite exec_SFrom.
-  rewrite sc_SFrom in *. destruct (bc path c0 (S lr) (Some 1) k0 body) as [cbody fb] eqn:Ebc. cbn [fst snd] in *. cbv zeta in *.
-  set (endr := lregn (S lr)) in *.
-  set (la := length (pcode c0 ea)) in *. set (lb := length (pcode c0 eb)) in *. set (lbd := length cbody) in *.
+  rewrite sc_SFrom in *. cbv zeta in *.
+  set (idn := from_idn lr nm) in *. set (lr1 := from_lr1 lr nm) in *. set (endr := lregn (S lr1)) in *.
+  assert (Hlr1 : lr <= lr1) by (unfold lr1; destruct nm; cbn [from_lr1]; lia).
+  destruct (ec path c0 lr1 k0 ea) as [ca fa] eqn:Eca.
+  destruct (ec path c0 lr1 (k0 + length fa) eb) as [cb_ fb] eqn:Ecb.
+  destruct (bc path c0 (S lr1) (Some 1) (k0 + length fa + length fb) body) as [cbody fbd] eqn:Ebc.
+  destruct (stepc path c0 (S lr1) (k0 + length fa + length fb + length fbd) step) as [cs fs] eqn:Esc.
+  cbn [fst snd] in *.
+  apply (installed_app prog) in Hinst as [Hina Hinst]. apply (installed_app prog) in Hinst as [Hinb Hinst]. apply (installed_app prog) in Hinst as [Hinbd Hins].
+  set (la := length ca) in *. set (lb := length cb_) in *. set (lbd := length cbody) in *. set (ls := length cs) in *.
+  set (nd := if collide then 0 else 1).
   match type of Hend with kp + length ?L < _ =>
-    assert (Hlen : length L = la + 1 + lb + 1 + 3 + 1 + (lbd + 2 + 1) + 1)
-      by (rewrite !app_length, resolve_length, !app_length, !map_length; cbn [length]; fold la lb lbd; lia)
+    assert (Hlen : length L = la + 1 + lb + 1 + 3 + 1 + (lbd + (ls + 1) + 1) + nd)
+      by (rewrite !app_length, resolve_length, !app_length, !map_length; unfold nd; destruct collide; cbn [length]; fold la lb lbd ls; lia)
   end.
   rewrite Hlen in *. clear Hlen.
   apply items_at_app in Hc as [Hca Hc]. apply items_at_CI in Hca. rewrite map_length in Hc. fold la in Hc.
@@ -2338,43 +2822,328 @@ Proof.
   apply items_at_cons in Hc as [Hw Hc]. cbn [item_instr I] in Hw. apply items_at_app in Hc as [Hfull Hdel].
   rewrite resolve_length in Hdel. apply items_at_resolve_gen in Hfull.
   apply items_at_app in Hfull as [Hfull0 Hj]. apply items_at_app in Hfull0 as [Hib Hstp]. fold lbd in Hstp.
-  apply items_at_cons in Hstp as [Hs1 Hstp]. apply items_at_cons in Hstp as [Hs2 _]. cbn [item_instr I] in Hs1, Hs2.
-  apply items_at_cons in Hj as [Hj _]. apply items_at_cons in Hdel as [Hdel _]. cbn [item_instr I] in Hj, Hdel.
-  rewrite ?app_length in Hw. rewrite ?app_length in Hj. rewrite ?app_length in Hdel. rewrite ?app_length in Hib. cbn [length] in Hw, Hj, Hdel, Hib. fold lbd in Hw, Hj, Hdel, Hib.
+  apply items_at_app in Hstp as [Hcs Hstp]. apply items_at_CI in Hcs. rewrite map_length in Hstp. fold ls in Hstp.
+  apply items_at_cons in Hstp as [Hst _]. cbn [item_instr I] in Hst.
+  apply items_at_cons in Hj as [Hj _]. cbn [item_instr I] in Hj.
+  rewrite ?app_length, ?map_length in Hw. rewrite ?app_length, ?map_length in Hj. rewrite ?app_length, ?map_length in Hdel. rewrite ?app_length, ?map_length in Hib.
+  rewrite ?app_length, ?map_length in Hcs. rewrite ?app_length, ?map_length in Hst.
+  cbn [length] in Hw, Hj, Hdel, Hib, Hcs, Hst. fold lbd ls in Hw, Hj, Hdel, Hib, Hcs, Hst.
   set (k1 := kp + la) in *. set (k3 := S k1 + lb) in *. set (kc := S k3) in *.
-  set (kw := S (S (S kc))). set (kb := S kw). set (ks := kb + lbd). set (kpp := S ks). set (kj := S kpp). set (kd := S kj). set (fin := S kd).
-  assert (Hw' : nth_error code kw = Some (mkI OP_WHILE_LOOP [sN (lbd + 4)])).
-  { replace (lbd + 4) with (lbd + 2 + 1 + 1) by lia. atp Hw. }
+  set (kw := S (S (S kc))). set (kb := S kw). set (ks := kb + lbd). set (kst := ks + ls). set (kj := S kst). set (kd := S kj). set (fin := kd + nd).
+  assert (Hfin : kp + (la + 1 + lb + 1 + 3 + 1 + (lbd + (ls + 1) + 1) + nd) = fin) by (unfold fin, kd, kj, kst, ks, kb, kw, kc, k3, k1; lia).
+  rewrite Hfin in *.
+  assert (Hw' : nth_error code kw = Some (mkI OP_WHILE_LOOP [sN (lbd + ls + 3)])).
+  { replace (lbd + ls + 3) with (lbd + (ls + 1) + 1 + 1) by lia. atp Hw. }
   assert (Hib' : items_at code kd ks kb cbody).
-  { replace kd with (kb + (lbd + 2 + 1)) by (unfold kd, kj, kpp, ks; lia). replace ks with (kb + (lbd + 2 + 1) - 2 - 1) by (unfold ks; lia). atpi Hib. }
-  assert (Hs1' : nth_error code ks = Some (mkI OP_MAKE_INT [s_one])) by (atp Hs1).
-  assert (Hs2' : nth_error code kpp = Some (mkI OP_BIN_OP_ASSIGN [[43%N; 61%N]; x])) by (atp Hs2).
-  assert (Hj' : nth_error code kj = Some (mkI OP_JMP_POP [neg_off (lbd + 6)])).
-  { replace (lbd + 6) with (1 + 3 + (lbd + 2)) by lia. atp Hj. }
-  assert (Hdel' : nth_error code kd = Some (mkI OP_DELETE_NAME_SCOPED [x; endr])) by (atp Hdel).
+  { apply (items_at_eq _ _ _ _ _ _ _ Hib); unfold kd, kj, kst, ks, kb, kw, kc; lia. }
+  assert (Hcs' : code_at code ks cs) by (atp Hcs).
+  assert (Hst' : nth_error code kst = Some (mkI OP_BIN_OP_ASSIGN [[43%N; 61%N]; idn])) by (atp Hst).
+  assert (Hj' : nth_error code kj = Some (mkI OP_JMP_POP [neg_off (lbd + ls + 5)])).
+  { replace (lbd + ls + 5) with (1 + 3 + (lbd + (ls + 1))) by lia. atp Hj. }
   assert (Hc2' : nth_error code (S kc) = Some (mkI OP_LOAD_FAST [endr])) by (atp Hc2).
   assert (Hc3' : nth_error code (S (S kc)) = Some (mkI OP_BIN_OP [if incl then op_le else op_lt])) by (atp Hc3).
-  clear Hw Hib Hs1 Hs2 Hj Hdel Hc2 Hc3.
-  assert (Hfin : kp + (la + 1 + lb + 1 + 3 + 1 + (lbd + 2 + 1) + 1) = fin) by (unfold fin, kd, kj, kpp, ks, kb, kw, kc, k3, k1; lia).
-  rewrite Hfin in *.
-  assert (Hxe : x <> endr) by (intros E; apply (lregn_not_uname0 (S lr)); fold endr; rewrite <- E; exact Hx).
+  assert (Hsml : forall j, j <= S (S lr1) -> small j).
+  { intros j Hjs. unfold lrok in Hlrk. eapply small_le; [|exact Hlrk]. unfold lr1 in Hjs. destruct nm; cbn [from_lr1] in Hjs; lia. }
+  assert (Hie : idn <> endr).
+  { unfold idn, endr, lr1. destruct nm as [x0|]; cbn [from_idn from_lr1].
+    - rewrite kstmt_SFrom in Hk. intros E. destruct collide;
+        match type of Hk with (if ?c then _ else _) = _ => destruct c eqn:Hc0; [|discriminate] end;
+        rewrite !andb_true_iff in Hc0; destruct Hc0 as [[[[_ Hsx0] _] _] _];
+        apply (lregn_not_uname0 (S lr)); rewrite <- E; exact (src_nameb_ok _ Hsx0).
+    - intros E. apply lregn_inj in E; [lia|apply Hsml; unfold lr1; cbn; lia|apply Hsml; unfold lr1; cbn; lia]. }
+  assert (Hlkj : forall j, j <= lr -> lregn j <> endr /\ (nm = None -> lregn j <> idn)).
+  { intros j Hjs. split.
+    - intros E. apply lregn_inj in E; [lia|apply Hsml; lia|apply Hsml; lia].
+    - intros ->. unfold idn. cbn [from_idn]. intros E. apply lregn_inj in E; [lia|apply Hsml; unfold lr1; cbn; lia|apply Hsml; unfold lr1; cbn; lia]. }
   (* the lower bound *)
-  pose proof (ec_pure path ea (ok_dexpr_pure _ _ _ Hoa) c0 lr k0) as Eca.
-  pose proof (espec_data ea b B c0 lr k0 fuel kp a g env s Hoa Hb) as He. rewrite Eca in He. cbn [fst] in He. fold la in He.
-  specialize (He ltac:(unfold fin, kd, kj, kpp, ks, kb, kw, kc, k3, k1 in *; lia) Hca ltac:(unfold fin, kd, kj, kpp, ks, kb, kw, kc, k3, k1 in *; lia) Hip Hcb Hops HC).
+  pose proof (espec_all ea b B c0 lr1 k0 fuel kp a g env s KD ltac:(lia) Ea Hb) as He. rewrite Eca in He. cbn [fst snd] in He. fold la in He.
+  specialize (He Hina ltac:(unfold fin, kd, kj, kst, ks, kb, kw, kc, k3, k1 in *; lia) Hca ltac:(unfold fin, kd, kj, kst, ks, kb, kw, kc, k3, k1 in *; lia) Hip Hcb Hops HC).
   fold k1 in He.
   destruct (eval fuel env ea s) as [va s1|s1|f s1|]; cbn [eres_ok spost] in He |- *; [|exact Logic.I|exact He|exact Logic.I].
   apply eres_val_inv in He. destruct He as (a1 & g1 & b1 & wa & M1 & Hip1 & Hops1 & HC1 & [Hfoa ->]).
   pose proof (smid_of_mid _ _ _ _ _ _ _ _ _ M1) as SM1.
+  pose proof (lk_mid lr _ _ _ _ _ _ _ _ _ M1) as LK1.
   assert (Hcb1 : a_cb a1 = cb) by (unfold smid in SM1; destruct SM1 as (_ & _ & _ & (_ & _ & A) & _); congruence).
   assert (Hss1 : a_ss a1 = a_ss a) by (unfold mid, rest in M1; destruct M1 as (_ & _ & _ & _ & S1 & _); exact S1).
+  pose proof (Cl_ne _ _ _ _ _ _ _ _ _ _ _ _ HC) as Hne.
+  destruct (locals env) as [|sc0 l'] eqn:El; [congruence|].
+  rewrite kstmt_SFrom in Hk.
+  destruct nm as [x|]; destruct collide; try discriminate.
+  3:{ (* ---------------- a hidden counter: L#(lr+1) on the VM, the name `hid` in the reference semantics *)
+    match type of Hk with (if ?c then _ else _) = _ => destruct c eqn:Hcnd; [|discriminate] end.
+    rewrite !andb_true_iff in Hcnd. destruct Hcnd as [_ Hks].
+    destruct (kblock SF true B CD body) as [[B1 rb]|] eqn:Eb; [|discriminate]. inversion Hk; subst B' rets.
+    destruct (stepc_inv _ _ _ _ _ B body Esc Hks) as [-> Est].
+    cbn [nd] in *. unfold nd in *. apply items_at_cons in Hdel as [Hdel _]. cbn [item_instr I] in Hdel.
+    (* store_fast L#(lr+1): the counter, a cell of the VM *)
+    destruct (store_fast_reg b1 B env s1 a1 g1 k1 idn (inj va) Hi1 Hip1 Hops1 HC1 (lregn_not_uname0 _)) as (f1 & R & g2 & Ef1 & R2 & HC2 & Ef2 & Ec2 & Eo2 & Hn2).
+    set (c'x := N.of_nat (length (cells g1))) in *. set (a2 := upd a1 (S k1) []) in *.
+    assert (SM2 : smid b1 s1 a1 g1 b1 s1 a2 g2) by (eapply smid_bind; [exact R2|exact Ef1|exact Ef2|exact Ec2|repeat split|reflexivity]).
+    (* the upper bound, with the register bound *)
+    pose proof (espec_all eb b1 B c0 lr1 (k0 + length fa) fuel (S k1) a2 g2 env s1 KD ltac:(lia) Ebk Hb) as Heb. rewrite Ecb in Heb. cbn [fst snd] in Heb. fold lb in Heb.
+    specialize (Heb Hinb ltac:(unfold fin, kd, kj, kst, ks, kb, kw, kc, k3 in *; lia) Hcb2 ltac:(unfold fin, kd, kj, kst, ks, kb, kw, kc, k3 in *; lia)
+                    eq_refl ltac:(cbn [a2 upd set_ip set_ops a_cb]; exact Hcb1) eq_refl HC2).
+    fold k3 in Heb.
+    destruct (eval fuel env eb s1) as [vb s2|s2|f s2|]; cbn [eres_ok spost] in Heb |- *; [|exact Logic.I| |exact Logic.I].
+    2:{ eapply fail_post_map; [|exact Heb]. intros (e0 & g' & Hf & Hr). exists e0, g'.
+        split; [eapply smid_fail; [exact SM1|]; eapply smid_fail; [exact SM2|exact Hf]|exact Hr]. }
+    apply eres_val_inv in Heb. destruct Heb as (a3 & g3 & b2 & wb & M3 & Hip3 & Hops3 & HC3 & [Hfob ->]).
+    destruct va as [i0|?|?| |? ? ?]; try exact Logic.I.
+    destruct vb as [hi|?|?| |? ? ?]; try exact Logic.I. cbn [inj] in *.
+    pose proof (smid_of_mid _ _ _ _ _ _ _ _ _ M3) as SM3. pose proof (lk_mid lr _ _ _ _ _ _ _ _ _ M3) as LK3.
+    unfold mid, rest in M3. destruct M3 as (R3 & E3 & T3 & A3 & S3 & K3 & F3 & L3).
+    assert (Hcx2 : cell_get g2 c'x = Some (VInt i0)).
+    { unfold cell_get, c'x. rewrite Ec2, Nnat.Nat2N.id, nth_error_app2, Nat.sub_diag by lia. reflexivity. }
+    assert (Hcx3 : cell_get g3 c'x = Some (VInt i0)) by exact (K3 _ _ Hcx2 Hn2).
+    assert (Hn3 : forall c k, ~ b2 c c'x k).
+    { intros c k Hbc. destruct (proj2 E3 c c'x k Hbc) as [H0|[_ H2]]; [exact (Hn2 c k H0)|]. rewrite Ec2, app_length in H2. unfold c'x in H2. rewrite Nnat.Nat2N.id in H2. cbn [length] in H2. lia. }
+    assert (Hnr : ~ own_reg c0 idn) by (intros (k & _ & _ & E); exact (lregn_not_reg _ _ E)).
+    destruct (frames g3) as [|f3 R3'] eqn:Ef3; [exact (False_ind _ (proj2 (Rfr2_ne _ _ _ (cl_fr _ _ _ _ _ _ _ _ _ _ _ _ HC3)) Ef3))|].
+    assert (ER : R3' = R) by (rewrite Ef2 in T3; exact T3). subst R3'.
+    assert (Hax3 : assoc idn (vars f3) = Some c'x).
+    { pose proof (proj2 (F3 idn Hnr)) as H. rewrite Ef3, Ef2 in H. cbn [top_vars vars] in H. rewrite H. apply assoc_set_same. }
+    (* store_fast L#(lr+2): the end of the range *)
+    destruct (store_fast_reg b2 B env s2 a3 g3 k3 endr (VInt hi) Hi3 Hip3 Hops3 HC3 (lregn_not_uname0 _)) as (f3' & R' & g4 & Ef3' & R4 & HC4 & Ef4 & Ec4 & Eo4 & Hn4).
+    rewrite Ef3 in Ef3'. inversion Ef3'; subst f3' R'. clear Ef3'.
+    set (ce := N.of_nat (length (cells g3))) in *. set (a4 := upd a3 (S k3) []) in *.
+    set (F2 := {| lab := lab f3; vars := assoc_set endr ce (vars f3) |}) in *.
+    assert (SM4 : smid b2 s2 a3 g3 b2 s2 a4 g4) by (eapply smid_bind; [exact R4|exact Ef3|exact Ef4|exact Ec4|repeat split|reflexivity]).
+    assert (HaxF2 : assoc idn (vars F2) = Some c'x) by (unfold F2; cbn [vars]; rewrite assoc_set_other by exact Hie; exact Hax3).
+    assert (HaeF2 : assoc endr (vars F2) = Some ce) by (unfold F2; cbn [vars]; apply assoc_set_same).
+    assert (HndF2 : keys_nd (vars F2)).
+    { pose proof (cl_nd _ _ _ _ _ _ _ _ _ _ _ _ HC4) as Hnd. rewrite Ef4 in Hnd. inversion Hnd; assumption. }
+    assert (Hlt3 : N.to_nat c'x < length (cells g3)) by (apply nth_error_Some; unfold cell_get in Hcx3; congruence).
+    assert (Hcx4 : cell_get g4 c'x = Some (inj (RInt i0))).
+    { unfold cell_get in *. rewrite Ec4, nth_error_app1 by exact Hlt3. exact Hcx3. }
+    assert (Hce4 : cell_get g4 ce = Some (VInt hi)).
+    { unfold cell_get, ce. rewrite Ec4, Nnat.Nat2N.id, nth_error_app2, Nat.sub_diag by lia. reflexivity. }
+    (* the reference semantics declares the hidden counter now: the two cells are paired *)
+    pose proof (Cl_declare_hid path prog cb CD base name SF b2 B env s2 g4 (RInt i0) c'x sc0 l' HC4 El Logic.I Hcx4 Hn3) as HC5. cbv zeta in HC5.
+    set (cx := N.of_nat (length (store s2))) in *. set (b3 := add_pair b2 cx c'x KD) in *.
+    set (lL := assoc_set hid cx sc0 :: l') in *.
+    match type of HC5 with Cl _ _ _ _ _ _ _ _ _ ?E ?S _ => set (envH := E) in *; set (sH := S) in * end.
+    assert (Edec : declare env s2 hid (RInt i0) = (envH, sH)) by (unfold declare, alloc; rewrite El; reflexivity).
+    change [0%N] with hid. rewrite Edec.
+    set (lE := assoc_del hid (assoc_set hid cx sc0) :: l').
+    assert (SM04 : smid b s a g b2 s2 a4 g4).
+    { eapply smid_trans; [exact SM1|]. eapply smid_trans; [exact SM2|]. eapply smid_trans; [exact SM3|exact SM4]. }
+    assert (SMH : smid b s a g b3 sH a4 g4).
+    { unfold smid in SM04 |- *. destruct SM04 as (R0 & [Ele Efr] & T0 & A0 & S0 & K0 & [L0a L0b]).
+      split; [exact R0|]. split.
+      { split; [intros c c' k Hbc; left; exact (Ele _ _ _ Hbc)|].
+        intros c c' k [Hbc|(-> & -> & ->)]; [exact (Efr _ _ _ Hbc)|right]. unfold cx, c'x. rewrite !Nnat.Nat2N.id. split; [exact L0a|].
+        unfold smid in SM1. destruct SM1 as (_ & _ & _ & _ & _ & _ & [_ X]). exact X. }
+      split; [exact T0|]. split; [exact A0|]. split; [exact S0|]. split; [exact K0|].
+      split; [cbn [sH store]; rewrite app_length; lia|exact L0b]. }
+    assert (LKH : lkeep lr (frames g) (frames g4)).
+    { apply (lkeep_trans lr (frames g) (frames g1) (frames g4)); [exact LK1|].
+      apply (lkeep_trans lr (frames g1) (frames g2) (frames g4)).
+      { rewrite Ef1, Ef2. apply lk_bind2. intros j Hjj E. exact (proj2 (Hlkj j Hjj) eq_refl (eq_sym E)). }
+      apply (lkeep_trans lr (frames g2) (f3 :: R) (frames g4)); [exact LK3|].
+      rewrite Ef4. apply lk_bind2. intros j Hjj E. exact (proj1 (Hlkj j Hjj) (eq_sym E)). }
+    assert (Hlook_any : forall sc y, y <> hid -> assoc y (assoc_set hid cx sc) = assoc y sc) by (intros sc y Hy; now rewrite assoc_set_other by exact Hy).
+    apply (spost_seq b B rb lr sl bt ct fin env s a g b3 envH sH a4 g4 _ SMH LKH); [split; [cbn [envH locals tl]; rewrite El; reflexivity|cbn [envH locals]; discriminate]|].
+    eapply (from_loop body Hbody incl step hid idn endr false lr lr1 sl bt ct B B B1 rb kc lbd ls (k0 + length fa + length fb) fin cbody fbd cs fuel
+              ltac:(lia) hi cx c'x ce F2 R lL lE (fun e => undeclare e hid)).
+    - exact Eb.
+    - exact Est.
+    - exact Ebc.
+    - exact Hinbd.
+    - exact Hlr1.
+    - reflexivity.
+    - reflexivity.
+    - exact Hc1.
+    - exact Hc2'.
+    - exact Hc3'.
+    - exact Hw'.
+    - exact Hib'.
+    - exact Hcs'.
+    - exact Hst'.
+    - exact Hj'.
+    - eapply lrok_mono; [exact Hlrk|]. unfold lr1; cbn [from_lr1]. unfold fin, kd, kj, kst, ks, kb, kw, kc, k3, k1 in *. lia.
+    - unfold fin. lia.
+    - exact Hend.
+    - cbn [lL lookup_scopes]. now rewrite assoc_set_same.
+    - cbn [find_in_function]. now rewrite HaxF2.
+    - exact HaeF2.
+    - discriminate.
+    - split; [discriminate|reflexivity].
+    - intros envX EX. apply (bound2_same B env envX Hb). intros y Hy. rewrite EX, El. cbn [lL lookup_scopes]. now rewrite assoc_set_other by exact Hy.
+    - intros envX EX. apply (bound2_same B env envX Hb). intros y Hy. rewrite EX, El. cbn [lE lookup_scopes].
+      rewrite assoc_del_other by exact Hy. now rewrite assoc_set_other by exact Hy.
+    - intros bB env2 s2' g2' _ _ _ _ LK _. change idn with (lregn (S lr)). rewrite (LK (S lr) ltac:(unfold lr1; cbn [from_lr1]; lia)).
+      cbn [find_in_function assoc vars lab special]. change (lregn (S lr)) with idn. now rewrite HaxF2.
+    - reflexivity.
+    - intros envX EX. unfold undeclare. rewrite EX. reflexivity.
+    - intros k E. exact (lregn_not_reg _ _ E).
+    - (* leaving the loop: the two registers and the hidden name go *)
+      intros a5 g5 env5 s5 b5 El5 HC5' Ef5 Hip5 Hops5. change (a_ip a5 = kd) in Hip5.
+      set (vs := assoc_del endr (assoc_del idn (vars F2))).
+      set (i_d := mkI OP_DELETE_NAME_SCOPED [idn; endr]) in *.
+      set (g5t := trc name a5 g5 i_d).
+      exists (set_ip a5 (S kd)), (with_frames g5t ({| lab := lab F2; vars := vs |} :: R)).
+      assert (Hvs : forall y, y <> idn -> y <> endr -> assoc y vs = assoc y (vars F2)) by (intros y H1 H2; unfold vs; now rewrite !assoc_del_other by assumption).
+      split.
+      { rewrite <- Hip5. eapply (xstep_next prog name code a5 g5 i_d _ (a_ip a5) a5); [reflexivity|rewrite Hip5; atp Hdel|apply dec_delete2|].
+        exact (exec_delete2 idn endr a5 g5t F2 R c'x ce Ef5 Hie HaxF2 HaeF2). }
+      split; [cbn [set_ip a_ip]; unfold fin; lia|]. split; [exact Hops5|]. split; [repeat split|]. split; [reflexivity|]. split; [reflexivity|].
+      split; [reflexivity|]. split.
+      { intros j Hjj. cbn [with_frames frames find_in_function vars lab]. rewrite Hvs; [reflexivity| |exact (proj1 (Hlkj j Hjj))].
+        exact (proj2 (Hlkj j Hjj) eq_refl). }
+      split.
+      { apply (Cl_undeclare_hid path prog cb CD base name SF b5 B env5 s5 g5t (assoc_set hid cx sc0) l' F2 R vs (Cl_trc _ _ _ _ _ _ _ _ HC5') El5 Ef5).
+        - intros y Hy. apply Hvs; intros ->; [exact (lregn_not_uname0 _ Hy)|exact (lregn_not_uname0 _ Hy)].
+        - unfold vs. apply keys_nd_assoc_del. apply keys_nd_assoc_del. exact HndF2. }
+      unfold undeclare. rewrite El5. reflexivity.
+    - reflexivity.
+    - exact HC5.
+    - exact Ef4.
+    - reflexivity.
+    - cbn [a4 upd set_ip set_ops a_cb]. destruct A3 as (_ & _ & X3). cbn [a2 upd set_ip set_ops a_cb] in X3. congruence.
+    - cbn [a4 upd set_ip set_ops a_ss lL length]. rewrite S3. cbn [a2 upd set_ip set_ops a_ss]. rewrite Hss1. cbn [length] in Hss. exact Hss.
+    - right. auto.
+    - exact Hce4.
+    - intros c k [Hbc|(_ & E & _)]; [exact (Hn4 c k Hbc)|]. unfold ce in E. apply (f_equal N.to_nat) in E. rewrite Nnat.Nat2N.id in E. lia. }
+  1:{ (* ---------------- the counter is an existing local variable: assigned, kept after the loop *)
+    match type of Hk with (if ?c then _ else _) = _ => destruct c eqn:Hcnd; [|discriminate] end.
+    rewrite !andb_true_iff in Hcnd. destruct Hcnd as [[[[[_ Hob] Hsx] HxB] HxU] Hks].
+    apply is_KD_eq in HxB. destruct (used_e eb) as [|y0 t0] eqn:EU; [|discriminate]. clear HxU.
+    destruct (kblock SF true B CD body) as [[B1 rb]|] eqn:Eb; [|discriminate]. inversion Hk; subst B' rets.
+    destruct (stepc_inv _ _ _ _ _ B body Esc Hks) as [-> Est].
+    pose proof (src_nameb_ok x Hsx) as Hx.
+    rewrite (ec_pure path eb (ok_dexpr_pure _ _ _ Hob)) in Ecb. inversion Ecb; subst cb_ fb. clear Ecb.
+    unfold nd in *.
+    (* store x : the existing cell is written *)
+    set (i_sx := mkI OP_STORE [x]) in *.
+    set (g1t := trc name a1 g1 i_sx).
+    pose proof (Cl_trc b1 B env s1 g1 name a1 i_sx HC1) as HC1t. fold g1t in HC1t.
+    destruct (cl_B _ _ _ _ _ _ _ _ _ _ _ _ HC1t x KD HxB) as (_ & cx & c'x & A1 & A2 & A3).
+    assert (Hst0 : store_var g1t x (inj va) = Some (cell_set g1t c'x (inj va))) by (unfold store_var; now rewrite A2).
+    set (a2 := set_ip (set_ops a1 []) (S (a_ip a1))).
+    set (g2 := cell_set g1t c'x (inj va)).
+    set (s1' := sset s1 cx va).
+    assert (R2 : xrun prog name code a1 g1 a2 g2).
+    { eapply (xstep_next prog name code a1 g1 i_sx _ (a_ip a1) (set_ops a1 [])); [reflexivity|rewrite Hip1; exact Hi1|apply dec_store|].
+      apply (exec_store x a1 g1t (inj va) g2); [exact Hops1|exact Hst0]. }
+    assert (HC2 : ClA b1 B env s1' g2) by (apply (Cl_update path prog cb CD base name SF b1 B env s1 g1t cx c'x KD va (inj va) HC1t A3); split; [exact Hfoa|reflexivity]).
+    assert (SM2 : smid b1 s1 a1 g1 b1 s1' a2 g2).
+    { unfold smid. split; [exact R2|]. split; [apply bext_refl|]. split; [reflexivity|]. split; [repeat split|]. split; [reflexivity|].
+      split; [change (keep b1 g1t (cell_set g1t c'x (inj va))); eapply keep_cell_set; exact A3|].
+      split; [cbn [s1' sset store]; rewrite set_nth_length; lia|cbn [g2 cell_set cells g1t trc add_trace]; rewrite set_nth_length; lia]. }
+    (* the upper bound mentions no variable: the reference semantics evaluates it before the assignment; same result *)
+    destruct (ok_dexpr_parts B eb Hob) as (Hpb & Hlb & Hub).
+    assert (Hagb : forall y, In y (used_e eb) -> agree env s1 env s1' y) by (rewrite EU; intros y []).
+    destruct (eval_pure_congr eb Hpb fuel env s1 env s1' Hagb) as [Hst_b Eb1].
+    pose proof (dexpr_run b1 B eb c0 fuel (S k1) a2 g2 env s1' Hob Hb ltac:(lia) Hcb2
+                  ltac:(fold lb; unfold fin, kd, kj, kst, ks, kb, kw, kc, k3 in *; lia) ltac:(cbn [a2 set_ip a_ip]; now rewrite Hip1) eq_refl
+                  ltac:(cbn [a2 set_ip set_ops a_cb]; exact Hcb1) HC2) as Heb.
+    rewrite Eb1 in Heb. fold lb in Heb. fold k3 in Heb.
+    destruct (eval fuel env eb s1) as [vb sb|sb|f sb|]; cbn [res_to res_st] in Hst_b, Heb; [|contradiction| |exact Logic.I].
+    2:{ subst sb. destruct Heb as (_ & e0 & g' & Hf & Hr & Ho). cbn [spost]. apply fail_post_intro. exists e0, g'.
+        split; [eapply smid_fail; [exact SM1|]; eapply smid_fail; [exact SM2|exact Hf]|]. split; [now apply err_rel_s_of|].
+        rewrite Ho. reflexivity. }
+    subst sb. destruct Heb as (_ & Hfob & g3 & R3 & HC3 & He3).
+    destruct va as [i0|?|?| |? ? ?]; try exact Logic.I.
+    destruct vb as [hi|?|?| |? ? ?]; try exact Logic.I. cbn [inj] in *.
+    cbv zeta.
+    assert (Eas : assign env s1 x (RInt i0) = (env, s1')).
+    { unfold assign. rewrite El in A1. rewrite El, A1. reflexivity. }
+    rewrite Eas.
+    set (a3 := upd a2 (S k1 + lb) [VInt hi]) in *.
+    assert (SM3 : smid b1 s1' a2 g2 b1 s1' a3 g3).
+    { unfold smid. split; [exact R3|]. split; [apply bext_refl|]. split; [exact (ext_tail _ _ _ _ _ He3)|]. split; [repeat split|]. split; [reflexivity|].
+      destruct (ext_cells _ _ _ _ _ He3) as [extra Ec]. split; [eapply keep_cells_app; exact Ec|]. split; [lia|rewrite Ec, app_length; lia]. }
+    assert (LK3 : lkeep lr (frames g2) (frames g3)).
+    { intros j _. apply (ext_find _ _ _ _ _ He3). intros (k & _ & _ & E). exact (lregn_not_reg _ _ E). }
+    (* store_fast L#(lr+1): the end of the range *)
+    destruct (store_fast_reg b1 B env s1' a3 g3 k3 endr (VInt hi) Hi3 eq_refl eq_refl HC3 (lregn_not_uname0 _)) as (f3 & R & g4 & Ef3 & R4 & HC4 & Ef4 & Ec4 & Eo4 & Hn4).
+    set (ce := N.of_nat (length (cells g3))) in *. set (a4 := upd a3 (S k3) []) in *.
+    set (F2 := {| lab := lab f3; vars := assoc_set endr ce (vars f3) |}) in *.
+    assert (SM4 : smid b1 s1' a3 g3 b1 s1' a4 g4) by (eapply smid_bind; [exact R4|exact Ef3|exact Ef4|exact Ec4|repeat split|reflexivity]).
+    assert (HaeF2 : assoc endr (vars F2) = Some ce) by (unfold F2; cbn [vars]; apply assoc_set_same).
+    assert (Hce4 : cell_get g4 ce = Some (VInt hi)).
+    { unfold cell_get, ce. rewrite Ec4, Nnat.Nat2N.id, nth_error_app2, Nat.sub_diag by lia. reflexivity. }
+    assert (Hfx4 : find_in_function x (F2 :: R) = Some c'x).
+    { destruct (cl_B _ _ _ _ _ _ _ _ _ _ _ _ HC4 x KD HxB) as (_ & c2 & c2' & Y1 & Y2 & Y3). rewrite Ef4 in Y2. rewrite A1 in Y1. inversion Y1; subst c2.
+      destruct (proj2 (cl_heap _ _ _ _ _ _ _ _ _ _ _ _ HC4) _ _ _ _ _ _ Y3 A3) as [Hiff _]. assert (c2' = c'x) by (apply Hiff; reflexivity). congruence. }
+    set (lL := sc0 :: l') in *.
+    assert (A1L : lookup_scopes x lL = Some cx) by (rewrite <- El; exact A1).
+    assert (SMH : smid b s a g b1 s1' a4 g4).
+    { eapply smid_trans; [exact SM1|]. eapply smid_trans; [exact SM2|]. eapply smid_trans; [exact SM3|exact SM4]. }
+    assert (LKH : lkeep lr (frames g) (frames g4)).
+    { apply (lkeep_trans lr (frames g) (frames g1) (frames g4)); [exact LK1|].
+      apply (lkeep_trans lr (frames g1) (frames g3) (frames g4)); [exact LK3|].
+      rewrite Ef3, Ef4. apply lk_bind2. intros j Hjj E. exact (proj1 (Hlkj j Hjj) (eq_sym E)). }
+    apply (spost_seq b B rb lr sl bt ct fin env s a g b1 env s1' a4 g4 _ SMH LKH); [apply same_tl_refl; rewrite El; discriminate|].
+    eapply (from_loop body Hbody incl step x x endr true lr lr sl bt ct B B B1 rb kc lbd ls (k0 + length fa + 0) fin cbody fbd cs fuel
+              ltac:(lia) hi cx c'x ce F2 R lL lL (fun e => e)).
+    - exact Eb.
+    - exact Est.
+    - exact Ebc.
+    - exact Hinbd.
+    - lia.
+    - reflexivity.
+    - reflexivity.
+    - exact Hc1.
+    - exact Hc2'.
+    - exact Hc3'.
+    - exact Hw'.
+    - exact Hib'.
+    - exact Hcs'.
+    - exact Hst'.
+    - exact Hj'.
+    - eapply lrok_mono; [exact Hlrk|]. unfold fin, kd, kj, kst, ks, kb, kw, kc, k3, k1 in *. lia.
+    - unfold fin. lia.
+    - exact Hend.
+    - exact A1L.
+    - exact Hfx4.
+    - exact HaeF2.
+    - discriminate.
+    - split; [discriminate|reflexivity].
+    - intros envX EX. eapply bound2_eq; [exact Hb|]. rewrite EX, El. reflexivity.
+    - intros envX EX. eapply bound2_eq; [exact Hb|]. rewrite EX, El. reflexivity.
+    - intros bB env2 s2' g2' HCB Htl2 Hne2 _ _ HbxB.
+      destruct (cl_B _ _ _ _ _ _ _ _ _ _ _ _ HCB x KD HxB) as (_ & c2 & c2' & Y1 & Y2 & Y3).
+      assert (Hlx2 : lookup_scopes x (locals env2) = Some cx).
+      { destruct (locals env2) as [|sc2 l2] eqn:E2l; [congruence|]. cbn [tl] in Htl2. subst l2.
+        apply NS_lookup_tl; [rewrite <- E2l; exact (cl_ns _ _ _ _ _ _ _ _ _ _ _ _ HCB)|exact (proj2 (proj2 Hx))|exact A1L]. }
+      rewrite Hlx2 in Y1. inversion Y1; subst c2.
+      destruct (proj2 (cl_heap _ _ _ _ _ _ _ _ _ _ _ _ HCB) _ _ _ _ _ _ Y3 HbxB) as [Hiff _]. assert (c2' = c'x) by (apply Hiff; reflexivity). congruence.
+    - reflexivity.
+    - intros envX EX. exact EX.
+    - intros k E. exact (src_name_not_reg x k (proj1 Hx) E).
+    - (* leaving the loop: nothing to delete *)
+      intros a5 g5 env5 s5 b5 El5 HC5' Ef5 Hip5 Hops5. change (a_ip a5 = kd) in Hip5.
+      exists a5, g5. split; [apply xrun_refl|]. split; [rewrite Hip5; unfold fin; lia|]. split; [exact Hops5|]. split; [repeat split|]. split; [reflexivity|].
+      split; [reflexivity|]. split; [now rewrite Ef5|]. split; [rewrite Ef5; apply lkeep_refl|]. split; [exact HC5'|exact El5].
+    - exact El.
+    - exact HC4.
+    - exact Ef4.
+    - reflexivity.
+    - cbn [a4 a3 a2 upd set_ip set_ops a_cb]. exact Hcb1.
+    - cbn [a4 a3 a2 upd set_ip set_ops a_ss lL length]. rewrite Hss1. cbn [length] in Hss. exact Hss.
+    - exact A3.
+    - exact Hce4.
+    - exact Hn4. }
+  (* ---------------- a fresh counter: a variable of the enclosing block for the duration of the loop *)
+  match type of Hk with (if ?c then _ else _) = _ => destruct c eqn:Hcnd; [|discriminate] end.
+  rewrite !andb_true_iff in Hcnd. destruct Hcnd as [[[[[_ Hob] Hsx] HxB] HxU] Hks].
+  apply negb_true_iff in HxB. apply negb_true_iff in HxU.
+  destruct (kblock SF true ((x, KD) :: B) CD body) as [[B1 rb]|] eqn:Eb; [|discriminate]. inversion Hk; subst B' rets.
+  destruct (stepc_inv _ _ _ _ _ ((x, KD) :: B) body Esc Hks) as [-> Est].
+  pose proof (src_nameb_ok x Hsx) as Hx.
+  assert (HxnB : ~ In x (map fst B)) by (intros Hin; apply In_mem_str in Hin; congruence).
+  assert (HxnU : ~ In x (used_e eb)) by (intros Hin; apply In_mem_str in Hin; congruence).
+  assert (HxBn : assoc x B = None).
+  { destruct (assoc x B) as [k|] eqn:E; [|reflexivity]. exfalso. apply HxnB. eapply assoc_in_keys; exact E. }
+  rewrite (ec_pure path eb (ok_dexpr_pure _ _ _ Hob)) in Ecb. inversion Ecb; subst cb_ fb. clear Ecb.
+  unfold nd in *. apply items_at_cons in Hdel as [Hdel _]. cbn [item_instr I] in Hdel.
   (* store_fast x: the counter, on both sides *)
   set (i_sx := mkI OP_STORE_FAST [x]) in *.
   set (g1t := trc name a1 g1 i_sx).
   pose proof (Cl_trc b1 B env s1 g1 name a1 i_sx HC1) as HC1t. fold g1t in HC1t.
-  assert (Hn : lookup_scopes x (locals env) = None).
-  { destruct (lookup_scopes x (locals env)) eqn:E; [|reflexivity]. exfalso. apply HxnB. apply (proj1 Hb). congruence. }
-  destruct (locals env) as [|sc0 l'] eqn:El; [exact (False_ind _ (Cl_ne _ _ _ _ _ _ _ _ _ _ _ _ HC El))|].
+  assert (Hn : lookup_scopes x (sc0 :: l') = None).
+  { destruct (lookup_scopes x (sc0 :: l')) eqn:E; [|reflexivity]. exfalso. apply HxnB. apply (bound2_in _ _ _ Hb (proj2 (proj2 Hx))). rewrite El. congruence. }
   destruct (frames g1t) as [|f1 R] eqn:Ef1; [exact (False_ind _ (proj2 (Rfr2_ne _ _ _ (cl_fr _ _ _ _ _ _ _ _ _ _ _ _ HC1t)) Ef1))|].
   destruct (Cl_declare path prog cb CD base name SF b1 B env s1 g1t x KD va (inj va) sc0 l' f1 R HC1t Hx (conj Hfoa eq_refl) El Ef1
               ltac:(rewrite El; exact Hn) HxBn (trace g1t)) as [HC2 He2]. cbv zeta in HC2, He2.
@@ -2387,13 +3156,7 @@ Proof.
   assert (R2 : xrun prog name code a1 g1 a2 g2).
   { eapply (xstep_next prog name code a1 g1 i_sx _ (a_ip a1) (set_ops a1 [])); [reflexivity|rewrite Hip1; exact Hi1|apply dec_store_fast|].
     apply (exec_store_fast x a1 g1t (inj va) g2); [exact Hops1|]. unfold bind_local. rewrite Ef1. reflexivity. }
-  assert (Hb2 : bound2 B2 env1).
-  { split.
-    - intros y. cbn [env1 locals lookup_scopes B2 map fst In]. destruct (list_eq_dec N.eq_dec y x) as [->|Hne].
-      + rewrite assoc_set_same. split; [intros _; now left|discriminate].
-      + rewrite assoc_set_other by exact Hne. pose proof (proj1 Hb y) as Hy. rewrite El in Hy. cbn [lookup_scopes] in Hy. rewrite Hy.
-        split; [intros H; now right|intros [H|H]; [congruence|exact H]].
-    - intros y [<-|Hy]; [exact Hx|exact (proj2 Hb y Hy)]. }
+  assert (Hb2 : bound2 B2 env1) by (eapply (bound2_declare B env x KD _ sc0 l' env1 Hb El); [reflexivity|exact Hx]).
   (* the upper bound: the reference semantics evaluates it before the counter exists; same result *)
   destruct (ok_dexpr_parts B eb Hob) as (Hpb & Hlb & Hub).
   assert (Hagb : forall y, In y (used_e eb) -> agree env s1 env1 s1' y).
@@ -2404,7 +3167,8 @@ Proof.
     - unfold sget in *. cbn [s1' store]. rewrite nth_error_app1; [exact A3|apply nth_error_Some; congruence]. }
   destruct (eval_pure_congr eb Hpb fuel env s1 env1 s1' Hagb) as [Hst_b Eb1].
   pose proof (dexpr_run b2 B2 eb c0 fuel (S k1) a2 g2 env1 s1' (ok_dexpr_weaken B x eb Hob HxnU) Hb2
-                ltac:(lia) Hcb2 ltac:(fold lb; unfold fin, kd, kj, kpp, ks, kb, kw, kc, k3 in *; lia) Hip2 eq_refl Hcb1 HC2) as Heb.
+                ltac:(lia) Hcb2 ltac:(fold lb; unfold fin, kd, kj, kst, ks, kb, kw, kc, k3 in *; lia) Hip2 eq_refl
+                ltac:(cbn [a2 set_ip set_ops a_cb]; exact Hcb1) HC2) as Heb.
   rewrite Eb1 in Heb. fold lb in Heb. fold k3 in Heb.
   assert (SM2 : smid b s a g b2 s1' a2 g2).
   { eapply smid_trans; [exact SM1|]. unfold smid. split; [exact R2|]. split; [exact He2|].
@@ -2416,276 +3180,117 @@ Proof.
       split; [eapply smid_fail; [exact SM2|exact Hf]|]. split; [now apply err_rel_s_of|exact Ho]. }
   subst sb. destruct Heb as (_ & Hfob & g3 & R3 & HC3 & He3).
   destruct va as [i0|?|?| |? ? ?]; try exact Logic.I.
-  destruct vb as [hi|?|?| |? ? ?]; try exact Logic.I.
+  destruct vb as [hi|?|?| |? ? ?]; try exact Logic.I. cbn [inj] in *.
   cbv zeta.
   assert (Edec : declare env s1 x (RInt i0) = (env1, s1')) by (unfold declare, alloc; rewrite El; reflexivity).
   rewrite Edec.
-  set (a3 := upd a2 (S k1 + lb) [inj (RInt hi)]) in *.
-  (* store_fast L#n : the end of the range *)
-  set (i_se := mkI OP_STORE_FAST [endr]) in *.
-  set (g3t := trc name a3 g3 i_se).
-  pose proof (Cl_trc b2 B2 env1 s1' g3 name a3 i_se HC3) as HC3t. fold g3t in HC3t.
-  destruct (Cl_bind_reg path prog cb CD base name SF b2 B2 env1 s1' g3t endr (inj (RInt hi)) HC3t (lregn_not_uname0 _)) as (f3 & R' & Ef3 & Hb3).
-  cbv zeta in Hb3. destruct Hb3 as [Hbind3 HC4].
-  set (ce := N.of_nat (length (cells g3t))) in *.
-  set (F2 := {| lab := lab f3; vars := assoc_set endr ce (vars f3) |}) in *.
-  match type of HC4 with Cl _ _ _ _ _ _ _ _ _ _ _ ?G => set (g4 := G) in * end.
+  set (a3 := upd a2 (S k1 + lb) [VInt hi]) in *.
+  assert (SM3 : smid b2 s1' a2 g2 b2 s1' a3 g3).
+  { unfold smid. split; [exact R3|]. split; [apply bext_refl|]. split; [exact (ext_tail _ _ _ _ _ He3)|]. split; [repeat split|]. split; [reflexivity|].
+    destruct (ext_cells _ _ _ _ _ He3) as [extra Ec]. split; [eapply keep_cells_app; exact Ec|]. split; [lia|rewrite Ec, app_length; lia]. }
+  assert (LK3 : lkeep lr (frames g2) (frames g3)).
+  { intros j _. apply (ext_find _ _ _ _ _ He3). intros (k & _ & _ & E). exact (lregn_not_reg _ _ E). }
+  (* store_fast L#(lr+1) : the end of the range *)
+  destruct (store_fast_reg b2 B2 env1 s1' a3 g3 k3 endr (VInt hi) Hi3 eq_refl eq_refl HC3 (lregn_not_uname0 _)) as (f3 & R' & g4 & Ef3 & R4 & HC4 & Ef4 & Ec4 & Eo4 & Hn4).
   assert (ER : R' = R).
-  { assert (H : tl (frames g3t) = tl (frames g2)) by exact (ext_tail _ _ _ _ _ He3). rewrite Ef3 in H. exact H. }
+  { assert (H : tl (frames g3) = tl (frames g2)) by exact (ext_tail _ _ _ _ _ He3). rewrite Ef3 in H. exact H. }
   subst R'.
-  set (a4 := upd a (S k3) []).
-  assert (Ea4 : set_ip (set_ops a3 []) (S (a_ip a3)) = upd a1 (S k3) []) by reflexivity.
-  assert (R4 : xrun prog name code a3 g3 (upd a1 (S k3) []) g4).
-  { eapply (xstep_next prog name code a3 g3 i_se _ k3 (set_ops a3 [])); [reflexivity|exact Hi3|apply dec_store_fast|].
-    apply (exec_store_fast endr a3 g3t (inj (RInt hi)) g4); [reflexivity|exact Hbind3]. }
-  (* ---- static facts about the loop-head frames F2 :: R and scopes lL *)
+  set (ce := N.of_nat (length (cells g3))) in *. set (a4 := upd a3 (S k3) []) in *.
+  set (F2 := {| lab := lab f3; vars := assoc_set endr ce (vars f3) |}) in *.
+  assert (SM4 : smid b2 s1' a3 g3 b2 s1' a4 g4) by (eapply smid_bind; [exact R4|exact Ef3|exact Ef4|exact Ec4|repeat split|reflexivity]).
   set (lL := assoc_set x cx sc0 :: l') in *.
   assert (Hax3 : assoc x (vars f3) = Some c'x).
   { pose proof (ext_top _ _ _ _ _ He3 x ltac:(apply own_reg_not_src; exact (proj1 Hx))) as H.
-    change (frames g3) with (frames g3t) in H. rewrite Ef3 in H. cbn [top_vars frames g2 vars] in H. rewrite H. apply assoc_set_same. }
-  assert (HaxF2 : assoc x (vars F2) = Some c'x) by (unfold F2; cbn [vars]; rewrite assoc_set_other by exact Hxe; exact Hax3).
+    rewrite Ef3 in H. cbn [top_vars frames g2 vars] in H. rewrite H. apply assoc_set_same. }
+  assert (HaxF2 : assoc x (vars F2) = Some c'x) by (unfold F2; cbn [vars]; rewrite assoc_set_other by exact Hie; exact Hax3).
   assert (HaeF2 : assoc endr (vars F2) = Some ce) by (unfold F2; cbn [vars]; apply assoc_set_same).
-  assert (Ef4 : frames g4 = F2 :: R) by reflexivity.
   assert (HndF2 : keys_nd (vars F2)).
   { pose proof (cl_nd _ _ _ _ _ _ _ _ _ _ _ _ HC4) as Hnd. rewrite Ef4 in Hnd. inversion Hnd; assumption. }
   assert (Hsc0 : assoc x sc0 = None /\ lookup_scopes x l' = None).
   { cbn [lookup_scopes] in Hn. destruct (assoc x sc0); [discriminate|]. auto. }
+  assert (Hdel0 : assoc_del x (assoc_set x cx sc0) = sc0) by (apply assoc_del_set_absent; exact (proj1 Hsc0)).
   assert (Hce4 : cell_get g4 ce = Some (VInt hi)).
-  { unfold cell_get, ce. cbn [g4 cells]. rewrite Nnat.Nat2N.id, nth_error_app2, Nat.sub_diag by lia. reflexivity. }
-  assert (Hcen : forall c k, ~ b2 c ce k).
-  { intros c k Hbc. destruct (heap_valid path prog _ _ _ _ _ _ (cl_heap _ _ _ _ _ _ _ _ _ _ _ _ HC3t) Hbc) as [_ Hv]. unfold ce in Hv. rewrite Nnat.Nat2N.id in Hv. lia. }
+  { unfold cell_get, ce. rewrite Ec4, Nnat.Nat2N.id, nth_error_app2, Nat.sub_diag by lia. reflexivity. }
   assert (Hbx : b2 cx c'x KD) by (right; auto).
-  assert (SM4 : smid b s a g b2 s1' (upd a1 (S k3) []) g4).
-  { eapply smid_trans; [exact SM2|]. unfold smid. split; [eapply xrun_trans; [exact R3|exact R4]|]. split; [apply bext_refl|].
-    split; [cbn [g4 frames tl]; rewrite <- (ext_tail _ _ _ _ _ He3); change (frames g3) with (frames g3t); now rewrite Ef3|].
-    split; [repeat split|]. split; [reflexivity|].
-    destruct (ext_cells _ _ _ _ _ He3) as [extra Ec].
-    split; [apply (keep_cells_app _ _ _ (extra ++ [VInt hi])); cbn [g4 cells g3t trc add_trace]; rewrite Ec, <- app_assoc; reflexivity|].
-    split; [lia|cbn [g4 cells g3t trc add_trace]; rewrite Ec, !app_length; lia]. }
-  (* ---- leaving the loop: delete the counter and the end register *)
-  assert (Hexit : forall a5 g5 env5 s5 b5, locals env5 = lL -> ClA b5 B2 env5 s5 g5 -> frames g5 = F2 :: R -> a_ip a5 = kd ->
-            exists g6, xrun prog name code a5 g5 (set_ip a5 (S kd)) g6 /\ ClA b5 B (undeclare env5 x) s5 g6 /\
-                       frames g6 = {| lab := lab F2; vars := assoc_del endr (assoc_del x (vars F2)) |} :: R /\ cells g6 = cells g5 /\
-                       locals (undeclare env5 x) = sc0 :: l').
-  { intros a5 g5 env5 s5 b5 El5 HC5 Ef5 Hip5.
+  assert (SMH : smid b s a g b2 s1' a4 g4).
+  { eapply smid_trans; [exact SM2|]. eapply smid_trans; [exact SM3|exact SM4]. }
+  assert (LKH : lkeep lr (frames g) (frames g4)).
+  { apply (lkeep_trans lr (frames g) (frames g1) (frames g4)); [exact LK1|].
+    apply (lkeep_trans lr (frames g1) (frames g2) (frames g4)).
+    { change (frames g1) with (frames g1t). rewrite Ef1. cbn [g2 frames]. apply lk_bind. intros j. apply uname0_not_lregn. exact Hx. }
+    apply (lkeep_trans lr (frames g2) (frames g3) (frames g4)); [exact LK3|].
+    rewrite Ef3, Ef4. apply lk_bind2. intros j Hjj E. exact (proj1 (Hlkj j Hjj) (eq_sym E)). }
+  apply (spost_seq b B rb lr sl bt ct fin env s a g b2 env1 s1' a4 g4 _ SMH LKH);
+    [split; [cbn [env1 locals tl]; rewrite El; reflexivity|cbn [env1 locals]; discriminate]|].
+  eapply (from_loop body Hbody incl step x x endr false lr lr sl bt ct B B2 B1 rb kc lbd ls (k0 + length fa + 0) fin cbody fbd cs fuel
+            ltac:(lia) hi cx c'x ce F2 R lL (sc0 :: l') (fun e => undeclare e x)).
+  - exact Eb.
+  - exact Est.
+  - exact Ebc.
+  - exact Hinbd.
+  - lia.
+  - reflexivity.
+  - reflexivity.
+  - exact Hc1.
+  - exact Hc2'.
+  - exact Hc3'.
+  - exact Hw'.
+  - exact Hib'.
+  - exact Hcs'.
+  - exact Hst'.
+  - exact Hj'.
+  - eapply lrok_mono; [exact Hlrk|]. unfold fin, kd, kj, kst, ks, kb, kw, kc, k3, k1 in *. lia.
+  - unfold fin. lia.
+  - exact Hend.
+  - cbn [lL lookup_scopes]. now rewrite assoc_set_same.
+  - cbn [find_in_function]. now rewrite HaxF2.
+  - exact HaeF2.
+  - discriminate.
+  - split; [discriminate|reflexivity].
+  - intros envX EX. eapply bound2_eq; [exact Hb2|]. rewrite EX. reflexivity.
+  - intros envX EX. eapply bound2_eq; [exact Hb|]. rewrite EX, El. reflexivity.
+  - intros bB env2 s2' g2' HCB Htl2 Hne2 _ _ HbxB.
+    destruct (cl_B _ _ _ _ _ _ _ _ _ _ _ _ HCB x KD ltac:(cbn [B2 assoc]; now rewrite str_eqb_refl)) as (_ & c2 & c2' & Y1 & Y2 & Y3).
+    assert (Hlx2 : lookup_scopes x (locals env2) = Some cx).
+    { destruct (locals env2) as [|sc2 l2] eqn:E2l; [congruence|]. cbn [tl] in Htl2. subst l2.
+      apply NS_lookup_tl; [rewrite <- E2l; exact (cl_ns _ _ _ _ _ _ _ _ _ _ _ _ HCB)|exact (proj2 (proj2 Hx))|].
+      cbn [lL lookup_scopes]. now rewrite assoc_set_same. }
+    rewrite Hlx2 in Y1. inversion Y1; subst c2.
+    destruct (proj2 (cl_heap _ _ _ _ _ _ _ _ _ _ _ _ HCB) _ _ _ _ _ _ Y3 HbxB) as [Hiff _]. assert (c2' = c'x) by (apply Hiff; reflexivity). congruence.
+  - reflexivity.
+  - intros envX EX. unfold undeclare. rewrite EX. cbn [locals lL]. now rewrite Hdel0.
+  - intros k E. exact (src_name_not_reg x k (proj1 Hx) E).
+  - (* leaving the loop: delete the counter and the end register *)
+    intros a5 g5 env5 s5 b5 El5 HC5' Ef5 Hip5 Hops5. change (a_ip a5 = kd) in Hip5.
     set (vs := assoc_del endr (assoc_del x (vars F2))).
     set (i_d := mkI OP_DELETE_NAME_SCOPED [x; endr]) in *.
     set (g5t := trc name a5 g5 i_d).
-    exists (with_frames g5t ({| lab := lab F2; vars := vs |} :: R)).
-    assert (Hdel0 : assoc_del x (assoc_set x cx sc0) = sc0) by (apply assoc_del_set_absent; exact (proj1 Hsc0)).
-    split; [|split; [|split; [reflexivity|split; [reflexivity|]]]].
-    - rewrite <- Hip5. eapply (xstep_next prog name code a5 g5 i_d _ (a_ip a5) a5); [reflexivity|rewrite Hip5; exact Hdel'|apply dec_delete2|].
-      exact (exec_delete2 x endr a5 g5t F2 R c'x ce Ef5 Hxe HaxF2 HaeF2).
-    - apply (Cl_undeclare path prog cb CD base name SF b5 B env5 s5 g5t x KD (assoc_set x cx sc0) l' F2 R vs (Cl_trc _ _ _ _ _ _ _ _ HC5) El5 Ef5 Hx HxBn).
-      + intros y Hy Hne. assert (y <> endr) by (intros ->; exact (lregn_not_uname0 _ Hy)).
-        unfold vs. now rewrite !assoc_del_other by assumption.
-      + unfold vs. rewrite assoc_del_other by exact Hxe. now apply assoc_del_nd_none.
+    exists (set_ip a5 (S kd)), (with_frames g5t ({| lab := lab F2; vars := vs |} :: R)).
+    assert (Hvs : forall y, y <> x -> y <> endr -> assoc y vs = assoc y (vars F2)) by (intros y H1 H2; unfold vs; now rewrite !assoc_del_other by assumption).
+    split.
+    { rewrite <- Hip5. eapply (xstep_next prog name code a5 g5 i_d _ (a_ip a5) a5); [reflexivity|rewrite Hip5; atp Hdel|apply dec_delete2|].
+      exact (exec_delete2 x endr a5 g5t F2 R c'x ce Ef5 Hie HaxF2 HaeF2). }
+    split; [cbn [set_ip a_ip]; unfold fin; lia|]. split; [exact Hops5|]. split; [repeat split|]. split; [reflexivity|]. split; [reflexivity|].
+    split; [reflexivity|]. split.
+    { intros j Hjj. cbn [with_frames frames find_in_function vars lab]. rewrite Hvs; [reflexivity| |exact (proj1 (Hlkj j Hjj))].
+      intros E. exact (uname0_not_lregn x j Hx (eq_sym E)). }
+    split.
+    { apply (Cl_undeclare path prog cb CD base name SF b5 B env5 s5 g5t x KD (assoc_set x cx sc0) l' F2 R vs (Cl_trc _ _ _ _ _ _ _ _ HC5') El5 Ef5 Hx HxBn).
+      + intros y Hy Hne0. apply Hvs; [exact Hne0|]. intros ->. exact (lregn_not_uname0 _ Hy).
+      + unfold vs. rewrite assoc_del_other by exact Hie. now apply assoc_del_nd_none.
       + rewrite Hdel0. exact (proj1 Hsc0).
       + exact (proj2 Hsc0).
-      + unfold vs. apply keys_nd_assoc_del. apply keys_nd_assoc_del. exact HndF2.
-    - unfold undeclare. rewrite El5. cbn [locals lL]. now rewrite Hdel0. }
-  assert (HbX : forall envX, locals envX = sc0 :: l' -> bound2 B envX).
-  { intros envX EX. eapply bound2_eq; [exact Hb|]. rewrite EX, El. reflexivity. }
-  assert (Hd0 : forall envX envL, locals envL = lL -> locals envX = sc0 :: l' -> same_tl envL envX).
-  { intros envX envL EL EX. split; [rewrite EX, EL; reflexivity|rewrite EX; discriminate]. }
-  (* ---- the loop *)
-  assert (Hloop : forall n aL gL envL sL bL, locals envL = lL -> ClA bL B2 envL sL gL -> frames gL = F2 :: R ->
-            a_ip aL = kc -> a_cb aL = cb -> length lL <= S (a_ss aL) -> bL cx c'x KD ->
-            cell_get gL ce = Some (VInt hi) -> (forall c k, ~ bL c ce k) ->
-            spost bL B rb sl bt ct fin envL sL aL gL (from_iter fuel incl hi None x false body n envL sL)).
-  { induction n as [|n IH]; intros aL gL envL sL bL ElL HCL EfL HipL HcbL HssL HbxL HceL HcnL; [exact Logic.I|].
-    rewrite from_iter_S. rewrite ElL. cbn [lL lookup_scopes]. rewrite assoc_set_same.
-    destruct (proj1 (cl_heap _ _ _ _ _ _ _ _ _ _ _ _ HCL) _ _ _ HbxL) as (vx & wx & Esx & Ecx & [Hfox ->]). rewrite Esx.
-    destruct vx as [i|?|?| |? ? ?]; try exact Logic.I. cbn [inj] in Ecx.
-    assert (FxL : find_in_function x (frames gL) = Some c'x) by (rewrite EfL; cbn [find_in_function]; now rewrite HaxF2).
-    assert (FeL : find_in_function endr (frames gL) = Some ce) by (rewrite EfL; cbn [find_in_function]; now rewrite HaeF2).
-    destruct (cond_run2 kc x endr incl aL gL c'x ce i hi Hc1 Hc2' Hc3' HipL FxL Ecx FeL HceL) as (gc & Rc & Efc & Ecc & Eoc).
-    set (bb := if incl then (i <=? hi)%Z else (i <? hi)%Z) in *.
-    set (ac := upd aL kw [VBool bb]) in *.
-    set (i_w := mkI OP_WHILE_LOOP [sN (lbd + 4)]) in *.
-    set (gct := trc name ac gc i_w).
-    assert (HCct : ClA bL B2 envL sL gct) by (apply Cl_trc; eapply Cl_same; [exact HCL|exact Ecc|exact Efc|exact Eoc]).
-    assert (Hdecw : decode i_w = DOk (DWhile (Z.of_nat (lbd + 4)))) by (apply dec_while; eapply small_le; [|exact Hsmall]; unfold fin, kd, kj, kpp, ks, kb in *; lia).
-    pose proof (exec_while_gen (Z.of_nat (lbd + 4)) ac gct [] bb eq_refl) as Hxw.
-    assert (SMc : smid bL sL aL gL bL sL ac gc) by (apply smid_same; [exact Rc|exact Efc|exact Ecc|repeat split|reflexivity]).
-    destruct bb.
-    2:{ (* the counter has passed the end: leave *)
-      set (a5 := set_ip (set_ops ac []) (kw + (lbd + 4))).
-      assert (R5 : xrun prog name code ac gc a5 gct).
-      { eapply (xstep_goto prog name code ac gc i_w _ kw _ (set_ops ac [])); [reflexivity|exact Hw'|exact Hdecw|exact Hxw|].
-        apply goto_fwd. cbn [set_ops a_ip ac upd set_ip]. unfold fin, kd, kj, kpp, ks, kb in *. lia. }
-      destruct (Hexit a5 gct envL sL bL ElL HCct ltac:(change (frames gct) with (frames gc); now rewrite Efc, EfL)
-                  ltac:(cbn [a5 set_ip a_ip]; unfold kd, kj, kpp, ks, kb; lia)) as (g6 & R6 & HC6 & Ef6 & Ec6 & El6).
-      cbn [spost]. split; [exact (Hd0 _ _ ElL El6)|]. split; [exact (HbX _ El6)|].
-      exists (set_ip a5 (S kd)), g6, bL. split; [|split; [reflexivity|split; [reflexivity|exact HC6]]].
-      eapply smid_trans; [exact SMc|]. unfold smid. split; [eapply xrun_trans; [exact R5|exact R6]|]. split; [apply bext_refl|].
-      split; [rewrite Ef6, Efc, EfL; reflexivity|]. split; [repeat split|]. split; [reflexivity|].
-      split; [apply (keep_cells_app _ _ _ []); rewrite app_nil_r; exact Ec6|]. split; [lia|rewrite Ec6; cbn; lia]. }
-    (* one more iteration: push <while>, run the body *)
-    set (a0' := set_ip (set_ops ac []) (S (a_ip ac))).
-    set (ap := set_ss a0' (S (a_ss a0'))). set (gp := push_frame gct LWhile).
-    assert (Rp : xrun prog name code ac gc ap gp).
-    { eapply (xstep_push prog name code ac gc i_w _ kw LWhile (set_ops ac [])); [reflexivity|exact Hw'|exact Hdecw|exact Hxw]. }
-    assert (HbL : bound2 B2 envL) by (eapply bound2_eq; [exact Hb2|rewrite ElL; reflexivity]).
-    assert (HneL : locals envL <> []) by (rewrite ElL; discriminate).
-    assert (HC0 : ClA bL B2 (push_scope envL) sL gp) by (apply Cl_push; [exact HCct|reflexivity]).
-    assert (Hb0 : bound2 B2 (push_scope envL)) by (destruct HbL as [X1 X2]; split; [intros y; cbn [push_scope locals lookup_scopes assoc]; apply X1|exact X2]).
-    pose proof (Hbody bL B2 (S lr) true (Some 1) kd ks k0 fuel kb ap gp (push_scope envL) sL B1 rb ltac:(lia) Eb Hb0) as Hbd.
-    rewrite Ebc in Hbd. cbn [fst snd] in Hbd. fold lbd in Hbd.
-    specialize (Hbd Hinst Hib' ltac:(left; unfold fin, kd, kj, kpp, ks in *; lia)
-                    ltac:(split; [discriminate|intros m Hm; inversion Hm; subst m; cbn [push_scope locals length]; rewrite ElL; cbn [lL length];
-                                  unfold fin, kd, kj, kpp, ks in *; repeat split; lia])
-                    eq_refl ltac:(cbn [ap a0' ac set_ss upd set_ip set_ops a_cb]; exact HcbL) eq_refl
-                    ltac:(cbn [push_scope locals length ap a0' ac set_ss upd set_ip set_ops a_ss]; rewrite ElL; apply le_n_S; exact HssL) HC0).
-    fold ks in Hbd. unfold in_block_.
-    assert (Ecp : cells gp = cells gL) by (cbn [gp push_frame with_frames cells gct trc add_trace]; exact Ecc).
-    assert (Efct : frames gct = F2 :: R) by (change (frames gct) with (frames gc); now rewrite Efc, EfL).
-    assert (Hnames2 : forall bB, cinj_le bL bB -> forall y k, assoc y B2 = Some k -> uname0 y /\ exists c c', lookup_scopes y (locals envL) = Some c /\ bB c c' k)
-      by (intros bB Hle; exact (Cl_names bL bB B2 envL sL gct HCct Hle)).
-    (* ---- the end of the body (normal, or `continue`): the step, the back edge, the next iteration *)
-    assert (Hstep : forall bB s2 a2' g2' env2, jmid bL sL ap gp bB s2 a2' g2' -> a_ip a2' = ks -> a_ops a2' = [] -> ClA bB [] env2 s2 g2' ->
-              tl (frames g2') = frames gct -> tl (locals env2) = lL -> locals env2 <> [] ->
-              spost bL B rb sl bt ct fin envL sL aL gL
-                (match sget s2 cx, RInt 1 with
-                 | Some (RInt i'), RInt d => if i32_ok (i' + d)%Z then from_iter fuel incl hi None x false body n (pop_scope env2) (sset s2 cx (RInt (i' + d)%Z))
-                                             else SFailed FOverflow s2
-                 | _, _ => SFailed (FType 13) s2 end)).
-    { intros bB s2 a2' g2' env2 J HipB HopsB HC2w TB Htl2 Hne2. unfold jmid in J. destruct J as (RB & EB & AB & SB & KB & LB).
-      assert (Epop : locals (pop_scope env2) = lL) by exact Htl2.
-      assert (HleB : cinj_le bL bB) by exact (proj1 EB).
-      destruct (Cl_body_end bB B2 envL env2 s2 g2' HC2w ltac:(rewrite ElL; exact Htl2) HneL Hne2 HbL (Hnames2 bB HleB)) as [HCB _].
-      assert (HbxB : bB cx c'x KD) by (exact (HleB _ _ _ HbxL)).
-      assert (Hlx2 : lookup_scopes x (locals env2) = Some cx).
-      { destruct (locals env2) as [|sc2 l2] eqn:E2l; [congruence|]. cbn [tl] in Htl2. subst l2.
-        apply NS_lookup_tl; [rewrite <- E2l; exact (cl_ns _ _ _ _ _ _ _ _ _ _ _ _ HCB)|exact (proj2 (proj2 Hx))|].
-        cbn [lL lookup_scopes]. now rewrite assoc_set_same. }
-      assert (Fx2 : find_in_function x (frames g2') = Some c'x).
-      { destruct (cl_B _ _ _ _ _ _ _ _ _ _ _ _ HCB x KD ltac:(cbn [B2 assoc]; now rewrite str_eqb_refl))
-          as (_ & c2 & c2' & A1 & A2 & A3). rewrite Hlx2 in A1. inversion A1; subst c2.
-        destruct (proj2 (cl_heap _ _ _ _ _ _ _ _ _ _ _ _ HCB) _ _ _ _ _ _ A3 HbxB) as [Hiff _]. assert (c2' = c'x) by (apply Hiff; reflexivity). congruence. }
-      destruct (proj1 (cl_heap _ _ _ _ _ _ _ _ _ _ _ _ HCB) _ _ _ HbxB) as (vx2 & wx2 & Esx2 & Ecx2 & [Hfox2 ->]). rewrite Esx2.
-      destruct vx2 as [i'|?|?| |? ? ?]; try exact Logic.I. cbn [inj] in Ecx2.
-      (* make_int 1 *)
-      set (i_m := mkI OP_MAKE_INT [s_one]) in *.
-      set (aM := set_ip (set_ops a2' [VInt 1]) (S (a_ip a2'))). set (gM := trc name a2' g2' i_m).
-      assert (HipM : a_ip aM = kpp) by (cbn [aM set_ip a_ip]; now rewrite HipB).
-      assert (RM : xrun prog name code a2' g2' aM gM).
-      { eapply (xstep_next prog name code a2' g2' i_m _ (a_ip a2') (set_ops a2' [VInt 1])); [reflexivity|rewrite HipB; exact Hs1'|exact (dec_make_int 1 eq_refl)|].
-        rewrite exec_make_int, HopsB. reflexivity. }
-      (* += x *)
-      set (i_a := mkI OP_BIN_OP_ASSIGN [[43%N; 61%N]; x]) in *.
-      set (gMt := trc name aM gM i_a).
-      assert (HcbB : a_cb a2' = cb).
-      { destruct AB as (_ & _ & X3). cbn [ap a0' ac set_ss set_ip set_ops upd a_cb] in X3. congruence. }
-      assert (Hlv : lookup_var aM gMt x = Some c'x) by (unfold lookup_var; change (frames gMt) with (frames g2'); now rewrite Fx2).
-      pose proof (exec_bin_op_assign [43%N; 61%N] x aM gMt c'x (VInt 1) (VInt i') Hlv eq_refl Ecx2) as Hxa.
-      change (op_base [43%N; 61%N]) with op_plus in Hxa.
-      change (bin_op_sem op_plus (VInt i') (VInt 1)) with (arith OP_BIN_OP (i' + 1)%Z) in Hxa. unfold arith in Hxa.
-      assert (R0B : xrun prog name code aL gL a2' g2') by (eapply xrun_trans; [exact Rc|]; eapply xrun_trans; [exact Rp|exact RB]).
-      destruct (i32_ok (i' + 1)%Z).
-      2:{ cbn [spost fail_post]. exists (E_overflow OP_BIN_OP), gMt.
-          split; [|split; [left; reflexivity|exact (cl_out _ _ _ _ _ _ _ _ _ _ _ _ HCB)]].
-          eapply xrun_fail; [exact R0B|]. eapply xrun_fail; [exact RM|].
-          eapply xstep_fail; [exact HipM|exact Hs2'|apply dec_bin_op_assign|exact Hxa]. }
-      set (sS := sset s2 cx (RInt (i' + 1)%Z)).
-      set (aS := set_ip (set_ops aM [VInt (i' + 1)%Z]) (S (a_ip aM))).
-      assert (HipS : a_ip aS = kj) by (cbn [aS set_ip a_ip]; now rewrite HipM).
-      set (gS := cell_set gMt c'x (VInt (i' + 1)%Z)).
-      assert (RS : xrun prog name code aM gM aS gS).
-      { eapply (xstep_next prog name code aM gM i_a _ (a_ip aM) (set_ops aM [VInt (i' + 1)%Z])); [reflexivity|rewrite HipM; exact Hs2'|apply dec_bin_op_assign|exact Hxa]. }
-      assert (HCS : ClA bB B2 env2 sS gS).
-      { apply (Cl_update path prog cb CD base name SF bB B2 env2 s2 gMt cx c'x KD (RInt (i' + 1)%Z) (VInt (i' + 1)%Z)); [do 2 apply Cl_trc; exact HCB|exact HbxB|].
-        split; [exact Logic.I|reflexivity]. }
-      set (ij := mkI OP_JMP_POP [neg_off (lbd + 6)]) in *.
-      set (gN := with_frames (trc name aS gS ij) (tl (frames gS))).
-      assert (RN : xrun prog name code aS gS (set_ip aS kc) gN).
-      { apply (back_edge2 kj (lbd + 6) kc aS gS Hj'); [unfold fin, kd, kj, kpp, ks, kb, kw in *; lia|unfold fin, kd in *; lia|
-          unfold kj, kpp, ks, kb, kw; lia|exact HipS|exact (proj2 (Rfr2_ne _ _ _ (cl_fr _ _ _ _ _ _ _ _ _ _ _ _ HCS)))]. }
-      assert (HCN : ClA bB B2 (pop_scope env2) sS gN).
-      { destruct (Cl_body_end bB B2 envL env2 sS (trc name aS gS ij) (Cl_weaken _ _ _ _ _ _ _ _ _ _ _ _ (Cl_trc _ _ _ _ _ _ _ _ HCS))
-                    ltac:(rewrite ElL; exact Htl2) HneL Hne2 HbL (Hnames2 bB HleB)) as [_ H0]. exact H0. }
-      assert (EfN : frames gN = F2 :: R).
-      { cbn [gN with_frames frames]. change (frames gS) with (frames g2'). rewrite TB. exact Efct. }
-      assert (Hcne : ce <> c'x) by (intros E; apply (HcnL cx KD); rewrite E; exact HbxL).
-      assert (SMN : smid bL sL aL gL bB sS (set_ip aS kc) gN).
-      { unfold smid. split; [eapply xrun_trans; [exact R0B|]; eapply xrun_trans; [exact RM|]; eapply xrun_trans; [exact RS|exact RN]|].
-        split; [destruct EB as [E1 E2]; split; [exact E1|]; intros c c' k Hbc; destruct (E2 c c' k Hbc) as [H0|[H1 H2]]; [now left|right; rewrite <- Ecp; auto]|].
-        split; [rewrite EfN, EfL; reflexivity|].
-        split; [destruct AB as (X1 & X2 & X3); cbn [ap a0' ac set_ss set_ip set_ops upd a_fn a_args a_cb] in X1, X2, X3; repeat split; assumption|].
-        split; [cbn [set_ip aS aM upd set_ops a_ss]; cbn [ap a0' ac set_ss set_ip set_ops upd a_ss] in SB; lia|].
-        split.
-        - intros c' w0 Hc' Hn0. assert (Hgp : cell_get gp c' = Some w0) by (unfold cell_get in *; rewrite Ecp; exact Hc').
-          pose proof (KB c' w0 Hgp Hn0) as H2. unfold cell_get in *. cbn [gN with_frames cells trc add_trace gS cell_set gMt gM].
-          rewrite nth_error_set_nth_other; [exact H2|]. intros E. apply N2Nat.inj in E. subst c'. exact (Hn0 cx KD HbxL).
-        - destruct LB as [L1 L2]. split; [cbn [sS sset store]; rewrite set_nth_length; exact L1|].
-          cbn [gN with_frames cells trc add_trace gS cell_set gMt gM]. rewrite set_nth_length, <- Ecp. exact L2. }
-      assert (HceN : cell_get gN ce = Some (VInt hi)).
-      { assert (Hgp : cell_get gp ce = Some (VInt hi)) by (unfold cell_get in *; rewrite Ecp; exact HceL).
-        pose proof (KB ce _ Hgp HcnL) as H2. unfold cell_get in *. cbn [gN with_frames cells trc add_trace gS cell_set gMt gM].
-        rewrite nth_error_set_nth_other; [exact H2|]. intros E. apply N2Nat.inj in E. exact (Hcne (eq_sym E)). }
-      assert (HcnN : forall c k, ~ bB c ce k).
-      { intros c k Hbc. destruct (proj2 EB c ce k Hbc) as [H0|[_ H2]]; [exact (HcnL c k H0)|].
-        assert (N.to_nat ce < length (cells gL)) by (apply nth_error_Some; unfold cell_get in HceL; congruence). rewrite Ecp in H2. lia. }
-      eapply spost_seq; [exact SMN|split; [rewrite Epop, ElL; reflexivity|rewrite Epop; discriminate]|].
-      apply IH; [exact Epop|exact HCN|exact EfN|reflexivity|cbn [set_ip aS aM upd set_ops a_cb]; exact HcbB| |exact HbxB|exact HceN|exact HcnN].
-      cbn [set_ip aS aM upd set_ops a_ss]. cbn [ap a0' ac set_ss set_ip set_ops upd a_ss] in SB. lia. }
-    destruct (exec_block fuel (push_scope envL) body sL) as [sig env2 s2|f s2|]; cbn [spost] in Hbd |- *; [| |exact Logic.I].
-    2:{ eapply fail_post_map; [|exact Hbd]. intros (e0 & g' & Hf & Hr). exists e0, g'.
-        split; [eapply smid_fail; [exact SMc|]; eapply xrun_fail; [exact Rp|exact Hf]|exact Hr]. }
-    destruct Hbd as ([Htl2 Hne2] & H). cbn [push_scope locals tl] in Htl2. rewrite ElL in Htl2.
-    assert (Epop : locals (pop_scope env2) = lL) by exact Htl2.
-    assert (Hdel0 : assoc_del x (assoc_set x cx sc0) = sc0) by (apply assoc_del_set_absent; exact (proj1 Hsc0)).
-    assert (Hbxt : forall bB, bext bL bB sL gp -> bext bL bB sL gL).
-    { intros bB [E1 E2]. split; [exact E1|]. intros c c' k1' Hbc. destruct (E2 c c' k1' Hbc) as [H0|[H1 H2]]; [now left|right; rewrite <- Ecp; auto]. }
-    destruct sig as [| | |[v|]].
-    - (* the body ends normally *)
-      destruct H as (_ & a2' & g2' & bB & SMB & HipB & HopsB & HCB0).
-      apply (Hstep bB s2 a2' g2' env2 (jmid_of_smid _ _ _ _ _ _ _ _ SMB) HipB HopsB (Cl_weaken _ _ _ _ _ _ _ _ _ _ _ _ HCB0)); [|exact Htl2|exact Hne2].
-      unfold smid in SMB. exact (proj1 (proj2 (proj2 SMB))).
-    - (* break: leave the loop through the delete *)
-      destruct H as (m & aK & gK & bK & HslK & _ & J & Hip2K & Hops2K & HC2K & Hf2K). inversion HslK; subst m.
-      rewrite popn_1 in HC2K. cbn [gp push_frame with_frames frames skipn] in Hf2K.
-      unfold jmid in J. destruct J as (RB & EB & AB & SB & KB & LB).
-      assert (HC2B : ClA bK B2 (pop_scope env2) s2 gK).
-      { apply (Cl_B_of path prog cb CD base name SF bK B2 (pop_scope env2) s2 gK HC2K). intros y k E.
-        destruct (Hnames2 bK (proj1 EB) y k E) as (Hy & c & c' & A1 & A2). split; [exact Hy|]. exists c, c'. split; [|exact A2].
-        rewrite Epop, <- ElL. exact A1. }
-      destruct (Hexit aK gK (pop_scope env2) s2 bK Epop HC2B ltac:(rewrite Hf2K; exact Efct) Hip2K) as (g6 & R6 & HC6 & Ef6 & Ec6 & El6).
-      split; [exact (Hd0 _ _ ElL El6)|]. split; [exact (HbX _ El6)|].
-      exists (set_ip aK (S kd)), g6, bK. split; [|split; [reflexivity|split; [exact Hops2K|exact HC6]]].
-      eapply smid_trans; [exact SMc|]. unfold smid. split; [eapply xrun_trans; [exact Rp|]; eapply xrun_trans; [exact RB|exact R6]|].
-      split; [destruct EB as [E1 E2]; split; [exact E1|]; intros c c' k1' Hbc; destruct (E2 c c' k1' Hbc) as [H0|[H1 H2]]; [now left|right; auto]|].
-      split; [rewrite Ef6, Efc, EfL; reflexivity|].
-      split; [destruct AB as (X1 & X2 & X3); cbn [ap a0' ac set_ss set_ip set_ops upd a_fn a_args a_cb] in X1, X2, X3; repeat split; assumption|].
-      split; [cbn [ac upd set_ops set_ip a_ss]; cbn [ap a0' ac set_ss set_ip set_ops upd a_ss] in SB; lia|].
-      split; [intros c' w0 Hc' Hn0; unfold cell_get; rewrite Ec6; apply KB; [exact Hc'|exact Hn0]|].
-      destruct LB as [L1 L2]. split; [exact L1|rewrite Ec6; exact L2].
-    - (* continue: on to the step *)
-      destruct H as (m & aK & gK & bK & HslK & _ & J & Hip2K & Hops2K & HC2K & Hf2K). inversion HslK; subst m.
-      cbn [Nat.sub] in HC2K. rewrite popn_0 in HC2K. cbn [gp push_frame with_frames frames skipn] in Hf2K.
-      exact (Hstep bK s2 aK gK env2 J Hip2K Hops2K HC2K Hf2K Htl2 Hne2).
-    - (* return from inside the loop *)
-      destruct H as (a' & g' & b' & w & k & RB & HiB & HopsB & EB & HhB & HvB & HkB & HoB & HdrB & KB & LB).
-      split.
-      { unfold undeclare. rewrite Epop. cbn [locals lL]. rewrite Hdel0. split; [rewrite ElL; reflexivity|discriminate]. }
-      exists a', g', b', w, k. split; [eapply xrun_trans; [exact Rc|]; eapply xrun_trans; [exact Rp|exact RB]|].
-      split; [exact HiB|]. split; [exact HopsB|]. split; [exact (Hbxt _ EB)|].
-      split; [exact HhB|]. split; [exact HvB|]. split; [exact HkB|]. split; [exact HoB|]. split; [exact HdrB|]. split.
-      + intros c' w0 Hc' Hn0. apply KB; [unfold cell_get in *; rewrite Ecp; exact Hc'|exact Hn0].
-      + destruct LB as [L1 L2]. split; [exact L1|rewrite <- Ecp; exact L2].
-    - destruct H as (a' & g' & b' & RB & HiB & HopsB & EB & HhB & HkB & HoB & HdrB & KB & LB).
-      split.
-      { unfold undeclare. rewrite Epop. cbn [locals lL]. rewrite Hdel0. split; [rewrite ElL; reflexivity|discriminate]. }
-      exists a', g', b'. split; [eapply xrun_trans; [exact Rc|]; eapply xrun_trans; [exact Rp|exact RB]|].
-      split; [exact HiB|]. split; [exact HopsB|]. split; [exact (Hbxt _ EB)|].
-      split; [exact HhB|]. split; [exact HkB|]. split; [exact HoB|]. split; [exact HdrB|]. split.
-      + intros c' w0 Hc' Hn0. apply KB; [unfold cell_get in *; rewrite Ecp; exact Hc'|exact Hn0].
-      + destruct LB as [L1 L2]. split; [exact L1|rewrite <- Ecp; exact L2]. }
-  (* ---- put the pieces together *)
-  assert (Hd1 : same_tl env env1) by (split; [cbn [env1 locals tl]; rewrite El; reflexivity|cbn [env1 locals]; discriminate]).
-  eapply spost_seq; [exact SM4|exact Hd1|].
-  apply Hloop; [reflexivity|exact HC4|exact Ef4|reflexivity|cbn [upd set_ip set_ops a_cb]; exact Hcb1| |exact Hbx|exact Hce4|exact Hcen].
-  cbn [upd set_ip set_ops a_ss lL length]. rewrite Hss1. cbn [length] in Hss. exact Hss.
+      + unfold vs. apply keys_nd_assoc_del. apply keys_nd_assoc_del. exact HndF2. }
+    unfold undeclare. rewrite El5. cbn [locals lL]. now rewrite Hdel0.
+  - reflexivity.
+  - exact HC4.
+  - exact Ef4.
+  - reflexivity.
+  - cbn [a4 a3 a2 upd set_ip set_ops a_cb]. exact Hcb1.
+  - cbn [a4 a3 a2 upd set_ip set_ops a_ss lL length]. rewrite Hss1. cbn [length] in Hss. exact Hss.
+  - exact Hbx.
+  - exact Hce4.
+  - exact Hn4.
 Qed.
 
 Theorem sspec_all : forall st, sspec st.
@@ -2701,11 +3306,7 @@ Proof.
   - intros cnd body els _ Hb He. apply ifelse_sim; apply bspec_of; assumption.
   - intros cnd body nxt _ Hb Hn. apply ifelif_sim; [apply bspec_of; exact Hb|exact Hn].
   - intros cnd body _ Hb. apply while_sim. apply bspec_of. exact Hb.
-  - intros a0 b0 incl step nm collide body _ _ _ Hbody.
-    destruct step as [e|]; [intros b B lr il sl bt ct k0 fuel kp a g env s B' rets Hfu Hk; discriminate|].
-    destruct nm as [x|]; [|intros b B lr il sl bt ct k0 fuel kp a g env s B' rets Hfu Hk; discriminate].
-    destruct collide; [intros b B lr il sl bt ct k0 fuel kp a g env s B' rets Hfu Hk; discriminate|].
-    apply from_sim. apply bspec_of. exact Hbody.
+  - intros a0 b0 incl step nm collide body _ _ _ Hbody. apply from_sim. apply bspec_of. exact Hbody.
   - apply break_sim.
   - apply continue_sim.
   - intros [e|] _; [apply return_sim|apply return_none_sim].
